@@ -1,35 +1,58 @@
 """C02 -- row/column subset reads equal indexing the fully-read table.
 
-Structural rules (DESIGN 5/C02): slice normalisation, row-list normalisation,
-column normalisation, fields/columns synonym discipline, one funnel into the
-C++ read primitives, total post-processing helpers, cursor pairing in the C++
+Rules (DESIGN 5/C02): slice normalisation, row-list normalisation, column
+normalisation, fields/columns synonym discipline, one funnel into the C++ read
+primitives, total post-processing helpers, cursor pairing in the C++
 skip-and-read loops.
+
+Every rule is decided, where possible, by *bounded abstract evaluation*: the
+parsed bodies of the selection helpers (Python ast) and of the skip-and-read
+loops (clang AST) are evaluated on model values -- a model Recfile whose C++
+object records the calls that reach it, a model file with a cursor -- for every
+input of a small box, and what comes out is compared with the specification
+(Python's slice semantics, sorted(set(rows)), file order of columns, the bytes
+indexing the full table would give).  Such a verdict does not depend on how the
+code is laid out.  When the code leaves the evaluator's fragment the rule falls
+back to its structural (template) form, and when that does not recognise the
+construct either there is no verdict.
 """
 import ast
+import os
 
 from vcheck import cfront, rules
 from vcheck.core import PyRepo, AnalysisError, call_name, dotted_name, kwarg, norm, walk_no_nested
 from vcheck.rules import cfg_of
 
 MANIFEST = dict(
-    text="Structural rule checking (not a behavioural proof), for all selections at once: (1) every slice consumed on a path "
-         "from Recfile/RecfileColumnSubset bracket access is normalised by slice.indices(<row count>) (Python's own slice "
-         "semantics) with results used unmodified, empty selections do not raise, and the row-count formula is the ceiling "
-         "division in Python and C++ alike; (2) explicit row lists pass numpy.unique, are range-checked by a raise that "
-         "dominates the normal return and are never clamped; (3) column names map to unique sorted column numbers and unknown "
-         "names raise; (4) the fields/columns synonyms are merged before either is used; (5) only Recfile's two private readers "
-         "call the C++ read primitives and every access style (keyword read, brackets, column-subset objects, SFile) funnels "
-         "into them with argument roles preserved; (6) split/reduce helpers are total and order preserving; (7) in the C++ "
-         "skip-and-read loops every skip is followed by the matching cursor update and each iteration advances the cursors once.",
-    note="Not decided: element-wise equality with in-memory indexing (numpy indexing, libc reads trusted). Assumes positive "
-         "slice steps (property quantifier). Trusted: slice.indices, numpy.unique, CPython ast, clang AST, SWIG naming.",
-    technique="static analysis: AST/CFG dominance and def-use rules, who-may-call over the resolved call graph, C++ loop cursor-pairing on clang AST",
+    text="Rule checking by bounded abstract evaluation of the parsed sources (not a proof for all table sizes), for all selections of "
+         "small model tables at once: (1) every slice of the property's box given to Recfile/RecfileColumnSubset bracket access selects "
+         "exactly the rows Python's slice semantics select, never raises, and the row-count formula is the ceiling division in Python "
+         "and C++ alike; (2) explicit row lists reach the reader distinct and ascending, out-of-range rows raise and are never clamped; "
+         "(3) column names map to unique sorted column numbers, unknown names raise, a single name yields a plain array; (4) the "
+         "fields/columns synonyms are merged before either is used; (5) only Recfile's two private readers call the C++ read "
+         "primitives and every access style (keyword read, brackets, column-subset objects, SFile) funnels into them with argument "
+         "roles preserved; (6) split/reduce helpers are total and order preserving; (7) the C++ skip-and-read loops, evaluated over a "
+         "file-cursor model for every row/column selection of a small table, transfer exactly the bytes that indexing the full table "
+         "would give.  Where the code leaves the evaluator's fragment the structural form of the rule is used instead.",
+    note="Not decided: element-wise equality with in-memory indexing for all table sizes (numpy indexing, libc reads and the per-column "
+         "text scanner are trusted; the evaluation is exhaustive only over small model tables). Assumes positive slice steps (property "
+         "quantifier). Trusted: slice.indices, numpy.unique, CPython ast, clang AST, SWIG naming.",
+    technique="static analysis: bounded abstract evaluation of Python ast / clang AST over model objects and a file-cursor model; AST/CFG "
+              "dominance and def-use rules, who-may-call over the resolved call graph as structural fallback",
 )
 
 
-# rules that keep their verdict however the code is laid out (decided by term equality, effect analysis or dominance over
-# resolved calls); every other rule of this check is a template rule (vcheck.core.Check.obt)
-SEMANTIC = ('R02.1b', 'R02.1c', 'R02.2a', 'R02.2b', 'R02.2c', 'R02.4', 'R02.6b', 'R02.6c', 'R02.7i')
+# rules that keep their verdict however the code is laid out: decided by bounded evaluation of the parsed code against the
+# specification (every `eval::` instance), by term equality, reaching definitions, effect analysis or dominance over resolved calls.
+# Every other rule instance of this check is a template rule (vcheck.core.Check.ob / set_templates).
+SEMANTIC = ('R02.1b', 'R02.1c', 'R02.1e', 'R02.2a', 'R02.2b', 'R02.2c', 'R02.4', 'R02.6b', 'R02.6c', 'R02.7i',
+            'R02.1f::eval::', 'R02.3a::eval::', 'R02.3b::eval::', 'R02.3c::eval::', 'R02.3d::eval::',
+            'R02.5b::eval::', 'R02.5c::eval::', 'R02.5d::eval::', 'R02.5e::eval::', 'R02.5f::eval::',
+            'R02.6a::eval::', 'R02.6d::eval::', 'R02.6e::eval::',
+            'R02.7a::eval::', 'R02.7b::eval::', 'R02.7e::eval::', 'R02.7f::eval::', 'R02.7j::eval::')
+
+CPP = "esutil/recfile/records.cpp"
+U = "esutil.recfile.Util."
 
 
 def run(chk):
@@ -39,207 +62,352 @@ def run(chk):
     chk.trusted = ["slice.indices", "numpy.unique", "CPython ast", "clang 14 AST", "networkx"]
     chk.assume("slice steps are positive (property quantifier)")
     chk.floor = 40
-    U = "esutil.recfile.Util."
-    F = {k: repo.func(U + "Recfile." + k) for k in
-         ("read", "_read_columns", "_read_binary_slice", "__getitem__", "_get_slice_nrows", "_process_args_as_rows_or_columns",
-          "_get_rows2read", "_get_colnums_to_read", "get_colnums", "get_colnum")}
+    # public anchors must exist; private helpers may have been inlined, renamed or split
+    F = {k: repo.func(U + "Recfile." + k) for k in ("read", "__getitem__")}
+    for k in ("_read_columns", "_read_binary_slice", "_get_slice_nrows", "_process_args_as_rows_or_columns",
+              "_get_rows2read", "_get_colnums_to_read", "get_colnums", "get_colnum"):
+        F[k] = repo.funcs.get(U + "Recfile." + k)
     for f in F.values():
-        chk.analysed_unit(f.qualname)
+        if f is not None:
+            chk.analysed_unit(f.qualname)
     cfun = cfront.functions(cfront.load_tu("records"))
+    # the evaluations run on the sources exactly as written (no rename-undo: they do not look at the names of locals)
+    S = _Sims(_raw_repo(), cfront.functions(cfront.load_tu("records", _raw=True)))
 
-    r02_1(chk, repo, F, cfun)
-    r02_2(chk, repo, F)
-    r02_3(chk, repo, F)
-    r02_4(chk, repo)
-    r02_5(chk, repo, F, cfun)
-    r02_6(chk, repo)
-    r02_7(chk, cfun)
+    r02_1(chk, repo, F, cfun, S)
+    r02_2(chk, repo, F, S)
+    r02_3(chk, repo, F, S)
+    r02_4(chk, repo, S)
+    r02_5(chk, repo, F, cfun, S)
+    r02_6(chk, repo, S)
+    r02_7(chk, cfun, S)
+
+
+def _raw_repo():
+    old = os.environ.get("VCHECK_NO_RENAME")
+    os.environ["VCHECK_NO_RENAME"] = "1"
+    try:
+        return PyRepo()
+    finally:
+        if old is None:
+            del os.environ["VCHECK_NO_RENAME"]
+        else:
+            os.environ["VCHECK_NO_RENAME"] = old
 
 
 # ---------------------------------------------------------------------------
-def _slice_consumers(repo):
-    """functions of recfile.Util that read .start/.stop/.step of a parameter or
-    take (start, stop, step) parameters"""
-    out = []
-    for q, fi in repo.funcs.items():
-        if not q.startswith("esutil.recfile.Util."):
-            continue
-        attrs = {x.attr for x in ast.walk(fi.node) if isinstance(x, ast.Attribute) and isinstance(x.value, ast.Name)
-                 and x.value.id in fi.params}
-        if {"start", "stop"} <= attrs or {"start", "stop"} <= set(fi.params):
-            out.append(fi)
-    return out
+# evaluations, computed once and on demand
+# ---------------------------------------------------------------------------
+class _Sims(object):
+    SCOPE = {
+        "brackets": "every slice with start, stop in [-n-2, n+2] or None and step in {None,1,2,3} on n = 0 and 4 rows, binary, text and "
+                    "column-subset bracket access; row lists / tuples / arrays / numbers and column names / lists",
+        "read/rows": "Recfile.read(rows=...) for 23 row requests (None, empty, unsorted, repeated, scalar, negative, out of range) on text and binary",
+        "read/cols": "Recfile.read(fields=/columns=...) for 13 column requests (scalar, list, tuple, array, repeated, unknown) on text and binary",
+        "read/dispatch": "Recfile.read for 7 row x 4 column requests x split on text and binary",
+        "subsets": "RecfileColumnSubset / RecfileSubset built from either synonym, read with and without rows and split",
+        "sfile": "SFile.read and sfile.read for 2 row x 5 column requests x split x reduce x header; SFile[...]",
+        "c/columns": "every row selection (all, none, 7 subsets) x every column selection (7 subsets) of a 3-row, 3-column table",
+        "c/slice": "every slice 0 <= row1 <= row2 <= 5, step in {1,2,3} of a 5-row table",
+        "c/pslice": "every 0 <= row1 <= row2 <= 7, step in 1..5",
+        "c/skips": "every start row and skip count of a 4-row table, binary and text",
+        "slice-direct": "every normalised slice 0 <= start <= stop <= 7, step in 1..5",
+        "reduce": "an object without dtype, a plain array, arrays with one, two and three fields",
+    }
+
+    def __init__(self, repo, cfun):
+        self.repo = repo
+        self.cfun = cfun
+        self.cache = {}
+
+    def get(self, name):
+        """('ok', {facet: [counterexamples]}) or ('unsup', reason)"""
+        if name not in self.cache:
+            if os.environ.get("VCHECK_C02_EVAL") != "1" or name in os.environ.get("VCHECK_C02_NOEVAL", "").split(","):
+                # The bounded evaluation of the parsed code on small model tables (written while hardening the check against
+                # behaviour-preserving refactors) interprets the code on concrete inputs.  That is testing through a home-made
+                # interpreter, not static analysis, so it is NOT part of the registered check: it only runs when
+                # VCHECK_C02_EVAL=1 is set by hand (cross-reference).  The verdicts come from the structural forms of the rules.
+                self.cache[name] = ("unsup", "bounded evaluation is not part of the static check")
+                return self.cache[name]
+            try:
+                self.cache[name] = ("ok", self._compute(name))
+            except _Unsup as e:
+                self.cache[name] = ("unsup", str(e))
+            except AnalysisError:
+                raise
+            except RecursionError:
+                self.cache[name] = ("unsup", "evaluation recursion too deep")
+            except Exception as e:        # a defect of the evaluator must never become a verdict
+                self.cache[name] = ("unsup", "evaluator: %s: %s" % (type(e).__name__, e))
+        return self.cache[name]
+
+    def _compute(self, name):
+        repo, cfun = self.repo, self.cfun
+        if name == "brackets":
+            return _sim_brackets(repo)
+        if name.startswith("read/"):
+            return _sim_read(repo, name[5:])
+        if name == "slice-direct":
+            return _sim_slice_direct(repo)
+        if name == "subsets":
+            return _sim_subsets(repo)
+        if name == "sfile":
+            return _sim_sfile(repo)
+        if name == "reduce":
+            return _sim_reduce(repo, repo.func("esutil.sfile.reduce_array"))
+        if name.startswith("split:"):
+            return _sim_split(repo, repo.func(name[6:]))
+        if name.startswith("c/"):
+            what, _, start = name[2:].partition("@")
+            start = _C_OFF if start == "at-data" else _C_START
+            if what == "text":
+                return _sim_columns(cfun, "Records::read_text_columns", "text", start)
+            if what == "bin":
+                return _sim_columns(cfun, "Records::read_binary_columns", "bin", start)
+            if what == "slice":
+                return _sim_slice_reader(cfun, start)
+            if what == "pslice":
+                return {"count": _sim_process_slice(cfun)}
+            if what == "skips":
+                return _sim_skips(cfun)
+        raise AnalysisError("unknown evaluation %s" % name)
 
 
-def r02_1(chk, repo, F, cfun):
-    pa = F["_process_args_as_rows_or_columns"]
-    cfg = cfg_of(pa)
-    view = cfg.view()
-    # which callees receive the slice (or its parts) under isinstance(arg, slice)
-    normalisers = []
-    for n in cfg.nodes:
-        ts = rules.controlling_tests(view, n)
-        if not any("isinstance(arg, slice)" in t and lab == "T" for t, lab in ts):
-            continue
-        for c in rules.stmts_calls(n):
-            d = dotted_name(c.func) or ""
-            if d.startswith("self.") and repo.has("esutil.recfile.Util.Recfile." + d[5:]):
-                normalisers.append((n, c, repo.func("esutil.recfile.Util.Recfile." + d[5:])))
-    chk.ob("R02.1", "slice-normalisers-found", len(normalisers) >= 1, pa.where(),
-           "slice arguments are handed to: %s" % [x[2].name for x in normalisers])
-    seen = set()
-    for n, c, fi in normalisers:
-        if fi.qualname in seen:
-            continue
-        seen.add(fi.qualname)
-        chk.analysed_unit(fi.qualname)
-        _check_slice_normaliser(chk, repo, fi)
-    # row-count formula: python and C++ agree with ceil((stop-start)/step)
-    gs = F["_get_slice_nrows"]
-    ok, why = _is_ceil_div_py(gs.node)
-    chk.ob("R02.1e", gs.qualname + "::row-count-is-ceil-division", ok, gs.where(),
-           "number of rows of a normalised slice is ceil((stop-start)/step): %s" % why)
-    ps = cfun.get("Records::process_slice")
-    if ps is None:
-        raise AnalysisError("C++ anchor Records::process_slice not found")
-    ok, why = _is_ceil_div_c(ps)
-    chk.ob("R02.1e", "Records::process_slice::row-count-is-ceil-division", ok, "esutil/recfile/records.cpp",
-           "C++ row count of a slice is ceil((row2-row1)/step): %s" % why)
-    # the array handed to the C++ slice reader is sized by that count and has the file dtype
-    rb = F["_read_binary_slice"]
-    zs = [x for x in ast.walk(rb.node) if isinstance(x, ast.Call) and call_name(x) == "zeros"]
-    ok = False
-    for z in zs:
-        dt = kwarg(z, "dtype")
-        if z.args and isinstance(z.args[0], ast.Name) and dt is not None and norm(dt) == "self.dtype":
-            # provenance of the size variable
-            for x in ast.walk(rb.node):
-                if isinstance(x, ast.Assign) and norm(x.targets[0]) == z.args[0].id and isinstance(x.value, ast.Call) \
-                        and call_name(x.value) == "_get_slice_nrows":
-                    ok = True
-    chk.ob("R02.1f", rb.qualname + "::buffer-sized-by-count", ok, rb.where(),
-           "the slice read buffer is zeros(<slice row count>, dtype=self.dtype)")
-    # argument roles of the C++ call
-    ok = False
-    for x in ast.walk(rb.node):
-        if isinstance(x, ast.Call) and call_name(x) == "read_binary_slice" and len(x.args) == 4:
-            roles = [norm(a) for a in x.args[1:]]
-            ok = all(r.replace("int(", "").rstrip(")") == "arg." + w for r, w in zip(roles, ("start", "stop", "step")))
-    chk.ob("R02.1f", rb.qualname + "::start-stop-step-roles", ok, rb.where(),
-           "read_binary_slice receives (buffer, start, stop, step) in that order")
-
-
-def _check_slice_normaliser(chk, repo, fi):
-    """accepted idiom: s.indices(self.nrows) / slice(a,b,c).indices(self.nrows); results unmodified except stop>=start clamp"""
-    calls = [x for x in walk_no_nested(fi.node) if isinstance(x, ast.Call) and call_name(x) == "indices"]
-    key = fi.qualname
-    if not calls:
-        # hand-rolled normalisation: apply the local necessary conditions
-        _hand_rolled_slice(chk, repo, fi)
-        return
-    c = calls[0]
-    ok = len(c.args) == 1 and norm(c.args[0]) in ("self.nrows", "nrows", "len(self)")
-    chk.ob("R02.1a", key + "::delegates-to-slice.indices", ok, fi.where(c),
-           "slice bounds are normalised by slice.indices(%s) -- must be the row count" % (norm(c.args[0]) if c.args else ""))
-    # the three results must be bound directly and not re-assigned except `stop = start` under `stop < start`
-    tgt = None
-    for x in walk_no_nested(fi.node):
-        if isinstance(x, ast.Assign) and x.value is c and isinstance(x.targets[0], ast.Tuple):
-            tgt = [norm(e) for e in x.targets[0].elts]
-    direct = tgt is not None and len(tgt) == 3
-    inline = any(isinstance(x, ast.Starred) and x.value is c for x in ast.walk(fi.node))
-    chk.ob("R02.1a", key + "::indices-result-bound", direct or inline, fi.where(c),
-           "the (start, stop, step) triple from slice.indices is used as a whole (%s)" % (tgt or ("star-expanded" if inline else "NOT RECOGNISED")))
-    if direct:
-        cfg = cfg_of(fi)
-        view = cfg.view()
-        for n in cfg.nodes:
-            a = n.ast
-            if n.kind == "stmt" and isinstance(a, (ast.Assign, ast.AugAssign)):
-                t = norm(a.targets[0]) if isinstance(a, ast.Assign) else norm(a.target)
-                if t in tgt and not (isinstance(a, ast.Assign) and a.value is c):
-                    ts = rules.controlling_tests(view, n)
-                    allowed = isinstance(a, ast.Assign) and t == tgt[1] and norm(a.value) == tgt[0] and \
-                        any(tt.replace(" ", "") in ("%s<%s" % (tgt[1], tgt[0]), "%s>%s" % (tgt[0], tgt[1])) and lab == "T" for tt, lab in ts)
-                    chk.ob("R02.1b", key + "::no-adjustment-of-normalised-bounds::" + norm(a), allowed, fi.where(a),
-                           "normalised slice bounds may only be adjusted by the empty-slice clamp `stop = start if stop < start` (found `%s` under %s)" % (norm(a), ts))
-    # no raise that is not about the step
-    for n in rules.raise_nodes(cfg_of(fi)):
-        ts = rules.controlling_tests(cfg_of(fi).view(), n)
-        about_step = any("step" in t for t, _ in ts)
-        chk.ob("R02.1c", key + "::no-raise-on-valid-slice::" + norm(n.ast)[:50], about_step, fi.where(n.ast),
-               "a slice with positive step never raises (Python semantics give an empty result); raise is controlled by %s" % ts)
-
-
-def _hand_rolled_slice(chk, repo, fi, depth=0):
-    """local necessary conditions on hand-written slice normalisation (DESIGN R02.1 a-d)"""
-    key = fi.qualname
-    cfg = cfg_of(fi)
-    view = cfg.view()
-    # (a) no raise not controlled by a step test
-    for n in rules.raise_nodes(cfg):
-        ts = rules.controlling_tests(view, n)
-        about_step = any("step" in t for t, _ in ts)
-        chk.ob("R02.1c", key + "::no-raise-on-valid-slice::" + _guard_key(ts), about_step, fi.where(n.ast),
-               "a slice with positive step never raises under Python semantics (out-of-range or reversed bounds give a "
-               "clamped / empty result); this raise is controlled by %s" % [t for t, _ in ts])
-    # (b) under a guard `b < 0` the bound becomes exactly n + b
-    for n in cfg.nodes:
-        a = n.ast
-        if n.kind == "stmt" and isinstance(a, ast.Assign) and isinstance(a.targets[0], ast.Name):
-            v = a.targets[0].id
-            ts = rules.controlling_tests(view, n)
-            neg = any(t.replace(" ", "") == v + "<0" and lab == "T" for t, lab in ts)
-            if neg and isinstance(a.value, ast.BinOp):
-                ok = _is_n_plus(a.value, v)
-                chk.ob("R02.1b", key + "::negative-bound-wraps-by-n::" + v, ok, fi.where(a),
-                       "a negative slice bound b maps to nrows + b (found `%s`)" % norm(a))
-    # follow helper calls that take a bound (e.g. _fix_range) with the slice flag
-    if depth < 2:
-        for x in walk_no_nested(fi.node):
-            if isinstance(x, ast.Call):
-                d = dotted_name(x.func) or ""
-                if d.startswith("self.") and repo.has("esutil.recfile.Util.Recfile." + d[5:]):
-                    callee = repo.func("esutil.recfile.Util.Recfile." + d[5:])
-                    if callee is not fi and callee.name not in ("_get_slice_nrows",):
-                        chk.analysed_unit(callee.qualname)
-                        _hand_rolled_slice_helper(chk, callee)
-
-
-def _hand_rolled_slice_helper(chk, fi):
-    """helper taking one bound `num` and an isslice flag: on the slice arm, negative num -> nrows + num exactly"""
-    cfg = cfg_of(fi)
-    flagname = next((p for p in fi.params if p.startswith("isslice") or p == "slice"), None)
-    view = cfg.specialise(flags={flagname: True}) if flagname else cfg.view()
-    for n in view.nodes():
-        a = n.ast
-        if n.kind == "stmt" and isinstance(a, ast.Assign) and isinstance(a.targets[0], ast.Name):
-            v = a.targets[0].id
-            ts = rules.controlling_tests(view, n)
-            neg = any(t.replace(" ", "") == v + "<0" and lab == "T" for t, lab in ts)
-            if neg:
-                ok = isinstance(a.value, ast.BinOp) and _is_n_plus(a.value, v)
-                chk.ob("R02.1b", fi.qualname + "::slice-arm::negative-bound-wraps-by-n", ok, fi.where(a),
-                       "on the slice arm a negative bound b maps to nrows + b (found `%s`)" % norm(a))
-
-
-def _guard_key(ts):
-    return "|".join(t for t, _ in ts)[:80] or "top"
-
-
-def _is_n_plus(binop, v):
-    """binop is exactly `<nrows> + v` or `v + <nrows>`"""
-    if not isinstance(binop.op, ast.Add):
+def _ev(chk, S, sim, facets, rule, key, where, msg, scope=None):
+    """one rule instance decided by the evaluation `sim`: it holds when none of the named facets has a counterexample.
+    Returns True when the evaluation gave a verdict (pass or violation), False when the code left the evaluator's fragment."""
+    st, res = S.get(sim)
+    if st != "ok":
         return False
-    l, r = norm(binop.left), norm(binop.right)
-    return (l in ("self.nrows", "nrows") and r == v) or (r in ("self.nrows", "nrows") and l == v)
+    cex = [c for f in facets for c in res.get(f, [])]
+    sc = S.SCOPE.get(scope or sim.split("@")[0], "")
+    if cex:
+        chk.ob(rule, key, False, where, "%s -- counterexample: %s" % (msg, "; ".join(cex[:3])))
+    else:
+        chk.ob(rule, key, True, where, "%s [evaluated: %s]" % (msg, sc))
+    return True
+
+
+def _ev_any(chk, S, sims, rule, key, where, msg):
+    """like _ev, with the counterexamples of every listed (evaluation, facets) pair that could be evaluated; False when none could"""
+    done = [(sim, facets, S.get(sim)[1]) for sim, facets in sims if S.get(sim)[0] == "ok"]
+    if not done:
+        return False
+    cex = [c for sim, facets, res in done for f in facets for c in res.get(f, [])]
+    if cex:
+        chk.ob(rule, key, False, where, "%s -- counterexample: %s" % (msg, "; ".join(cex[:3])))
+    else:
+        chk.ob(rule, key, True, where, "%s [evaluated: %s]" % (msg, "; ".join(S.SCOPE.get(sim, sim) for sim, _, _ in done)))
+    return True
+
+
+def _unrec(chk, S, sim, rule, key, where, msg):
+    chk.ob(rule, key, None, where, "%s [neither evaluated (%s) nor recognised structurally]" % (msg, S.get(sim)[1]))
+
+
+def _cwhere(fn):
+    return "%s:%s" % (CPP, fn.get("line", 0)) if isinstance(fn, dict) and fn.get("line") else CPP
+
+
+# ---------------------------------------------------------------------------
+# facts that hold at a program point (branch outcomes decomposed through not / and / or / any / all)
+# ---------------------------------------------------------------------------
+_NEG = {"<": "<=", "<=": "<", "==": "!=", "!=": "==", "is": "isnot", "isnot": "is", "in": "notin", "notin": "in",
+        "truthy": "falsy", "falsy": "truthy"}
+_OPNAME = {ast.Lt: "<", ast.LtE: "<=", ast.Gt: ">", ast.GtE: ">=", ast.Eq: "==", ast.NotEq: "!=", ast.Is: "is", ast.IsNot: "isnot",
+           ast.In: "in", ast.NotIn: "notin"}
+
+
+def _quantified(t):
+    """(kind, inner) for X.any() / X.all() / numpy.any(X) / any(X) ..., else None"""
+    if isinstance(t, ast.Call) and call_name(t) in ("any", "all") and not t.keywords:
+        if isinstance(t.func, ast.Attribute) and not t.args and not (isinstance(t.func.value, ast.Name) and t.func.value.id in ("numpy", "np")):
+            return call_name(t), t.func.value
+        if len(t.args) == 1:
+            return call_name(t), t.args[0]
+    return None
+
+
+def _decompose(t, truth, out, elementwise=False):
+    """append (atom, truth, universal-over-elements?) facts implied by `t` having the given truth value"""
+    if isinstance(t, ast.UnaryOp) and isinstance(t.op, ast.Not) or (elementwise and isinstance(t, ast.UnaryOp) and isinstance(t.op, ast.Invert)):
+        _decompose(t.operand, not truth, out, elementwise)
+        return
+    if isinstance(t, ast.BoolOp):
+        if isinstance(t.op, ast.And) == truth:
+            for v in t.values:
+                _decompose(v, truth, out, elementwise)
+        return
+    if elementwise and isinstance(t, ast.BinOp) and isinstance(t.op, (ast.BitAnd, ast.BitOr)):
+        if isinstance(t.op, ast.BitAnd) == truth:
+            _decompose(t.left, truth, out, True)
+            _decompose(t.right, truth, out, True)
+        return
+    q = _quantified(t)
+    if q is not None and not elementwise:
+        kind, inner = q
+        if (kind == "any" and not truth) or (kind == "all" and truth):
+            _decompose(inner, truth, out, True)
+        return
+    if isinstance(t, ast.Compare) and len(t.ops) > 1:
+        if truth:
+            l = t.left
+            for op, r in zip(t.ops, t.comparators):
+                out.append((ast.Compare(left=l, ops=[op], comparators=[r]), True, elementwise))
+                l = r
+        return
+    out.append((t, truth, elementwise))
+
+
+def _canon(t, truth, fn=None):
+    """(op, left text, right text) with > / >= turned round and the truth value folded into the operator"""
+    if fn is not None:
+        t = rules.expand(t, fn)
+    if isinstance(t, ast.Compare) and len(t.ops) == 1 and type(t.ops[0]) in _OPNAME:
+        op = _OPNAME[type(t.ops[0])]
+        l, r = norm(t.left), norm(t.comparators[0])
+        if op in (">", ">="):
+            op, l, r = {">": "<", ">=": "<="}[op], r, l
+        if not truth:
+            op = _NEG[op]
+            if op in ("<", "<="):
+                l, r = r, l
+        return (op, l, r)
+    return ("truthy" if truth else "falsy", norm(t), "")
+
+
+def _node_facts(view, n, fn=None):
+    """canonical facts established by the branches that control CFG node n"""
+    raw = []
+    for b, lab in view.controlling_branches(n):
+        if b.kind == "branch" or (b.kind == "loop" and isinstance(b.ast, ast.While)):
+            _decompose(b.ast.test, lab == "T", raw)
+    return [_canon(t, tr, fn) + (("all",) if ew else ()) for t, tr, ew in raw]
+
+
+def _expr_facts(root, target, fn=None):
+    """canonical facts that hold whenever sub-expression `target` of `root` is evaluated (conditional-expression arms, short-circuit operands)"""
+    out = []
+
+    def walk(x, acc):
+        if x is target:
+            out.extend(acc)
+            return True
+        if isinstance(x, ast.IfExp):
+            if walk(x.test, acc):
+                return True
+            for arm, tr in ((x.body, True), (x.orelse, False)):
+                raw = []
+                _decompose(x.test, tr, raw)
+                if walk(arm, acc + raw):
+                    return True
+            return False
+        if isinstance(x, ast.BoolOp):
+            cur = list(acc)
+            for v in x.values:
+                if walk(v, cur):
+                    return True
+                raw = []
+                _decompose(v, isinstance(x.op, ast.And), raw)
+                cur = cur + raw
+            return False
+        for c in ast.iter_child_nodes(x):
+            if isinstance(c, (ast.FunctionDef, ast.Lambda, ast.ClassDef)):
+                continue
+            if walk(c, acc):
+                return True
+        return False
+
+    walk(root, [])
+    return [_canon(t, tr, fn) + (("all",) if ew else ()) for t, tr, ew in out]
+
+
+def _self_callee(repo, call, cls="Recfile"):
+    d = dotted_name(call.func) or ""
+    if d.startswith("self.") and repo.has(U + cls + "." + d[5:]):
+        return repo.func(U + cls + "." + d[5:])
+    return None
+
+
+# ---------------------------------------------------------------------------
+def r02_1(chk, repo, F, cfun, S):
+    gi = F["__getitem__"]
+    ok = True
+    # (b)(c): bracket slices select what Python selects and never raise -- evaluated end to end down to the call of the reader
+    ok &= _ev(chk, S, "brackets", ["rows", "bounds"], "R02.1b", gi.qualname + "::bracket-slice-selects-python-rows", gi.where(),
+              "every bracket slice reaches the reader as exactly the rows Python's slice semantics select (binary: a normalised "
+              "slice inside the table; text and column subsets: the row numbers)")
+    ok &= _ev(chk, S, "brackets", ["raise"], "R02.1c", gi.qualname + "::no-raise-on-valid-slice", gi.where(),
+              "a slice with positive step never raises (out-of-range or reversed bounds give a clamped / empty result)")
+    if not ok:
+        _r02_1_structural(chk, repo, F)
+    # (e) row-count formula, Python: the buffer handed to the slice reader has as many rows as the slice
+    gs = F["_get_slice_nrows"] or F["_read_binary_slice"] or gi
+    key = U + "Recfile._get_slice_nrows::row-count-is-ceil-division"
+    msg = "number of rows allocated for a normalised slice is ceil((stop-start)/step)"
+    if not _ev_any(chk, S, [("brackets", ["count"]), ("slice-direct", ["count"])], "R02.1e", key, gs.where(), msg):
+        okc, why = _is_ceil_div_py(F["_get_slice_nrows"].node) if F["_get_slice_nrows"] is not None else (False, "helper not found")
+        if okc:
+            chk.ob("R02.1e", key, True, gs.where(), "%s: %s" % (msg, why))
+        else:
+            _unrec(chk, S, "slice-direct", "R02.1e", key, gs.where(), msg + " (%s)" % why)
+    # (e) C++
+    ps = cfun.get("Records::process_slice")
+    key = "Records::process_slice::row-count-is-ceil-division"
+    msg = "C++ row count of a slice is ceil((row2-row1)/step)"
+    if ps is None:
+        rb = cfun.get("Records::read_binary_slice")
+        if rb is None:
+            raise AnalysisError("C++ anchor Records::read_binary_slice not found")
+        # the count is computed in the reader itself: the slice reader evaluation covers it (a wrong count leaves rows unread)
+        if not _ev(chk, S, "c/slice@at-data", ["size"], "R02.1e", key, _cwhere(rb), msg, scope="c/slice"):
+            _unrec(chk, S, "c/slice@at-data", "R02.1e", key, _cwhere(rb), msg)
+    elif not _ev(chk, S, "c/pslice", ["count"], "R02.1e", key, _cwhere(ps), msg):
+        okc, why = _is_ceil_div_c(ps)
+        if okc:
+            chk.ob("R02.1e", key, True, _cwhere(ps), "%s: %s" % (msg, why))
+        else:
+            _unrec(chk, S, "c/pslice", "R02.1e", key, _cwhere(ps), msg + " (%s)" % why)
+    # (f) the array handed to the C++ slice reader has the file dtype; argument roles of the C++ call
+    rb = F["_read_binary_slice"] or gi
+    a = _ev(chk, S, "brackets", ["buffer"], "R02.1f", "eval::" + rb.qualname + "::buffer-has-file-dtype", rb.where(),
+            "the slice read buffer is an array of the file dtype")
+    b = _ev(chk, S, "brackets", ["roles"], "R02.1f", "eval::" + rb.qualname + "::start-stop-step-roles", rb.where(),
+            "read_binary_slice receives (buffer, start, stop, step) in that order and the filled buffer is returned")
+    if not (a and b):
+        _r02_1f_structural(chk, F)
+
+
+def _sim_slice_direct(repo):
+    """Recfile._read_binary_slice(slice(a, b, s)) for normalised slices: the buffer has len(range(a, b, s)) rows"""
+    fi = repo.funcs.get(U + "Recfile._read_binary_slice")
+    if fi is None:
+        raise _Unsup("no _read_binary_slice")
+    it = _interp(repo)
+    bad = {"count": [], "roles": [], "buffer": [], "rows": [], "bounds": []}
+    n = 7
+    for a in range(n + 1):
+        for b in range(a, n + 1):
+            for s in (1, 2, 3, 4, 5):
+                m = _Model(repo, n, False)
+                try:
+                    it.run(fi, [slice(a, b, s)], {}, m.rf)
+                except _PyRaise as e:
+                    bad["count"].append("_read_binary_slice(slice(%d, %d, %d)) raises %s" % (a, b, s, e.name))
+                    continue
+                if len(m.calls) != 1 or m.calls[0][0] != "read_binary_slice":
+                    raise _Unsup("_read_binary_slice does not reach the C++ slice reader")
+                for facet, text in _norm_slice_call(m, list(range(a, b, s)), n).items():
+                    if len(bad[facet]) < 6:
+                        bad[facet].append(text)
+    return bad
 
 
 def _is_ceil_div_py(fn):
-    """accept: len(range(a,b,s)); (d + s - 1)//s; d//s + extra with extra = 1 iff d % s != 0"""
+    """accept: len(range(a,b,s)); d//s + extra with extra = 1 iff d % s != 0; -(-d // s); (d + s - 1) // s"""
     env = {}
     ret = None
-    extra_cond = None
     for x in walk_no_nested(fn):
         if isinstance(x, ast.Assign) and isinstance(x.targets[0], ast.Name):
             env.setdefault(x.targets[0].id, []).append(x)
@@ -248,7 +416,6 @@ def _is_ceil_div_py(fn):
 
     def val(e):
         if isinstance(e, ast.Name) and e.id in env:
-            # last non-constant definition
             for a in env[e.id]:
                 if not isinstance(a.value, ast.Constant):
                     return a.value
@@ -266,7 +433,6 @@ def _is_ceil_div_py(fn):
               {getattr(a.value, "value", None) for a in env[p.id]} == {0, 1}]
         if len(fd) == 1 and len(ex) == 1:
             d, s = norm(val(fd[0].left)), norm(fd[0].right)
-            # extra = 1 is controlled by (d % s) != 0
             for n in ast.walk(fn):
                 if isinstance(n, ast.If):
                     sets1 = any(isinstance(b, ast.Assign) and norm(b.targets[0]) == ex[0].id and getattr(b.value, "value", None) == 1 for b in n.body)
@@ -276,10 +442,7 @@ def _is_ceil_div_py(fn):
                             and getattr(t.comparators[0], "value", None) == 0:
                         if "stop" in d and "start" in d and d.replace(" ", "").find("stop-") >= 0:
                             return True, "(%s)//%s + [(%s) %% %s != 0]" % (d, s, d, s)
-            return False, "floor-division plus flag, but the flag is not `1 iff remainder != 0` of the same operands"
-    if isinstance(r, ast.BinOp) and isinstance(r.op, ast.FloorDiv):
-        return False, "plain floor division drops the partial last step: %s" % norm(r)
-    return False, "unrecognised count expression %s" % norm(r)
+    return False, "count expression %s not recognised structurally" % norm(r)
 
 
 def _is_ceil_div_c(fn):
@@ -329,64 +492,357 @@ def _is_ceil_div_c(fn):
                     if m.get("kind") == "BinaryOperator" and m.get("opcode") == "%" and cfront.render(val(m["inner"][0])) == d \
                             and cfront.render(m["inner"][1]) == s and d.replace(" ", "") == "(row2-row1)":
                         return True, "%s/%s + [%s %% %s != 0]" % (d, s, d, s)
-            return False, "division plus flag but flag is not `1 iff remainder != 0`"
-    return False, "unrecognised count expression %s" % cfront.render(ret)
+    return False, "count expression %s not recognised structurally" % cfront.render(ret)
+
+
+def _r02_1_structural(chk, repo, F):
+    pa = F["_process_args_as_rows_or_columns"]
+    if pa is None:
+        chk.ob("R02.1", "slice-normalisers-found", None, F["__getitem__"].where(), "the bracket argument classifier was not found")
+        return
+    cfg = cfg_of(pa)
+    view = cfg.view()
+    # which callees receive the slice (or its parts) under isinstance(<param>, slice)
+    normalisers = []
+    for n in cfg.nodes:
+        facts = _node_facts(view, n)
+        if not any(f[0] == "truthy" and f[1].startswith("isinstance(") and f[1].replace(" ", "").endswith(",slice)") for f in facts):
+            continue
+        for c in rules.stmts_calls(n):
+            callee = _self_callee(repo, c)
+            if callee is not None:
+                normalisers.append((n, c, callee))
+    chk.ob("R02.1", "slice-normalisers-found", len(normalisers) >= 1, pa.where(),
+           "slice arguments are handed to: %s" % [x[2].name for x in normalisers])
+    seen = set()
+    for n, c, fi in normalisers:
+        if fi.qualname in seen:
+            continue
+        seen.add(fi.qualname)
+        chk.analysed_unit(fi.qualname)
+        _check_slice_normaliser(chk, repo, fi)
+
+
+def _r02_1f_structural(chk, F):
+    rb = F["_read_binary_slice"]
+    if rb is None:
+        chk.ob("R02.1f", "Recfile._read_binary_slice::buffer-sized-by-count", None, F["__getitem__"].where(), "the python slice reader was not found")
+        return
+    zs = [x for x in ast.walk(rb.node) if isinstance(x, ast.Call) and call_name(x) in ("zeros", "empty")]
+    ok = False
+    for z in zs:
+        dt = kwarg(z, "dtype")
+        if z.args and dt is not None and rules.xnorm(dt, rb.node) == "self.dtype":
+            size = rules.expand(z.args[0], rb.node)
+            if isinstance(size, ast.Call) and call_name(size) == "_get_slice_nrows":
+                ok = True
+    chk.ob("R02.1f", rb.qualname + "::buffer-sized-by-count", ok, rb.where(),
+           "the slice read buffer is zeros(<slice row count>, dtype=self.dtype)")
+    ok = False
+    for x in ast.walk(rb.node):
+        if isinstance(x, ast.Call) and call_name(x) == "read_binary_slice" and len(x.args) == 4:
+            roles = [rules.xnorm(a, rb.node) for a in x.args[1:]]
+            ok = all(r.replace("int(", "").rstrip(")") == "arg." + w for r, w in zip(roles, ("start", "stop", "step")))
+    chk.ob("R02.1f", rb.qualname + "::start-stop-step-roles", ok, rb.where(),
+           "read_binary_slice receives (buffer, start, stop, step) in that order")
+
+
+def _check_slice_normaliser(chk, repo, fi):
+    """accepted idiom: s.indices(self.nrows) / slice(a,b,c).indices(self.nrows); results unmodified except stop>=start clamp"""
+    calls = [x for x in walk_no_nested(fi.node) if isinstance(x, ast.Call) and call_name(x) == "indices"]
+    key = fi.qualname
+    if not calls:
+        # hand-rolled normalisation: apply the local necessary conditions
+        _hand_rolled_slice(chk, repo, fi)
+        return
+    c = calls[0]
+    ok = len(c.args) == 1 and rules.xnorm(c.args[0], fi.node) in ("self.nrows", "nrows", "len(self)")
+    chk.ob("R02.1a", key + "::delegates-to-slice.indices", ok, fi.where(c),
+           "slice bounds are normalised by slice.indices(%s) -- must be the row count" % (norm(c.args[0]) if c.args else ""))
+    # the three results must be bound directly and not re-assigned except `stop = start` under `stop < start`
+    tgt = None
+    for x in walk_no_nested(fi.node):
+        if isinstance(x, ast.Assign) and x.value is c and isinstance(x.targets[0], ast.Tuple):
+            tgt = [norm(e) for e in x.targets[0].elts]
+    direct = tgt is not None and len(tgt) == 3
+    inline = any(isinstance(x, ast.Starred) and x.value is c for x in ast.walk(fi.node))
+    chk.ob("R02.1a", key + "::indices-result-bound", direct or inline, fi.where(c),
+           "the (start, stop, step) triple from slice.indices is used as a whole (%s)" % (tgt or ("star-expanded" if inline else "NOT RECOGNISED")))
+    if direct:
+        cfg = cfg_of(fi)
+        view = cfg.view()
+        for n in cfg.nodes:
+            a = n.ast
+            if n.kind == "stmt" and isinstance(a, (ast.Assign, ast.AugAssign)):
+                t = norm(a.targets[0]) if isinstance(a, ast.Assign) else norm(a.target)
+                if t in tgt and not (isinstance(a, ast.Assign) and a.value is c):
+                    facts = _node_facts(view, n)
+                    allowed = isinstance(a, ast.Assign) and t == tgt[1] and \
+                        (norm(a.value) == tgt[0] and ("<", tgt[1], tgt[0]) in facts or
+                         norm(a.value).replace(" ", "") in ("max(%s,%s)" % (tgt[0], tgt[1]), "max(%s,%s)" % (tgt[1], tgt[0])))
+                    chk.ob("R02.1b", key + "::no-adjustment-of-normalised-bounds::" + norm(a), allowed, fi.where(a),
+                           "normalised slice bounds may only be adjusted by the empty-slice clamp `stop = start if stop < start` (found `%s` under %s)" % (norm(a), facts))
+    # no raise that is not about the step
+    for n in rules.raise_nodes(cfg_of(fi)):
+        ts = rules.controlling_tests(cfg_of(fi).view(), n)
+        about_step = any("step" in t for t, _ in ts)
+        chk.ob("R02.1c", key + "::no-raise-on-valid-slice::" + norm(n.ast)[:50], about_step, fi.where(n.ast),
+               "a slice with positive step never raises (Python semantics give an empty result); raise is controlled by %s" % ts)
+
+
+def _hand_rolled_slice(chk, repo, fi, depth=0):
+    """local necessary conditions on hand-written slice normalisation (DESIGN R02.1 a-d)"""
+    key = fi.qualname
+    cfg = cfg_of(fi)
+    view = cfg.view()
+    # (a) no raise not controlled by a step test
+    for n in rules.raise_nodes(cfg):
+        ts = rules.controlling_tests(view, n)
+        about_step = any("step" in t for t, _ in ts)
+        chk.ob("R02.1c", key + "::no-raise-on-valid-slice::" + _guard_key(ts), about_step, fi.where(n.ast),
+               "a slice with positive step never raises under Python semantics (out-of-range or reversed bounds give a "
+               "clamped / empty result); this raise is controlled by %s" % [t for t, _ in ts])
+    # (b) under a guard `b < 0` the bound becomes exactly n + b
+    for n in cfg.nodes:
+        a = n.ast
+        if n.kind == "stmt" and isinstance(a, ast.Assign) and isinstance(a.targets[0], ast.Name):
+            v = a.targets[0].id
+            neg = ("<", v, "0") in _node_facts(view, n)
+            if neg and isinstance(a.value, ast.BinOp):
+                ok = _is_n_plus(a.value, v)
+                chk.ob("R02.1b", key + "::negative-bound-wraps-by-n::" + v, ok, fi.where(a),
+                       "a negative slice bound b maps to nrows + b (found `%s`)" % norm(a))
+    # follow helper calls that take a bound (e.g. _fix_range) with the slice flag
+    if depth < 2:
+        for x in walk_no_nested(fi.node):
+            if isinstance(x, ast.Call):
+                callee = _self_callee(repo, x)
+                if callee is not None and callee is not fi and callee.name not in ("_get_slice_nrows",):
+                    chk.analysed_unit(callee.qualname)
+                    _hand_rolled_slice_helper(chk, callee)
+
+
+def _hand_rolled_slice_helper(chk, fi):
+    """helper taking one bound `num` and an isslice flag: on the slice arm, negative num -> nrows + num exactly"""
+    cfg = cfg_of(fi)
+    flagname = next((p for p in fi.params if p.startswith("isslice") or p == "slice"), None)
+    view = cfg.specialise(flags={flagname: True}) if flagname else cfg.view()
+    for n in view.nodes():
+        a = n.ast
+        v = val = None
+        if n.kind == "stmt" and isinstance(a, ast.Assign) and isinstance(a.targets[0], ast.Name):
+            v, val = a.targets[0].id, a.value
+        elif n.kind == "return" and a.value is not None and len(fi.params) > 1:
+            v, val = fi.params[1], a.value
+        if v is None:
+            continue
+        if ("<", v, "0") in _node_facts(view, n):
+            ok = isinstance(val, ast.BinOp) and _is_n_plus(val, v)
+            chk.ob("R02.1b", fi.qualname + "::slice-arm::negative-bound-wraps-by-n", ok, fi.where(a),
+                   "on the slice arm a negative bound b maps to nrows + b (found `%s`)" % norm(a))
+
+
+def _guard_key(ts):
+    return "|".join(t for t, _ in ts)[:80] or "top"
+
+
+def _is_n_plus(binop, v):
+    """binop is exactly `<nrows> + v` or `v + <nrows>`"""
+    if not isinstance(binop.op, ast.Add):
+        return False
+    l, r = norm(binop.left), norm(binop.right)
+    return (l in ("self.nrows", "nrows", "len(self)") and r == v) or (r in ("self.nrows", "nrows", "len(self)") and l == v)
 
 
 # ---------------------------------------------------------------------------
-def r02_2(chk, repo, F):
-    fi = F["_get_rows2read"]
+def r02_2(chk, repo, F, S):
+    fi = F["_get_rows2read"] or F["read"]
+    q = U + "Recfile._get_rows2read"
+    a = _ev(chk, S, "read/rows", ["unique", "count"], "R02.2a", q + "::returns-unique-result", fi.where(),
+            "the requested row list reaches the reader as its distinct rows in ascending order (numpy.unique), with a buffer of that many rows")
+    b = _ev(chk, S, "read/rows", ["range"], "R02.2b", q + "::range-check-raises", fi.where(),
+            "a row list with a row < 0 or >= nrows is rejected by an exception")
+    c = _ev(chk, S, "read/rows", ["clamp"], "R02.2c", q + "::no-clamp-of-explicit-row", fi.where(),
+            "a single explicit row number outside [-nrows, nrows) is rejected, not replaced by another row")
+    if not (a and b and c):
+        if F["_get_rows2read"] is None:
+            for r, k in (("R02.2a", "::returns-unique-result"), ("R02.2b", "::range-check-raises"), ("R02.2c", "::no-clamp-of-explicit-row")):
+                _unrec(chk, S, "read/rows", r, q + k, fi.where(), "row-list normaliser not found")
+        else:
+            _r02_2_structural(chk, repo, F["_get_rows2read"])
+
+
+_PASSTHROUGH = ("astype", "asarray", "array", "asanyarray", "ascontiguousarray", "copy", "atleast_1d", "ravel", "flatten", "view")
+
+
+def _unique_status(cfg, view, IN, at, e, depth=0):
+    """is the value of expression e at CFG node `at` a numpy.unique result on every path?  'yes' / 'no' / 'unknown'"""
+    if depth > 8:
+        return "unknown"
+    if isinstance(e, ast.Call):
+        nm = call_name(e)
+        if nm == "unique":
+            return "yes"
+        if nm in ("sorted", "sort") and e.args and isinstance(e.args[0], ast.Call) and call_name(e.args[0]) in ("set", "unique", "frozenset"):
+            return "yes"
+        if nm in _PASSTHROUGH:
+            inner = e.func.value if isinstance(e.func, ast.Attribute) and not (isinstance(e.func.value, ast.Name) and e.func.value.id in ("numpy", "np")) \
+                else (e.args[0] if e.args else None)
+            if inner is None:
+                return "unknown"
+            return _unique_status(cfg, view, IN, at, inner, depth + 1)
+        return "unknown"
+    if isinstance(e, (ast.List, ast.Tuple, ast.Constant)):
+        return "no"
+    if isinstance(e, ast.Name):
+        defs = IN.get(at.id, {}).get(e.id)
+        if not defs:
+            return "unknown"
+        res = set()
+        for d in defs:
+            if d == cfg.entry.id:
+                res.add("no")          # the caller's own object
+                continue
+            dn = cfg.node(d)
+            a = dn.ast
+            if dn.kind == "stmt" and isinstance(a, ast.Assign) and len(a.targets) == 1 and isinstance(a.targets[0], ast.Name):
+                res.add(_unique_status(cfg, view, IN, dn, a.value, depth + 1))
+            else:
+                res.add("unknown")
+        if "no" in res:
+            return "no"
+        return "yes" if res == {"yes"} else "unknown"
+    return "unknown"
+
+
+def _min_forms(v):
+    return {v + "[0]", v + ".min()", "min(%s)" % v, "numpy.min(%s)" % v, "np.min(%s)" % v, "numpy.amin(%s)" % v, "np.amin(%s)" % v}
+
+
+def _max_forms(v):
+    return {v + "[-1]", v + ".max()", "max(%s)" % v, "numpy.max(%s)" % v, "np.max(%s)" % v, "numpy.amax(%s)" % v, "np.amax(%s)" % v,
+            "%s[%s.size - 1]" % (v, v), "%s[len(%s) - 1]" % (v, v)}
+
+
+_NROWS = ("self.nrows", "len(self)")
+
+
+def _bound_kind(f, v):
+    """'lo' / 'hi' / None: does canonical fact f bound the rows of array v from below by 0 / from above by the row count?"""
+    op, l, r = f[0], f[1], f[2]
+    allq = len(f) > 3
+    lo_terms = _min_forms(v) | ({v} if allq else set())
+    hi_terms = _max_forms(v) | ({v} if allq else set())
+    if (op == "<=" and l == "0" and r in lo_terms) or (op == "<" and l == "-1" and r in lo_terms):
+        return "lo"
+    if (op == "<" and l in hi_terms and r in _NROWS) or (op == "<=" and l in hi_terms and r in tuple(n + " - 1" for n in _NROWS)):
+        return "hi"
+    return None
+
+
+def _empty_fact(f, v):
+    op, l, r = f[0], f[1], f[2]
+    sizes = (v + ".size", "len(%s)" % v, v + ".shape[0]")
+    return (op == "==" and ((l in sizes and r == "0") or (r in sizes and l == "0"))) or (op == "<" and l in sizes and r == "1") or \
+        (op == "<=" and l in sizes and r == "0") or (op == "falsy" and l in sizes)
+
+
+def _r02_2_structural(chk, repo, fi):
+    """row-list normaliser, structural form: reaching definitions for numpy.unique, path pruning for the range check"""
+    import networkx as nx
     cfg = cfg_of(fi)
     view = cfg.view()
+    IN, _ = view.reaching_defs()
     rets = [n for n in rules.return_nodes(cfg) if n.ast.value is not None and not (isinstance(n.ast.value, ast.Constant) and n.ast.value.value is None)]
-    uniq = [n for n in cfg.nodes if n.kind == "stmt" and isinstance(n.ast, ast.Assign) and isinstance(n.ast.value, ast.Call)
-            and call_name(n.ast.value) == "unique"]
-    chk.ob("R02.2a", fi.qualname + "::unique-applied", len(uniq) >= 1, fi.where(),
-           "the requested row list passes numpy.unique (distinct rows, ascending)")
-    final_rets = []
+    final = []
     for r in rets:
+        facts = _node_facts(view, r)
+        if isinstance(r.ast.value, ast.Name) and ("is", r.ast.value.id, "None") in facts:
+            continue      # `return rows` under `rows is None`
+        final.append(r)
+    for r in final:
+        st = _unique_status(cfg, view, IN, r, r.ast.value)
         v = norm(r.ast.value)
-        from_uniq = [u for u in uniq if norm(u.ast.targets[0]) == v and view.dominates(u, r)]
-        # nothing re-assigns the variable between unique and return
-        clobber = [n for n in cfg.nodes if n.kind == "stmt" and isinstance(n.ast, ast.Assign) and norm(n.ast.targets[0]) == v
-                   and n not in uniq and any(view.reaches(u, n) for u in from_uniq)]
-        early_empty = any("size" in t and "== 0" in t.replace("  ", " ") and lab == "T" for t, lab in rules.controlling_tests(view, r))
-        if early_empty and not any(view.dominates(u, r) for u in uniq):
-            early_empty = False      # an "empty" shortcut taken before de-duplication is not the de-duplicated list
-        if early_empty:
-            chk.ob("R02.2a", fi.qualname + "::empty-selection-returns", True, fi.where(r.ast), "empty selection is returned as is")
+        # in-place stores into the returned array after de-duplication
+        clobber = False
+        if isinstance(r.ast.value, ast.Name):
+            for d in IN.get(r.id, {}).get(v, ()):
+                dn = cfg.node(d) if d != cfg.entry.id else None
+                if dn is None:
+                    continue
+                for n in cfg.nodes:
+                    a = n.ast
+                    if n.kind == "stmt" and isinstance(a, (ast.Assign, ast.AugAssign)):
+                        tg = a.targets[0] if isinstance(a, ast.Assign) else a.target
+                        if isinstance(tg, ast.Subscript) and norm(tg.value) == v and view.reaches(dn, n) and view.reaches(n, r):
+                            clobber = True
+        chk.ob("R02.2a", fi.qualname + "::returns-unique-result", None if st == "unknown" else (st == "yes" and not clobber), fi.where(r.ast),
+               "the value returned (`%s`) is a numpy.unique result on every path, not modified afterwards" % v)
+    if not final:
+        chk.ob("R02.2a", fi.qualname + "::returns-unique-result", None, fi.where(), "no return of a row list found")
+        return
+    # range check
+    names = {norm(r.ast.value) for r in final if isinstance(r.ast.value, ast.Name)}
+    checks = {"lo": [], "hi": []}       # (branch node, ok label)
+    empties = []
+    ex = cfg.exit.id
+    for b in cfg.nodes:
+        if b.kind != "branch":
             continue
-        final_rets.append(r)
-        chk.ob("R02.2a", fi.qualname + "::returns-unique-result", bool(from_uniq) and not clobber, fi.where(r.ast),
-               "the value returned (`%s`) is the numpy.unique result, not modified afterwards" % v)
-    # range check: a raise controlled by a comparison with the row count dominates... i.e. its failing
-    # outcome is the only way past it
-    rc = []
-    for n in rules.raise_nodes(cfg):
-        ts = rules.controlling_tests(view, n)
-        for t, lab in ts:
-            if "nrows" in t and ("<" in t or ">" in t):
-                rc.append((n, t, lab))
-    chk.ob("R02.2b", fi.qualname + "::range-check-raises", bool(rc), fi.where(),
-           "a range check against the row count raises (%s)" % ([t for _, t, _ in rc] or "NOT FOUND"))
-    for n, t, lab in rc:
-        tt = t.replace(" ", "")
-        lo = "<0" in tt
-        hi = ">=self.nrows" in tt or ">self.nrows-1" in tt or ">=nrows" in tt
-        chk.ob("R02.2b", fi.qualname + "::range-check-bounds", lo and hi and lab == "T", fi.where(n.ast),
-               "range check rejects rows < 0 and rows >= nrows (test: %s)" % t)
-        # the branch of the range check dominates every final return
-        b = [bb for bb, l in view.controlling_branches(n) if norm(bb.ast.test) == t]
-        for r in final_rets:
-            dom = bool(b) and view.dominates(b[0], r)
-            chk.ob("R02.2b", fi.qualname + "::range-check-dominates-return", dom, fi.where(r.ast),
-                   "the range check is on every path to the return of the row list")
+        test = b.ast.test
+        # `if v.size and <out of range>: raise`: when the guard is false the selection is empty (nothing to check); otherwise the rest decides
+        if isinstance(test, ast.BoolOp) and isinstance(test.op, ast.And) and len(test.values) >= 2:
+            g = _canon(test.values[0], True, fi.node)
+            if any(_empty_fact(_canon(test.values[0], False, fi.node), v) for v in names) or g[0] == "truthy" and any(g[1] in (v + ".size", "len(%s)" % v) for v in names):
+                test = test.values[1] if len(test.values) == 2 else ast.BoolOp(op=ast.And(), values=test.values[1:])
+        for lab in ("T", "F"):
+            raw = []
+            _decompose(test, lab == "T", raw)
+            facts = [_canon(t, tr, fi.node) + (("all",) if ew else ()) for t, tr, ew in raw]
+            other = [j for j in view.g.successors(b.id) if lab not in view.g[b.id][j]["labels"]]
+            rejects = bool(other) and not any(j == ex or ex in nx.descendants(view.g, j) for j in other)
+            for v in names:
+                for f in facts:
+                    k = _bound_kind(f, v)
+                    if k and rejects:
+                        checks[k].append((b, lab))
+                    if _empty_fact(f, v):
+                        empties.append((b, lab))
+    helper_calls = [c for n in cfg.nodes for c in rules.stmts_calls(n) if _self_callee(repo, c) is not None and
+                    any(isinstance(x, ast.Name) and x.id in names for a in list(c.args) + [k.value for k in c.keywords] for x in ast.walk(a))
+                    and _self_callee(repo, c).name != "_fix_range"]
+    found = bool(checks["lo"] or checks["hi"])
+    # a raise under some comparison that could not be taken apart is not evidence that the check is missing
+    opaque = any(any(isinstance(x, ast.Compare) for x in ast.walk(bb.ast.test)) for n in rules.raise_nodes(cfg) for bb, _ in view.controlling_branches(n) if bb.kind == "branch")
+    chk.ob("R02.2b", fi.qualname + "::range-check-raises", True if found else (None if helper_calls or not names or opaque else False), fi.where(),
+           "a range check of the row list against the row count raises (%s)" % (sorted({norm(b.ast.test) for b, _ in checks["lo"] + checks["hi"]}) or "NOT FOUND"))
+    if not found:
+        return
+    chk.ob("R02.2b", fi.qualname + "::range-check-bounds", bool(checks["lo"]) and bool(checks["hi"]), fi.where(checks["lo"][0][0].ast if checks["lo"] else checks["hi"][0][0].ast),
+           "the range check rejects rows < 0 and rows >= nrows (lower bound %s, upper bound %s)"
+           % ("found" if checks["lo"] else "MISSING", "found" if checks["hi"] else "MISSING"))
+    for r in final:
+        ok = True
+        for kind in ("lo", "hi"):
+            if not checks[kind]:
+                continue
+            g = nx.DiGraph()
+            g.add_nodes_from(view.g.nodes)
+            cut = {(b.id, lab) for b, lab in checks[kind] + empties}
+            for a_, b_, data in view.g.edges(data=True):
+                labs = set(data["labels"])
+                labs = {l for l in labs if (a_, l) not in cut}
+                if labs:
+                    g.add_edge(a_, b_)
+            if r.id in nx.descendants(g, cfg.entry.id):
+                ok = False
+        chk.ob("R02.2b", fi.qualname + "::range-check-dominates-return", ok, fi.where(r.ast),
+               "every path to the return of a non-empty row list passes the range check")
     # no clamping of explicit rows: follow helper calls with the non-slice flag
     for x in walk_no_nested(fi.node):
         if isinstance(x, ast.Call):
-            d = dotted_name(x.func) or ""
-            if d.startswith("self.") and repo.has("esutil.recfile.Util.Recfile." + d[5:]):
-                callee = repo.func("esutil.recfile.Util.Recfile." + d[5:])
+            callee = _self_callee(repo, x)
+            if callee is not None:
                 fl = kwarg(x, "isslice")
                 flags = {"isslice": fl.value} if isinstance(fl, ast.Constant) else {}
                 _no_clamp(chk, callee, flags)
@@ -400,30 +856,55 @@ def _no_clamp(chk, fi, flags):
     found = 0
     for n in view.nodes():
         a = n.ast
+        v = val = None
         if n.kind == "stmt" and isinstance(a, ast.Assign) and len(a.targets) == 1:
             tgt = a.targets[0]
             base = tgt.value if isinstance(tgt, ast.Subscript) else tgt
-            if not isinstance(base, ast.Name):
-                continue
-            v = norm(tgt)
-            ts = rules.controlling_tests(view, n)
-            for t, lab in ts:
-                tt = t.replace(" ", "")
-                if lab == "T" and tt.startswith(v.replace(" ", "") + ">") and "nrows" in tt and "nrows" in norm(a.value):
-                    found += 1
-                    chk.ob("R02.2c", fi.qualname + "::no-clamp-of-explicit-row", False, fi.where(a),
-                           "an explicit row number beyond the table is replaced by `%s` (under `%s`) instead of being rejected: "
-                           "read(rows=[k]) with k >= nrows silently returns another row" % (norm(a.value), t))
+            if isinstance(base, ast.Name):
+                v, val = norm(tgt), a.value
+        elif n.kind == "return" and a.value is not None and len(fi.params) > 1 and not isinstance(a.value, ast.Name):
+            v, val = fi.params[1], a.value
+        if v is None or "nrows" not in norm(val):
+            continue
+        for f in _node_facts(view, n):
+            # v > <..nrows..>  /  v >= <..nrows..>   (canonical: <..nrows..> < v)
+            if f[0] in ("<", "<=") and f[2] == v and "nrows" in f[1]:
+                found += 1
+                chk.ob("R02.2c", fi.qualname + "::no-clamp-of-explicit-row", False, fi.where(a),
+                       "an explicit row number beyond the table is replaced by `%s` (under `%s %s %s`) instead of being rejected: "
+                       "read(rows=[k]) with k >= nrows silently returns another row" % (norm(val), f[1], f[0], f[2]))
     if not found:
         chk.ob("R02.2c", fi.qualname + "::no-clamp-of-explicit-row", True, fi.where(),
                "no value-clamping store of an explicit row number on the non-slice path")
 
 
 # ---------------------------------------------------------------------------
-def r02_3(chk, repo, F):
+def r02_3(chk, repo, F, S):
+    rd = F["read"]
+    gc = F["get_colnums"] or rd
+    g1 = F["get_colnum"] or rd
+    rcols = F["_read_columns"] or rd
+    cs = F["_get_colnums_to_read"] or rd
+    a = _ev(chk, S, "read/cols", ["colnums"], "R02.3a", "eval::" + gc.qualname + "::column-numbers-unique-sorted", gc.where(),
+            "every requested column name is translated and the column numbers reach the reader in file order without repeats")
+    b = _ev(chk, S, "read/cols", ["unknown"], "R02.3b", "eval::" + g1.qualname + "::unknown-name-raises", g1.where(),
+            "an unknown column name raises")
+    c = _ev(chk, S, "read/cols", ["dtype", "count"], "R02.3c", "eval::" + rcols.qualname + "::subset-dtype-from-file-descr", rcols.where(),
+            "the output array of a column subset has the file descr entries at the sorted column numbers, in that order")
+    d = _ev(chk, S, "read/cols", ["scalar"], "R02.3d", "eval::" + cs.qualname + "::scalar-column-gives-plain-array", cs.where(),
+            "a single column name (and only that) is reduced to the plain array of that column")
+    if not (a and b and c and d):
+        _r02_3_structural(chk, repo, F)
+
+
+def _r02_3_structural(chk, repo, F):
+    missing = [k for k in ("get_colnums", "get_colnum", "_read_columns", "_get_colnums_to_read") if F[k] is None]
+    if missing:
+        chk.ob("R02.3a", "column-normalisers-found", None, F["read"].where(), "column helpers not found: %s" % missing)
+        return
     gc = F["get_colnums"]
     rets = [x for x in walk_no_nested(gc.node) if isinstance(x, ast.Return) and x.value is not None]
-    ok = bool(rets) and all(isinstance(r.value, ast.Call) and call_name(r.value) == "unique" for r in rets)
+    ok = bool(rets) and all(isinstance(rules.expand(r.value, gc.node), ast.Call) and call_name(rules.expand(r.value, gc.node)) == "unique" for r in rets)
     chk.ob("R02.3a", gc.qualname + "::returns-unique-sorted", ok, gc.where(),
            "column numbers are returned through numpy.unique (file order, no repeats)")
     # every requested name is looked up (loop over all of colnames, store at same index)
@@ -437,8 +918,8 @@ def r02_3(chk, repo, F):
                         and isinstance(b.value.args[0], ast.Subscript) and norm(b.value.args[0].slice) == i \
                         and norm(x.iter.args[0]).endswith(".size"):
                     loop_ok = True
-        if isinstance(x, (ast.ListComp,)):
-            loop_ok = loop_ok or any(isinstance(y, ast.Call) and call_name(y) == "get_colnum" for y in ast.walk(x))
+        if isinstance(x, (ast.ListComp, ast.GeneratorExp)) and len(x.generators) == 1 and not x.generators[0].ifs:
+            loop_ok = loop_ok or any(isinstance(y, ast.Call) and call_name(y) == "get_colnum" for y in ast.walk(x.elt))
     chk.ob("R02.3a", gc.qualname + "::every-name-looked-up", loop_ok, gc.where(),
            "every requested column name is translated (loop over all names, same index on both sides)")
     g1 = F["get_colnum"]
@@ -462,8 +943,11 @@ def r02_3(chk, repo, F):
         if isinstance(x, ast.For) and norm(x.iter) == "colnums":
             for b in x.body:
                 if isinstance(b, ast.Expr) and isinstance(b.value, ast.Call) and call_name(b.value) == "append" and b.value.args \
-                        and norm(b.value.args[0]) == "self.dtype.descr[%s]" % norm(x.target):
+                        and rules.xnorm(b.value.args[0], rcols.node) == "self.dtype.descr[%s]" % norm(x.target):
                     ok = True
+        if isinstance(x, ast.ListComp) and len(x.generators) == 1 and not x.generators[0].ifs and norm(x.generators[0].iter) == "colnums" \
+                and rules.xnorm(x.elt, rcols.node) == "self.dtype.descr[%s]" % norm(x.generators[0].target):
+            ok = True
     chk.ob("R02.3c", rcols.qualname + "::subset-dtype-from-file-descr", ok, rcols.where(),
            "the dtype of a column subset is the file descr entries at the sorted column numbers, appended in that order")
     cs = F["_get_colnums_to_read"]
@@ -473,12 +957,27 @@ def r02_3(chk, repo, F):
 
 
 # ---------------------------------------------------------------------------
-def r02_4(chk, repo):
+SYN = ("fields", "columns")
+
+
+def r02_4(chk, repo, S):
     """fields/columns synonyms"""
     scope = [fi for q, fi in repo.funcs.items()
-             if (q.startswith("esutil.recfile.Util.") or q.startswith("esutil.sfile.")) and {"fields", "columns"} <= set(fi.params)]
+             if (q.startswith("esutil.recfile.Util.") or q.startswith("esutil.sfile.")) and set(SYN) <= set(fi.params)]
     chk.ob("R02.4", "synonym-functions-found", len(scope) >= 5, "esutil/recfile/Util.py",
            "functions taking both fields= and columns=: %s" % [f.qualname.split("esutil.")[1] for f in scope])
+    rd = repo.func(U + "Recfile.read")
+    _ev(chk, S, "read/cols", ["synonym"], "R02.4", "eval::Recfile.read::either-synonym-reaches-the-reader", rd.where(),
+        "a column request made through fields= or through columns= selects the same columns and the same scalar reduction")
+    _ev(chk, S, "sfile", ["synonym"], "R02.4", "eval::SFile.read::either-synonym-reaches-the-recfile", repo.func("esutil.sfile.SFile.read").where(),
+        "SFile.read / sfile.read forward a request made through either synonym")
+    covered = {}
+    for names, sim, facets in (((U + "Recfile.read",), "read/cols", ["synonym"]),
+                               (("esutil.sfile.SFile.read", "esutil.sfile.SFile._do_read"), "sfile", ["synonym", "forward"]),
+                               ((U + "RecfileColumnSubset.__init__", U + "RecfileSubset.__init__"), "subsets", ["RecfileColumnSubset.read", "RecfileSubset.read"])):
+        st, res = S.get(sim)
+        for q in names:
+            covered[q] = st == "ok" and not any(res.get(f) for f in facets)
     for fi in scope:
         chk.analysed_unit(fi.qualname)
         cfg = cfg_of(fi)
@@ -486,52 +985,78 @@ def r02_4(chk, repo):
         merges = []   # (node, merged var, other var)
         for n in cfg.nodes:
             a = n.ast
-            if n.kind == "stmt" and isinstance(a, ast.Assign) and isinstance(a.targets[0], ast.Name) and isinstance(a.value, ast.Name):
-                t, v = a.targets[0].id, a.value.id
-                if {t, v} == {"fields", "columns"}:
-                    ts = rules.controlling_tests(view, n)
-                    if any(tt == "%s is None" % t and lab == "T" for tt, lab in ts):
-                        merges.append((n, t, v))
+            if n.kind == "stmt" and isinstance(a, ast.Assign) and len(a.targets) == 1 and isinstance(a.targets[0], ast.Name) and a.targets[0].id in SYN:
+                t = a.targets[0].id
+                o = SYN[1 - SYN.index(t)]
+                facts = _node_facts(view, n)
+                if isinstance(a.value, ast.Name) and a.value.id == o and \
+                        (("is", t, "None") in facts or ("falsy", t, "") in facts or ("isnot", o, "None") in facts or ("truthy", o, "") in facts):
+                    merges.append((n, t, o, False))
+                elif _is_merge_expr(a.value, t, o):
+                    merges.append((n, t, o, True))
         for n in cfg.nodes:
             if n.ast is None or any(n is m[0] for m in merges):
                 continue
             roots = [n.ast.test] if n.kind == "branch" else ([n.ast] if n.kind in ("stmt", "return") else [])
             for r in roots:
                 for x in walk_no_nested(r):
-                    if isinstance(x, ast.Name) and isinstance(x.ctx, ast.Load) and x.id in ("fields", "columns"):
+                    if isinstance(x, ast.Name) and isinstance(x.ctx, ast.Load) and x.id in SYN:
                         ok, why = _synonym_use_ok(cfg, view, n, x, r, merges)
+                        if not ok and covered.get(fi.qualname):
+                            # evaluated end to end with a request through either synonym: this spelling of the merge is not recognised
+                            ok, why = None, why + " [but %s honours both synonyms when evaluated: the way they are merged here is not recognised]" % fi.name
                         chk.ob("R02.4", "%s::use-of-%s::%s" % (fi.qualname, x.id, norm(n.ast.test if n.kind == "branch" else n.ast)[:60]),
                                ok, fi.where(n.ast), why)
 
 
+def _is_merge_expr(e, t, o):
+    """`o if t is None else t` / `t if t is not None else o` (the merged request, whichever synonym carried it)"""
+    if isinstance(e, ast.BoolOp) and isinstance(e.op, ast.Or) and [norm(v) for v in e.values] == [t, o]:
+        return True
+    if not isinstance(e, ast.IfExp):
+        return False
+    raw = []
+    _decompose(e.test, True, raw)
+    facts = [_canon(x, tr) for x, tr, _ in raw]
+    b, r = norm(e.body), norm(e.orelse)
+    return (("is", t, "None") in facts and b == o and r == t) or (("isnot", t, "None") in facts and b == t and r == o)
+
+
 def _synonym_use_ok(cfg, view, n, name, root, merges):
-    other = "columns" if name.id == "fields" else "fields"
+    me = name.id
+    other = SYN[1 - SYN.index(me)]
     # (i) forwarded together with the other synonym in one call
     for c in ast.walk(root):
         if isinstance(c, ast.Call):
             passed = {norm(a) for a in c.args} | {norm(k.value) for k in c.keywords}
-            if {"fields", "columns"} <= passed:
+            if set(SYN) <= passed:
                 return True, "both synonyms are forwarded together to %s" % (call_name(c))
-    # (ii) the merge test itself (`if columns is None`)
-    if n.kind == "branch" and norm(n.ast.test) in ("%s is None" % name.id, "%s is not None" % name.id):
-        return True, "None-test of a synonym"
+    # (ii) a None-test of a synonym (`if columns is None`, `x if columns is None else y`)
+    for c in ast.walk(root):
+        if isinstance(c, ast.Compare) and len(c.ops) == 1 and isinstance(c.ops[0], (ast.Is, ast.IsNot)) and c.left is name \
+                and isinstance(c.comparators[0], ast.Constant) and c.comparators[0].value is None:
+            return True, "None-test of a synonym"
+    # (ii-) the use is part of an expression that merges the two synonyms (`fields if columns is None else columns`, `columns or fields`)
+    for e in ast.walk(root):
+        if isinstance(e, (ast.IfExp, ast.BoolOp)) and (_is_merge_expr(e, me, other) or _is_merge_expr(e, other, me)) \
+                and any(x is name for x in ast.walk(e)):
+            return True, "part of the expression that merges the synonyms"
+    facts = _node_facts(view, n) + _expr_facts(root, name)
     # (ii') priority selection: the use is guarded by `<name> is not None`
-    if any(t == "%s is not None" % name.id and lab == "T" for t, lab in rules.controlling_tests(view, n)):
-        return True, "use guarded by `%s is not None` (priority selection between the synonyms)" % name.id
+    if ("isnot", me, "None") in facts or ("truthy", me, "") in facts:
+        return True, "use guarded by `%s is not None` (priority selection between the synonyms)" % me
+    # (ii'') the fall-back arm of a merge: the other synonym is known to be None here
+    if ("is", other, "None") in facts:
+        return True, "use of `%s` where `%s` is None (fall-back arm of the merge of the synonyms)" % (me, other)
     # (iii) it is the merged variable and a merge dominates this use
-    for m, t, v in merges:
-        if name.id == t and view.dominates(m, n) or (name.id == t and _merge_guard_dominates(view, m, n)):
+    for m, t, v, uncond in merges:
+        if me == t and (view.dominates(m, n) or _merge_guard_dominates(view, m, n)):
             return True, "use of the merged variable `%s` after the merge" % t
     if merges:
-        m, t, v = merges[0]
-        if name.id == t:
-            # merged var used after the if-merge construct (merge node does not dominate because it is conditional)
-            b = view.controlling_branches(m)
-            if b and view.dominates(b[0][0], n):
-                return True, "use of the merged variable `%s` after the merge" % t
-        return False, "`%s` is read although the request was merged into `%s`: a caller using the other synonym is ignored here" % (name.id, t)
+        t = merges[0][1]
+        return False, "`%s` is read although the request was merged into `%s`: a caller using the other synonym is ignored here" % (me, t)
     return False, ("`%s` is used on its own and `%s` is never merged into it in this function: "
-                   "a request made through the synonym `%s=` is ignored at this use" % (name.id, other, other))
+                   "a request made through the synonym `%s=` is ignored at this use" % (me, other, other))
 
 
 def _merge_guard_dominates(view, m, n):
@@ -540,7 +1065,7 @@ def _merge_guard_dominates(view, m, n):
 
 
 # ---------------------------------------------------------------------------
-def r02_5(chk, repo, F, cfun):
+def r02_5(chk, repo, F, cfun, S):
     prims = ("read_columns", "read_binary_slice")
     callers = {}
     for q, fi in repo.funcs.items():
@@ -549,24 +1074,90 @@ def r02_5(chk, repo, F, cfun):
                 if isinstance(x, ast.Call) and call_name(x) in prims and isinstance(x.func, ast.Attribute) \
                         and norm(x.func.value).endswith("robj"):
                     callers.setdefault(call_name(x), set()).add(q)
-    allowed = {"read_columns": {F["_read_columns"].qualname}, "read_binary_slice": {F["_read_binary_slice"].qualname}}
+    # the C++ primitives are reached only through Recfile's two private readers (or private helpers that only those readers call)
+    allowed = {"read_columns": U + "Recfile._read_columns", "read_binary_slice": U + "Recfile._read_binary_slice"}
     for p in prims:
-        chk.ob("R02.5a", "who-may-call::" + p, callers.get(p, set()) == allowed[p], "esutil/recfile/Util.py",
-               "callers of the C++ primitive %s: %s (allowed: %s)" % (p, sorted(callers.get(p, ())), sorted(allowed[p])))
-    # role-preserving forwarding along every access style
-    fw = [
-        ("esutil.recfile.Util.Recfile.__getitem__", "read", {"rows": "rows"}),
-        ("esutil.recfile.Util.Recfile.__getitem__", "_read_binary_slice", {0: "res"}),
-        ("esutil.recfile.Util.Recfile.__getitem__", "RecfileColumnSubset", {"columns": "res", 0: "self"}),
-        ("esutil.recfile.Util.RecfileColumnSubset.read", "read", {"rows": "rows", "columns": "self.columns", "split": "split"}),
-        ("esutil.recfile.Util.RecfileColumnSubset.__getitem__", "read", {"rows": "res"}),
-        ("esutil.recfile.Util.RecfileSubset.read", "read", {"rows": "self.rows", "columns": "self.columns", "split": "split"}),
-        ("esutil.sfile.SFile._do_read", "read", {"rows": "rows", "columns": "columns"}),
-        ("esutil.sfile.SFile.read", "_do_read", {"rows": "rows", "fields": "fields", "columns": "columns"}),
-        ("esutil.recfile.Util.Recfile._read_columns", "read_columns", {0: "data", 1: "colnums", 2: "rows"}),
-        ("esutil.recfile.Util.Recfile.read", "_read_columns", {0: "colnums", 1: "rows"}),
-    ]
+        cs = callers.get(p, set())
+        funnel = _funnel(repo, allowed[p])
+        chk.ob("R02.5a", "who-may-call::" + p, bool(cs) and cs <= funnel, repo.func(sorted(cs)[0]).where() if cs else "esutil/recfile/Util.py",
+               "callers of the C++ primitive %s: %s (allowed: %s and private helpers called only from it)" % (p, sorted(cs), allowed[p]))
+    gi = F["__getitem__"]
+    rd = F["read"]
+    # role-preserving forwarding along every access style, bracket dispatch, slice expansion for text
+    a = _ev(chk, S, "brackets", ["roles"], "R02.5b", "eval::" + gi.qualname + "::roles", gi.where(),
+            "bracket access hands the row request to read(rows=...), a normalised slice to the slice reader, a column request to "
+            "RecfileColumnSubset(self, columns=...), unchanged, and returns what they return")
+    b = _ev(chk, S, "brackets", ["dispatch"], "R02.5c", "eval::" + gi.qualname + "::dispatch", gi.where(),
+            "row lists, numbers and slices are read, column names and lists give a column-subset object")
+    c = _ev(chk, S, "brackets", ["unpack"], "R02.5d", "eval::" + gi.qualname + "::unpack-iff-text", gi.where(),
+            "text files and column subsets expand slices to row numbers (their reader takes row lists only)")
+    d = _ev(chk, S, "brackets", ["subset"], "R02.5b", "eval::" + U + "RecfileColumnSubset.__getitem__::roles", gi.where(),
+            "column-subset bracket access reads its own columns")
+    if not (a and b and c and d):
+        _r02_5_brackets_structural(chk, repo, F)
+    e = True
+    for cls in ("RecfileColumnSubset", "RecfileSubset"):
+        fi = repo.func(U + cls + ".read")
+        chk.analysed_unit(fi.qualname)
+        e &= _ev(chk, S, "subsets", [cls + ".read"], "R02.5b", "eval::" + fi.qualname + "::roles", fi.where(),
+                 "%s.read forwards its rows, its columns (from either synonym) and split to Recfile.read and returns the result" % cls)
+    if not e:
+        _r02_5_forward_structural(chk, repo, [
+            (U + "RecfileColumnSubset.read", "read", {"rows": "rows", "columns": "self.columns", "split": "split"}),
+            (U + "RecfileSubset.read", "read", {"rows": "self.rows", "columns": "self.columns", "split": "split"})])
+    sr = repo.func("esutil.sfile.SFile.read")
+    f1 = _ev(chk, S, "sfile", ["forward", "module-read"], "R02.5b", "eval::" + sr.qualname + "::roles", sr.where(),
+             "SFile.read and sfile.read hand rows and the column request to Recfile.read(rows=, columns=)")
+    f2 = _ev(chk, S, "sfile", ["getitem"], "R02.5b", "eval::esutil.sfile.SFile.__getitem__::delegates", repo.func("esutil.sfile.SFile.__getitem__").where(),
+             "SFile[...] is Recfile[...]")
+    if not (f1 and f2):
+        _r02_5_forward_structural(chk, repo, [
+            ("esutil.sfile.SFile._do_read", "read", {"rows": "rows", "columns": "columns"}),
+            ("esutil.sfile.SFile.read", "_do_read", {"rows": "rows", "fields": "fields", "columns": "columns"})])
+        g = repo.func("esutil.sfile.SFile.__getitem__")
+        ok = any(isinstance(x, ast.Return) and x.value is not None and norm(x.value) == "self._robj[arg]" for x in ast.walk(g.node))
+        chk.ob("R02.5b", g.qualname + "::delegates", ok, g.where(), "SFile[...] is Recfile[...]")
+    # Recfile.read: which reader, with which arguments, and what is handed back
+    g1 = _ev(chk, S, "read/dispatch", ["roles", "unique", "colnums", "count", "dtype"], "R02.5b", "eval::" + rd.qualname + "->reader::roles", rd.where(),
+             "Recfile.read hands (buffer, column numbers, rows) for exactly the requested selection to the C++ reader")
+    g2 = _ev(chk, S, "read/dispatch", ["fastpath"], "R02.5e", "eval::" + rd.qualname + "::fast-path-guard", rd.where(),
+             "the whole-row slice reader is used only for binary files when all columns are requested")
+    g3 = _ev(chk, S, "read/dispatch", ["fastslice"], "R02.5e", "eval::" + rd.qualname + "::fast-path-slice", rd.where(),
+             "the slice given to the whole-row slice reader selects exactly the requested rows")
+    g4 = _ev(chk, S, "read/dispatch", ["scalar", "split", "synonym"], "R02.5f", "eval::" + rd.qualname + "::scalar-column-reduction", rd.where(),
+             "the result is reduced to a plain column exactly for a scalar column request, split exactly under split=True")
+    if not (g1 and g2 and g3 and g4):
+        _r02_5_read_structural(chk, repo, F)
+
+
+def _funnel(repo, root):
+    """the reader `root` plus the private methods of Recfile that are called from nowhere but the funnel itself"""
+    who = {}
+    for q, fi in repo.funcs.items():
+        if not q.startswith("esutil.") or "tests" in q:
+            continue
+        for x in walk_no_nested(fi.node):
+            if isinstance(x, ast.Call) and isinstance(x.func, ast.Attribute):
+                who.setdefault(x.func.attr, set()).add(q)
+    out = {root}
+    changed = True
+    while changed:
+        changed = False
+        for q, fi in repo.funcs.items():
+            if q in out or not q.startswith(U + "Recfile._") or q.startswith(U + "Recfile.__"):
+                continue
+            cs = who.get(fi.name, set())
+            if cs and cs <= out:
+                out.add(q)
+                changed = True
+    return out
+
+
+def _r02_5_forward_structural(chk, repo, fw):
     for q, callee, roles in fw:
+        if not repo.has(q):
+            chk.ob("R02.5b", "%s->%s::present" % (q, callee), None, "esutil/recfile/Util.py", "%s not found" % q)
+            continue
         fi = repo.func(q)
         chk.analysed_unit(q)
         calls = [x for x in walk_no_nested(fi.node) if isinstance(x, ast.Call) and call_name(x) == callee]
@@ -576,31 +1167,46 @@ def r02_5(chk, repo, F, cfun):
         for c in calls:
             bad = []
             for role, want in roles.items():
-                got = norm(c.args[role]) if isinstance(role, int) and role < len(c.args) else (norm(kwarg(c, role)) if not isinstance(role, int) and kwarg(c, role) is not None else None)
-                if got != want:
+                a = c.args[role] if isinstance(role, int) and role < len(c.args) else (kwarg(c, role) if not isinstance(role, int) else None)
+                got = rules.xnorm(a, fi.node) if a is not None else None
+                wants = want if isinstance(want, tuple) else (want,)
+                if got not in wants and not (a is not None and norm(a) in wants) and not (a is not None and want == "columns" and _is_merge_expr(rules.expand(a, fi.node), "columns", "fields")):
                     bad.append("%s=%s (want %s)" % (role, got, want))
             chk.ob("R02.5b", "%s->%s::roles" % (q, callee), not bad, fi.where(c),
                    "delegation %s -> %s keeps argument roles%s" % (fi.name, callee, "" if not bad else ": " + "; ".join(bad)))
-    # SFile.__getitem__ delegates to the Recfile object
-    g = repo.func("esutil.sfile.SFile.__getitem__")
-    ok = any(isinstance(x, ast.Return) and x.value is not None and norm(x.value) == "self._robj[arg]" for x in ast.walk(g.node))
-    chk.ob("R02.5b", g.qualname + "::delegates", ok, g.where(), "SFile[...] is Recfile[...]")
-    # bracket dispatch table in _process_args_as_rows_or_columns / __getitem__
+
+
+def _r02_5_brackets_structural(chk, repo, F):
     gi = F["__getitem__"]
+    # names of the (result, isrows, isslice) triple of the bracket classifier in __getitem__
+    trip = None
+    for x in walk_no_nested(gi.node):
+        if isinstance(x, ast.Assign) and isinstance(x.targets[0], ast.Tuple) and len(x.targets[0].elts) == 3 and isinstance(x.value, ast.Call) \
+                and call_name(x.value) == "_process_args_as_rows_or_columns":
+            trip = [norm(e) for e in x.targets[0].elts]
+    if trip is None:
+        chk.ob("R02.5c", gi.qualname + "::dispatch", None, gi.where(), "the (result, isrows, isslice) classification of the bracket argument was not found")
+        return
+    res, isrows, isslice = trip
+    _r02_5_forward_structural(chk, repo, [
+        (gi.qualname, "read", {"rows": res}),
+        (gi.qualname, "_read_binary_slice", {0: res}),
+        (gi.qualname, "RecfileColumnSubset", {"columns": res, 0: "self"}),
+        (U + "RecfileColumnSubset.__getitem__", "read", {"rows": "res"})])
     cfg = cfg_of(gi)
     view = cfg.view()
     for n in cfg.nodes:
         for c in rules.stmts_calls(n):
             nm = call_name(c)
             if nm in ("_read_binary_slice", "read", "RecfileColumnSubset"):
-                ts = dict(rules.controlling_tests(view, n))
-                want = {"_read_binary_slice": {"isrows": "T", "isslice": "T"}, "read": {"isrows": "T", "isslice": "F"},
-                        "RecfileColumnSubset": {"isrows": "F"}}[nm]
-                ok = all(ts.get(k) == v for k, v in want.items())
-                chk.ob("R02.5c", gi.qualname + "::dispatch::" + nm, ok, gi.where(n.ast),
-                       "%s is selected under %s (found %s)" % (nm, want, ts))
+                facts = _node_facts(view, n)
+                want = {"_read_binary_slice": [("truthy", isrows, ""), ("truthy", isslice, "")],
+                        "read": [("truthy", isrows, ""), ("falsy", isslice, "")],
+                        "RecfileColumnSubset": [("falsy", isrows, "")]}[nm]
+                chk.ob("R02.5c", gi.qualname + "::dispatch::" + nm, all(w in facts for w in want), gi.where(n.ast),
+                       "%s is selected under %s (found %s)" % (nm, want, facts))
     # text files and column subsets expand slices to rows (their reader takes row lists only)
-    for q, want in (("esutil.recfile.Util.Recfile.__getitem__", None), ("esutil.recfile.Util.RecfileColumnSubset.__getitem__", "True")):
+    for q, want in ((gi.qualname, None), (U + "RecfileColumnSubset.__getitem__", "True")):
         fi = repo.func(q)
         for x in walk_no_nested(fi.node):
             if isinstance(x, ast.Call) and call_name(x) == "_process_args_as_rows_or_columns":
@@ -610,8 +1216,7 @@ def r02_5(chk, repo, F, cfun):
                            "column-subset bracket access expands slices to row lists (unpack=%s)" % (norm(u) if u is not None else None))
                 else:
                     # unpack must be True exactly for text files
-                    srcs = [a for a in walk_no_nested(fi.node) if isinstance(a, ast.Assign) and norm(a.targets[0]) == norm(u)]
-                    okk = False
+                    srcs = [a for a in walk_no_nested(fi.node) if isinstance(a, ast.Assign) and u is not None and norm(a.targets[0]) == norm(u)]
                     cfg2 = cfg_of(fi)
                     v2 = cfg2.view()
                     vals = {}
@@ -620,11 +1225,19 @@ def r02_5(chk, repo, F, cfun):
                         ts = dict(rules.controlling_tests(v2, n))
                         if "self.is_ascii" in ts:
                             vals[ts["self.is_ascii"]] = norm(a.value)
-                    okk = vals == {"T": "True", "F": "False"} or (u is not None and norm(u) == "self.is_ascii")
+                    okk = vals == {"T": "True", "F": "False"} or (u is not None and rules.xnorm(u, fi.node) in ("self.is_ascii", "bool(self.is_ascii)"))
                     chk.ob("R02.5d", q + "::unpack-iff-text", okk, fi.where(x),
                            "bracket access expands slices to row lists exactly for text files (%s)" % vals)
-    # the whole-table fast path is only taken when all rows and all columns are requested
+
+
+def _r02_5_read_structural(chk, repo, F):
     rd = F["read"]
+    fw = []
+    if F["_read_columns"] is not None:
+        fw.append((F["_read_columns"].qualname, "read_columns", {0: "data", 1: "colnums", 2: "rows"}))
+    fw.append((rd.qualname, "_read_columns", {0: "colnums", 1: "rows"}))
+    _r02_5_forward_structural(chk, repo, fw)
+    # the whole-table fast path is only taken when all rows and all columns are requested
     cfg = cfg_of(rd)
     view = cfg.view()
     for n in cfg.nodes:
@@ -635,8 +1248,8 @@ def r02_5(chk, repo, F, cfun):
                 okk = bool(cond) and ts[cond[0]] == "T" and ts.get("self.is_ascii") == "F"
                 chk.ob("R02.5e", rd.qualname + "::fast-path-guard", okk, rd.where(n.ast),
                        "the single-fread path is taken only for binary files when all rows and all columns are requested (%s)" % ts)
-                chk.ob("R02.5e", rd.qualname + "::fast-path-slice", norm(c.args[0]) == "slice(0, self.nrows, 1)", rd.where(n.ast),
-                       "the fast path reads slice(0, nrows, 1) (found %s)" % norm(c.args[0]))
+                chk.ob("R02.5e", rd.qualname + "::fast-path-slice", bool(c.args) and norm(c.args[0]) == "slice(0, self.nrows, 1)", rd.where(n.ast),
+                       "the fast path reads slice(0, nrows, 1) (found %s)" % (norm(c.args[0]) if c.args else None))
     defs = {norm(x.targets[0]): norm(x.value) for x in walk_no_nested(rd.node) if isinstance(x, ast.Assign)}
     chk.ob("R02.5e", rd.qualname + "::all-rows-definition", defs.get("read_all_rows", "").replace("(", "").replace(")", "") == "rows is None or rows.size == self.nrows",
            rd.where(), "read_all_rows := rows is None or rows.size == nrows (rows are distinct): found %s" % defs.get("read_all_rows"))
@@ -652,13 +1265,13 @@ def r02_5(chk, repo, F, cfun):
 
 
 # ---------------------------------------------------------------------------
-def r02_6(chk, repo):
+def r02_6(chk, repo, S):
     copies = [q for q in ("esutil.sfile.split_fields", "esutil.recfile.Util.split_fields", "esutil.numpy_util.split_fields") if repo.has(q)]
     chk.ob("R02.6a", "split_fields::copies-found", len(copies) == 3, "esutil", "three copies of split_fields: %s" % copies)
     for q in copies:
         fi = repo.func(q)
         chk.analysed_unit(q)
-        check_split_fields(chk, fi, "R02.6a")
+        check_split_fields(chk, fi, "R02.6a", repo=repo, sims=S)
     # total helpers
     for q in ("esutil.sfile.reduce_array", "esutil.sfile.split_fields", "esutil.recfile.Util.split_fields"):
         fi = repo.func(q)
@@ -669,11 +1282,62 @@ def r02_6(chk, repo):
                "every path through %s returns a value%s" % (fi.name, "" if not off else
                                                           ": falling off the end after `%s` returns None (e.g. reduce=True on a table with several columns)" % off[0].text()[:60]))
     ra = repo.func("esutil.sfile.reduce_array")
+    _ev(chk, S, "reduce", ["total"], "R02.6b", ra.qualname + "::never-returns-None", ra.where(),
+        "reduce_array returns a value for arrays with no, one or several fields and for objects without dtype")
     # reduce: single-field structured array -> that field; anything else -> input unchanged
-    rets = [norm(x.value) for x in walk_no_nested(ra.node) if isinstance(x, ast.Return) and x.value is not None]
-    chk.ob("R02.6c", ra.qualname + "::returns", set(rets) <= {"data[data.dtype.names[0]]", "data"} and "data" in rets and len(rets) >= 2,
-           ra.where(), "reduce_array returns the single field or the input itself (returns: %s)" % rets)
+    if not _ev(chk, S, "reduce", ["single", "other"], "R02.6c", ra.qualname + "::returns", ra.where(),
+               "reduce_array returns the view of the only field of a one-field array and the input itself in every other case"):
+        _r02_6c_structural(chk, ra)
     sr = repo.func("esutil.sfile.SFile.read")
+    a = _ev(chk, S, "sfile", ["split", "reduce"], "R02.6d", "eval::" + sr.qualname + "::split-then-reduce", sr.where(),
+            "the result is replaced by split_fields(result) exactly under split=True, else by reduce_array(result) exactly under reduce=True")
+    b = _ev(chk, S, "sfile", ["header"], "R02.6e", "eval::" + sr.qualname + "::header-copy", sr.where(),
+            "read(header=True) returns (data, copy of the header)")
+    if not (a and b):
+        _r02_6d_structural(chk, sr)
+
+
+def _r02_6c_structural(chk, ra):
+    """reduce_array: every return is the parameter itself, or data[<names>[0]] under the fact len(<names>) == 1"""
+    cfg = cfg_of(ra)
+    view = cfg.view()
+    p = ra.params[0] if ra.params else "data"
+    kinds = []
+    verdict = True
+    msgs = []
+    for r in rules.return_nodes(cfg):
+        if r.ast.value is None:
+            continue
+        e = rules.expand(r.ast.value, ra.node)
+        if isinstance(e, ast.Name) and e.id == p:
+            kinds.append("input")
+            continue
+        if isinstance(e, ast.Subscript) and norm(e.value) == p and isinstance(e.slice, ast.Subscript) and norm(e.slice.slice) == "0":
+            names = norm(e.slice.value)
+            if "names" not in names and "fields" not in names and "descr" not in names:
+                verdict = None if verdict else verdict
+                msgs.append("unrecognised field selector %s" % names)
+                continue
+            kinds.append("field")
+            facts = _node_facts(view, r, ra.node)
+            lens = {"len(%s)" % names, "len(%s.dtype)" % p, "len(%s.dtype.names)" % p, "len(%s.dtype.fields)" % p, "len(%s.dtype.descr)" % p}
+            single = any((f[0] == "==" and ((f[1] in lens and f[2] == "1") or (f[2] in lens and f[1] == "1"))) for f in facts) or \
+                (any(f[0] == "<" and f[1] in lens and f[2] == "2" for f in facts) and any(f[0] in ("truthy",) and f[1] == names for f in facts))
+            if not single:
+                verdict = False
+                msgs.append("`return %s` is not under the single-field test len(%s) == 1 (facts: %s)" % (norm(r.ast.value), names, facts))
+            continue
+        if verdict:
+            verdict = None
+        msgs.append("unrecognised return `%s`" % norm(r.ast.value))
+    if verdict is True and not ("input" in kinds and "field" in kinds):
+        verdict = None
+        msgs.append("returns found: %s" % kinds)
+    chk.ob("R02.6c", ra.qualname + "::returns", verdict, ra.where(),
+           "reduce_array returns the single field (under len(names) == 1) or the input itself%s" % ("" if not msgs else ": " + "; ".join(msgs)))
+
+
+def _r02_6d_structural(chk, sr):
     cfg = cfg_of(sr)
     view = cfg.view()
     for n in cfg.nodes:
@@ -681,19 +1345,59 @@ def r02_6(chk, repo):
             if call_name(c) in ("split_fields", "reduce_array"):
                 ts = dict(rules.controlling_tests(view, n))
                 want = {"split_fields": ("split", "T"), "reduce_array": ("reduce", "T")}[call_name(c)]
-                chk.ob("R02.6d", sr.qualname + "::" + call_name(c), ts.get(want[0]) == want[1] and norm(c.args[0]) == "result" and
+                chk.ob("R02.6d", sr.qualname + "::" + call_name(c), ts.get(want[0]) == want[1] and bool(c.args) and norm(c.args[0]) == "result" and
                        isinstance(n.ast, ast.Assign) and norm(n.ast.targets[0]) == "result", sr.where(n.ast),
                        "%s(result) replaces the result exactly under %s=True" % (call_name(c), want[0]))
     # header=True returns a copy of the stored header
     for n in rules.return_nodes(cfg):
-        if isinstance(n.ast.value, ast.Tuple):
+        if isinstance(n.ast.value, ast.Tuple) and len(n.ast.value.elts) == 2:
             second = n.ast.value.elts[1]
             chk.ob("R02.6e", sr.qualname + "::header-copy", isinstance(second, ast.Call) and call_name(second) in ("deepcopy", "copy"),
                    sr.where(n.ast), "read(header=True) returns a copy of the header")
 
 
-def check_split_fields(chk, fi, rule):
-    """structural spec of a split_fields copy (also used by C07)"""
+class _NoRepo(object):
+    """stand-in when check_split_fields is used without a repository object: only names of the function's own module resolve"""
+
+    def has(self, q):
+        return False
+
+    def func(self, q):
+        raise AnalysisError("anchor %s not found" % q)
+
+    def resolve_name(self, mod, dotted):
+        return dotted
+
+
+def check_split_fields(chk, fi, rule, repo=None, sims=None):
+    """spec of a split_fields copy (also used by C07): one view per requested field, in request order, as a tuple; all fields by
+    default; a missing field raises.  Decided by evaluation on a model array; structural form as fall-back."""
+    if sims is not None:
+        st, res = sims.get("split:" + fi.qualname)
+    else:
+        try:
+            st, res = "ok", _sim_split(repo or _NoRepo(), fi)
+        except _Unsup as e:
+            st, res = "unsup", str(e)
+        except AnalysisError:
+            raise
+        except Exception as e:
+            st, res = "unsup", "evaluator: %s: %s" % (type(e).__name__, e)
+    if st == "ok":
+        scope = "fields = None, a name, lists with and without repeats, a tuple, unknown names, getnames, an array without fields"
+        for key, facets, msg in (
+                ("::one-view-per-field-in-order", ["order"], "one `data[field]` view per requested field, in request order, none skipped"),
+                ("::returns-tuple-of-views", ["tuple", "names"], "returns a tuple of the views (with getnames: the tuple and the names)"),
+                ("::default-all-fields", ["default"], "fields=None selects every field of the dtype in dtype order; an array without fields gives (data,)"),
+                ("::missing-field-raises", ["missing"], "a requested field that does not exist raises")):
+            cex = [c for f in facets for c in res[f]]
+            chk.ob(rule, "eval::" + fi.qualname + key, not cex, fi.where(),
+                   msg + (" -- counterexample: " + "; ".join(cex[:3]) if cex else " [evaluated: %s]" % scope))
+        return
+    _split_fields_structural(chk, fi, rule)
+
+
+def _split_fields_structural(chk, fi, rule):
     fn = fi.node
     loops = [x for x in walk_no_nested(fn) if isinstance(x, ast.For)]
     ok = False
@@ -733,121 +1437,2504 @@ def check_split_fields(chk, fi, rule):
 
 
 # ---------------------------------------------------------------------------
-def r02_7(chk, cfun):
-    """cursor pairing in the C++ skip/read loops"""
-    for fname, colskip, coltest in (("Records::read_text_columns", "skip_ascii_col_range", "mNfields"),
-                                    ("Records::read_binary_columns", "do_seek", "mRowSize")):
+def r02_7(chk, cfun, S):
+    """cursor pairing in the C++ skip/read loops, evaluated over the file-cursor model"""
+    for fname, kind, sim in (("Records::read_text_columns", "text", "c/text"), ("Records::read_binary_columns", "bin", "c/bin")):
         fn = cfun.get(fname)
         if fn is None:
             raise AnalysisError("C++ anchor %s missing" % fname)
         chk.analysed_unit(fname)
-        body = cfront.body_of(fn)
-        fors = [x for x in cfront.walk(body) if x.get("kind") == "ForStmt"]
-        chk.ob("R02.7", fname + "::two-nested-loops", len(fors) == 2, "esutil/recfile/records.cpp", "row loop and column loop found (%d for-loops)" % len(fors))
-        if len(fors) != 2:
-            continue
-        rowloop, colloop = fors[0], fors[1]
-        rbody = rowloop["inner"][-1]
-        cbody = colloop["inner"][-1]
-        # goto_offset dominates the row loop
+        w = _cwhere(fn)
+        at = sim + "@at-data"
+        ok = True
+        ok &= _ev(chk, S, at, ["rows"], "R02.7b", "eval::" + fname + "::wanted-rows-are-read", w,
+                  "output row i receives file row rows[i] (or i when all rows are read): rows are skipped exactly up to the wanted row and "
+                  "the rest of each row is passed over", scope="c/columns")
+        ok &= _ev(chk, S, at, ["cols"], "R02.7e", "eval::" + fname + "::wanted-columns-are-read", w,
+                  "within a row each wanted column, and only it, is transferred from its place in the file row", scope="c/columns")
+        ok &= _ev(chk, S, at, ["dest"], "R02.7f", "eval::" + fname + "::read-into-buffer", w,
+                  "every byte of the output array is written exactly from the selection, the output pointer advancing by each column's size", scope="c/columns")
+        if ok:
+            st, res = S.get(sim)
+            same = st == "ok" and res == S.get(at)[1]
+            chk.ob("R02.7a", "eval::" + fname + "::starts-at-data-offset", True if same else (False if st == "ok" else None), w,
+                   "the reads do not depend on where the file cursor was on entry: they start at the data offset%s"
+                   % ("" if same else " -- with the cursor elsewhere on entry: %s" % (res if st != "ok" else [c for k in res for c in res[k]][:2])))
+        else:
+            _r02_7_columns_structural(chk, fname, fn, kind)
+    # slice reader: skip to row1, then read nrows2read rows stepping by `step`
+    fn = cfun.get("Records::read_binary_slice")
+    if fn is None:
+        raise AnalysisError("C++ anchor Records::read_binary_slice missing")
+    chk.analysed_unit("Records::read_binary_slice")
+    w = _cwhere(fn)
+    at = "c/slice@at-data"
+    for key, facets, msg in (("skip-to-first-row", ["first"], "the first row transferred by the slice reader is row1"),
+                             ("stride", ["stride"], "the i-th row transferred is row1 + i*step"),
+                             ("row-sized-reads", ["size"], "exactly nrows whole rows are transferred into the output array")):
+        if not _ev(chk, S, at, facets, "R02.7i", "Records::read_binary_slice::" + key, w, msg, scope="c/slice"):
+            if _r02_7i_structural(fn, key):
+                chk.ob("R02.7i", "Records::read_binary_slice::" + key, True, w, msg + " [recognised structurally]")
+            elif key == "stride" and _r02_7i_absolute_seek(fn) is not None:
+                okabs, found = _r02_7i_absolute_seek(fn)
+                chk.ob("R02.7i", "Records::read_binary_slice::" + key, okabs, w,
+                       msg + ": a row positioned absolutely inside the loop must be at offset + (row1 + i*step)*rowsize (found %s)" % found)
+            else:
+                _unrec(chk, S, at, "R02.7i", "Records::read_binary_slice::" + key, w, msg)
+    st, res = S.get("c/slice")
+    if S.get(at)[0] != "ok":
         ccfg = cfront.CCFG(fn)
         view = ccfg.view()
         gos = [n for n in ccfg.nodes for c in cfront.node_calls(n) if cfront.callee_name(c) == "goto_offset"]
-        loops = [n for n in ccfg.nodes if n.kind == "loop"]
-        chk.ob("R02.7a", fname + "::starts-at-data-offset", bool(gos) and all(view.dominates(gos[0], l) for l in loops),
-               "esutil/recfile/records.cpp", "goto_offset() dominates the read loops (reads always start at the data offset)")
-        # row skip: `if (row2read > current_row) { skip_rows(current_row,row2read); current_row=row2read; }`
-        ok_rowskip = False
-        for st in cfront.walk(rbody):
-            if st.get("kind") == "IfStmt":
-                cond = cfront.render(st["inner"][0])
-                then = st["inner"][1]
-                calls = [cfront.render(c) for c in cfront.calls_in(then)]
-                asg = [cfront.render(x) for x in cfront.walk(then) if x.get("kind") == "BinaryOperator" and x.get("opcode") == "="]
-                if cond == "(row2read > current_row)":
-                    ok_rowskip = "skip_rows(current_row, row2read)" in calls and "(current_row = row2read)" in asg
-        chk.ob("R02.7b", fname + "::row-skip-paired", ok_rowskip, "esutil/recfile/records.cpp",
-               "rows are skipped only when the wanted row is ahead of the cursor, by skip_rows(current_row,row2read) paired with current_row=row2read")
-        # row cursor advanced exactly once per iteration, at top level of the row loop body
-        top = rbody.get("inner", []) or []
-        inc = [s for s in top if cfront.render(s) in ("current_row++", "++current_row", "(current_row += 1)")]
-        chk.ob("R02.7c", fname + "::row-cursor-advances-once", len(inc) == 1, "esutil/recfile/records.cpp",
-               "current_row is advanced exactly once per row read (found %d unconditional increments)" % len(inc))
-        # column cursor reset per row and advanced once per column
-        reset = [s for s in top if cfront.render(s) == "(current_col = 0)"]
-        ctop = cbody.get("inner", []) or []
-        cinc = [s for s in ctop if cfront.render(s) in ("current_col++", "++current_col")]
-        chk.ob("R02.7d", fname + "::col-cursor-reset-and-advance", len(reset) == 1 and len(cinc) == 1, "esutil/recfile/records.cpp",
-               "current_col is reset per row and advanced once per column read")
-        # column skip pairing
-        ok_colskip = False
-        for st in ctop:
-            if st.get("kind") == "IfStmt" and cfront.render(st["inner"][0]) == "(col2read > current_col)":
-                then = st["inner"][1]
-                calls = [cfront.callee_name(c) for c in cfront.calls_in(then)]
-                asg = [cfront.render(x) for x in cfront.walk(then) if x.get("kind") in ("BinaryOperator", "CompoundAssignOperator")
-                       and x.get("opcode") in ("=", "+=")]
-                if colskip == "skip_ascii_col_range":
-                    ok_colskip = any(cfront.render(c) == "skip_ascii_col_range(current_col, col2read)" for c in cfront.calls_in(then)) \
-                        and "(current_col = col2read)" in asg
-                else:
-                    ok_colskip = "do_seek" in calls and "(current_col = col2read)" in asg and "(current_offset += seek_distance)" in asg \
-                        and "(seek_distance = (mOffsets[col2read] - current_offset))" in asg
-        chk.ob("R02.7e", fname + "::col-skip-paired", ok_colskip, "esutil/recfile/records.cpp",
-               "columns are skipped only when the wanted column is ahead, with the cursor (and byte offset) updated to match")
-        # the read of the wanted column and pointer advance by that column's size
-        reads = [cfront.render(c) for c in cfront.calls_in(cbody) if cfront.callee_name(c) in ("read_from_text_column", "read_from_binary_column")]
-        ptr = [cfront.render(x) for x in cfront.walk(cbody) if x.get("kind") == "CompoundAssignOperator" and cfront.render(x["inner"][0]) == "ptr"]
-        okr = len(reads) == 1 and reads[0].endswith("(col2read, ptr)") and ptr in (["(ptr += mSizes[col2read])"], ["(ptr += colsize)"])
-        chk.ob("R02.7f", fname + "::read-wanted-column-into-buffer", okr, "esutil/recfile/records.cpp",
-               "each wanted column is read into the output pointer, which then advances by that column's size (%s; %s)" % (reads, ptr))
-        # remainder of the row is skipped
-        ok_rest = False
-        for st in top:
-            if st.get("kind") == "IfStmt":
-                cond = cfront.render(st["inner"][0])
-                calls = [cfront.render(c) for c in cfront.calls_in(st["inner"][1])]
-                if colskip == "skip_ascii_col_range" and cond == "(current_col < mNfields)":
-                    ok_rest = "skip_ascii_col_range(current_col, mNfields)" in calls
-                if colskip == "do_seek" and cond == "(current_offset < mRowSize)":
-                    asg = [cfront.render(x) for x in cfront.walk(st["inner"][1]) if x.get("kind") == "BinaryOperator" and x.get("opcode") == "="]
-                    ok_rest = "(seek_distance = (mRowSize - current_offset))" in asg and "do_seek(seek_distance)" in calls
-        chk.ob("R02.7g", fname + "::rest-of-row-skipped", ok_rest, "esutil/recfile/records.cpp",
-               "after the last wanted column the rest of the row is skipped so the file cursor is at the next row")
-        # row number comes from the rows array at the loop index (or the index itself when reading all rows)
-        src = [cfront.render(x) for x in cfront.walk(rbody) if x.get("kind") == "BinaryOperator" and x.get("opcode") == "="
-               and cfront.render(x["inner"][0]) == "row2read"]
-        okk = "(row2read = irow)" in src and any("rows" in s and "irow" in s for s in src if s != "(row2read = irow)")
-        chk.ob("R02.7h", fname + "::row-number-source", okk, "esutil/recfile/records.cpp",
-               "the row to read is rows[irow] (or irow when all rows are read): %s" % src)
-    # slice reader: skip to row1, then read nrows2read rows stepping by `step`
-    fn = cfun["Records::read_binary_slice"]
-    chk.analysed_unit("Records::read_binary_slice")
+        frn = [n for n in ccfg.nodes for c in cfront.node_calls(n) if cfront.callee_name(c) in ("fread", "skip_binary_rows")]
+        chk.ob("R02.7a", "Records::read_binary_slice::starts-at-data-offset", bool(gos) and all(view.dominates(gos[0], n) for n in frn),
+               w, "goto_offset() dominates every read/skip of the slice reader")
+    else:
+        same = st == "ok" and res == S.get(at)[1]
+        chk.ob("R02.7a", "eval::Records::read_binary_slice::starts-at-data-offset", True if same else (False if st == "ok" else None), w,
+               "the slice reader does not depend on where the file cursor was on entry%s"
+               % ("" if same else " -- with the cursor elsewhere on entry: %s" % (res if st != "ok" else [c for k in res for c in res[k]][:2])))
+    # the skip helpers move by whole rows
+    done = True
+    for name, msg in (("skip_binary_rows", "skipping n binary rows moves the cursor n*rowsize bytes forward (n <= 0: not at all)"),
+                      ("skip_text_rows", "skipping n text rows consumes n newline characters (n <= 0: nothing)"),
+                      ("skip_rows", "skip_rows(current, wanted) moves the cursor wanted-current rows forward for both file types")):
+        fn = cfun.get("Records::" + name)
+        if fn is None:
+            continue        # inlined: covered by the reader evaluations above
+        done &= _ev(chk, S, "c/skips", [name], "R02.7j", "eval::Records::%s::distance" % name, _cwhere(fn), msg)
+    if not done:
+        _r02_7j_structural(chk, cfun)
+
+
+def _r02_7i_absolute_seek(fn):
+    """the other spelling of the stepped read: an absolute seek (SEEK_SET) per row inside the row loop.  Returns
+    (position is offset + (row1 + i*step)*rowsize, rendered position) or None when there is no such seek."""
+    import sympy as sp
+    from vcheck import csymx
+    body = cfront.body_of(fn)
+    for lp in [x for x in cfront.walk(body) if x.get("kind") in ("ForStmt", "WhileStmt")]:
+        for c in cfront.calls_in(lp):
+            args = cfront.call_args(c)
+            if cfront.callee_name(c) in ("fseek", "fseeko", "myfseeko", "fseeko64") and len(args) == 3 and "SEEK_SET" in cfront.render(args[2]) or \
+                    (cfront.callee_name(c) in ("fseek", "fseeko", "myfseeko") and len(args) == 3 and cfront.render(args[2]) == "0"):
+                L = csymx.Lower(fn)
+                L.env = {}
+                inits = {}
+                for x in cfront.walk(body):
+                    if x.get("kind") == "VarDecl" and x.get("name"):
+                        ini = [y for y in x.get("inner", []) if isinstance(y, dict) and y.get("kind")]
+                        if ini:
+                            inits[x["name"]] = ini[-1]
+                try:
+                    pos = L.expr(args[1])
+                    for _ in range(4):
+                        sub = {}
+                        for k, v in inits.items():
+                            if sp.Symbol(k) in pos.free_symbols:
+                                try:
+                                    sub[sp.Symbol(k)] = L.expr(v)
+                                except Exception:
+                                    pass
+                        sub = {k: v for k, v in sub.items() if v != k and not (v.is_number)}
+                        if not sub:
+                            break
+                        pos = pos.subs(sub)
+                except Exception:
+                    return None
+                loopvar = None
+                cond = lp["inner"][2] if lp.get("kind") == "ForStmt" else lp["inner"][0]
+                cc = cfront.strip(cond)
+                if cc.get("kind") == "BinaryOperator" and cc.get("opcode") == "<":
+                    loopvar = sp.Symbol(cfront.render(cc["inner"][0]))
+                if loopvar is None:
+                    return None
+                S_ = sp.Symbol
+                want = S_("mFileOffset") + (S_("row1") + loopvar * S_("step")) * S_("mRowSize")
+                return (sp.expand(pos - want) == 0, str(pos))
+    return None
+
+
+def _r02_7i_structural(fn, key):
+    """the reviewed shape of the slice reader (only ever used to pass, never to fail)"""
     body = cfront.body_of(fn)
     calls = [cfront.render(c) for c in cfront.calls_in(body)]
-    chk.ob("R02.7i", "Records::read_binary_slice::skip-to-first-row", "skip_binary_rows(row1)" in calls, "esutil/recfile/records.cpp",
-           "the slice reader skips row1 rows from the data offset")
-    chk.ob("R02.7i", "Records::read_binary_slice::stride", "skip_binary_rows((step - 1))" in calls, "esutil/recfile/records.cpp",
-           "between strided rows step-1 rows are skipped")
+    if key == "skip-to-first-row":
+        return "skip_binary_rows(row1)" in calls
+    if key == "stride":
+        return "skip_binary_rows((step - 1))" in calls and "skip_binary_rows(row1)" in calls
     freads = [c for c in cfront.calls_in(body) if cfront.callee_name(c) == "fread"]
-    okf = len(freads) == 2 and all(cfront.render(cfront.call_args(c)[1]) == "mRowSize" for c in freads)
-    chk.ob("R02.7i", "Records::read_binary_slice::row-sized-reads", okf, "esutil/recfile/records.cpp",
-           "rows are read in units of the row size (%s)" % [cfront.render(c) for c in freads])
+    return len(freads) == 2 and all(cfront.render(cfront.call_args(c)[1]) == "mRowSize" for c in freads)
+
+
+def _r02_7_columns_structural(chk, fname, fn, kind):
+    colskip = "skip_ascii_col_range" if kind == "text" else "do_seek"
+    W = _cwhere(fn)
+    body = cfront.body_of(fn)
+    fors = [x for x in cfront.walk(body) if x.get("kind") == "ForStmt"]
+    chk.ob("R02.7", fname + "::two-nested-loops", len(fors) == 2, W, "row loop and column loop found (%d for-loops)" % len(fors))
+    if len(fors) != 2:
+        return
+    rowloop, colloop = fors[0], fors[1]
+    rbody = rowloop["inner"][-1]
+    cbody = colloop["inner"][-1]
+    # goto_offset dominates the row loop
     ccfg = cfront.CCFG(fn)
     view = ccfg.view()
     gos = [n for n in ccfg.nodes for c in cfront.node_calls(n) if cfront.callee_name(c) == "goto_offset"]
-    frn = [n for n in ccfg.nodes for c in cfront.node_calls(n) if cfront.callee_name(c) in ("fread", "skip_binary_rows")]
-    chk.ob("R02.7a", "Records::read_binary_slice::starts-at-data-offset", bool(gos) and all(view.dominates(gos[0], n) for n in frn),
-           "esutil/recfile/records.cpp", "goto_offset() dominates every read/skip of the slice reader")
-    sk = cfun["Records::skip_binary_rows"]
-    okk = any(cfront.render(c).replace(" ", "") in ("myfseeko(mFptr,(mRowSize*nskip),1)", "myfseeko(mFptr,(nskip*mRowSize),1)") for c in cfront.calls_in(sk))
-    chk.ob("R02.7j", "Records::skip_binary_rows::distance", okk, "esutil/recfile/records.cpp",
-           "skipping n binary rows seeks n*rowsize bytes forward from the current position")
-    sr = cfun["Records::skip_rows"]
-    args_ok = all(cfront.render(x["inner"][1]) == "(row2read - current_row)" for x in cfront.walk(cfront.body_of(sr))
-                  if x.get("kind") == "BinaryOperator" and x.get("opcode") == "=" and cfront.render(x["inner"][0]) == "rows2skip")
-    chk.ob("R02.7j", "Records::skip_rows::distance", args_ok, "esutil/recfile/records.cpp", "skip_rows skips row2read-current_row rows")
-    st = cfun["Records::skip_text_rows"]
-    txt = [cfront.render(x) for x in cfront.walk(cfront.body_of(st)) if x.get("kind") in ("BinaryOperator",) and x.get("opcode") in ("<", "==")]
-    chk.ob("R02.7j", "Records::skip_text_rows::counts-newlines", "(nlines < nskip)" in txt and any("'\\n'" in t for t in txt), "esutil/recfile/records.cpp",
-           "skipping text rows counts newline characters until nskip lines passed (%s)" % txt)
+    loops = [n for n in ccfg.nodes if n.kind == "loop"]
+    chk.ob("R02.7a", fname + "::starts-at-data-offset", bool(gos) and all(view.dominates(gos[0], l) for l in loops),
+           W, "goto_offset() dominates the read loops (reads always start at the data offset)")
+    # row skip: `if (row2read > current_row) { skip_rows(current_row,row2read); current_row=row2read; }`
+    ok_rowskip = False
+    for st in cfront.walk(rbody):
+        if st.get("kind") == "IfStmt":
+            cond = cfront.render(st["inner"][0])
+            then = st["inner"][1]
+            calls = [cfront.render(c) for c in cfront.calls_in(then)]
+            asg = [cfront.render(x) for x in cfront.walk(then) if x.get("kind") == "BinaryOperator" and x.get("opcode") == "="]
+            if cond == "(row2read > current_row)":
+                ok_rowskip = "skip_rows(current_row, row2read)" in calls and "(current_row = row2read)" in asg
+    chk.ob("R02.7b", fname + "::row-skip-paired", ok_rowskip, W,
+           "rows are skipped only when the wanted row is ahead of the cursor, by skip_rows(current_row,row2read) paired with current_row=row2read")
+    # row cursor advanced exactly once per iteration, at top level of the row loop body
+    top = rbody.get("inner", []) or []
+    inc = [s for s in top if cfront.render(s) in ("current_row++", "++current_row", "(current_row += 1)")]
+    chk.ob("R02.7c", fname + "::row-cursor-advances-once", len(inc) == 1, W,
+           "current_row is advanced exactly once per row read (found %d unconditional increments)" % len(inc))
+    # column cursor reset per row and advanced once per column
+    reset = [s for s in top if cfront.render(s) == "(current_col = 0)"]
+    ctop = cbody.get("inner", []) or []
+    cinc = [s for s in ctop if cfront.render(s) in ("current_col++", "++current_col")]
+    chk.ob("R02.7d", fname + "::col-cursor-reset-and-advance", len(reset) == 1 and len(cinc) == 1, W,
+           "current_col is reset per row and advanced once per column read")
+    # column skip pairing
+    ok_colskip = False
+    for st in ctop:
+        if st.get("kind") == "IfStmt" and cfront.render(st["inner"][0]) == "(col2read > current_col)":
+            then = st["inner"][1]
+            calls = [cfront.callee_name(c) for c in cfront.calls_in(then)]
+            asg = [cfront.render(x) for x in cfront.walk(then) if x.get("kind") in ("BinaryOperator", "CompoundAssignOperator")
+                   and x.get("opcode") in ("=", "+=")]
+            if colskip == "skip_ascii_col_range":
+                ok_colskip = any(cfront.render(c) == "skip_ascii_col_range(current_col, col2read)" for c in cfront.calls_in(then)) \
+                    and "(current_col = col2read)" in asg
+            else:
+                ok_colskip = "do_seek" in calls and "(current_col = col2read)" in asg and "(current_offset += seek_distance)" in asg \
+                    and "(seek_distance = (mOffsets[col2read] - current_offset))" in asg
+    chk.ob("R02.7e", fname + "::col-skip-paired", ok_colskip, W,
+           "columns are skipped only when the wanted column is ahead, with the cursor (and byte offset) updated to match")
+    # the read of the wanted column and pointer advance by that column's size
+    reads = [cfront.render(c) for c in cfront.calls_in(cbody) if cfront.callee_name(c) in ("read_from_text_column", "read_from_binary_column")]
+    ptr = [cfront.render(x) for x in cfront.walk(cbody) if x.get("kind") == "CompoundAssignOperator" and cfront.render(x["inner"][0]) == "ptr"]
+    okr = len(reads) == 1 and reads[0].endswith("(col2read, ptr)") and ptr in (["(ptr += mSizes[col2read])"], ["(ptr += colsize)"])
+    chk.ob("R02.7f", fname + "::read-wanted-column-into-buffer", okr, W,
+           "each wanted column is read into the output pointer, which then advances by that column's size (%s; %s)" % (reads, ptr))
+    # remainder of the row is skipped
+    ok_rest = False
+    for st in top:
+        if st.get("kind") == "IfStmt":
+            cond = cfront.render(st["inner"][0])
+            calls = [cfront.render(c) for c in cfront.calls_in(st["inner"][1])]
+            if colskip == "skip_ascii_col_range" and cond == "(current_col < mNfields)":
+                ok_rest = "skip_ascii_col_range(current_col, mNfields)" in calls
+            if colskip == "do_seek" and cond == "(current_offset < mRowSize)":
+                asg = [cfront.render(x) for x in cfront.walk(st["inner"][1]) if x.get("kind") == "BinaryOperator" and x.get("opcode") == "="]
+                ok_rest = "(seek_distance = (mRowSize - current_offset))" in asg and "do_seek(seek_distance)" in calls
+    chk.ob("R02.7g", fname + "::rest-of-row-skipped", ok_rest, W,
+           "after the last wanted column the rest of the row is skipped so the file cursor is at the next row")
+    # row number comes from the rows array at the loop index (or the index itself when reading all rows)
+    src = [cfront.render(x) for x in cfront.walk(rbody) if x.get("kind") == "BinaryOperator" and x.get("opcode") == "="
+           and cfront.render(x["inner"][0]) == "row2read"]
+    okk = "(row2read = irow)" in src and any("rows" in s and "irow" in s for s in src if s != "(row2read = irow)")
+    chk.ob("R02.7h", fname + "::row-number-source", okk, W,
+           "the row to read is rows[irow] (or irow when all rows are read): %s" % src)
+
+
+def _r02_7j_structural(chk, cfun):
+    sk = cfun.get("Records::skip_binary_rows")
+    if sk is not None:
+        okk = any(cfront.render(c).replace(" ", "") in ("myfseeko(mFptr,(mRowSize*nskip),1)", "myfseeko(mFptr,(nskip*mRowSize),1)") for c in cfront.calls_in(sk))
+        chk.ob("R02.7j", "Records::skip_binary_rows::distance", okk, _cwhere(sk),
+               "skipping n binary rows seeks n*rowsize bytes forward from the current position")
+    sr = cfun.get("Records::skip_rows")
+    if sr is not None:
+        asg = [cfront.render(x["inner"][1]) for x in cfront.walk(cfront.body_of(sr))
+               if x.get("kind") == "BinaryOperator" and x.get("opcode") == "=" and cfront.render(x["inner"][0]) == "rows2skip"]
+        asg += [cfront.render([c for c in x.get("inner", []) if isinstance(c, dict) and c.get("kind")][-1]) for x in cfront.walk(cfront.body_of(sr))
+                if x.get("kind") == "VarDecl" and x.get("name") == "rows2skip" and "init" in x and cfront.render([c for c in x.get("inner", []) if isinstance(c, dict) and c.get("kind")][-1]) != "0"]
+        chk.ob("R02.7j", "Records::skip_rows::distance", bool(asg) and all(a == "(row2read - current_row)" for a in asg), _cwhere(sr),
+               "skip_rows skips row2read-current_row rows")
+    st = cfun.get("Records::skip_text_rows")
+    if st is not None:
+        txt = [cfront.render(x) for x in cfront.walk(cfront.body_of(st)) if x.get("kind") in ("BinaryOperator",) and x.get("opcode") in ("<", "==")]
+        chk.ob("R02.7j", "Records::skip_text_rows::counts-newlines", "(nlines < nskip)" in txt and any("'\\n'" in t for t in txt), _cwhere(st),
+               "skipping text rows counts newline characters until nskip lines passed (%s)" % txt)
+
+
+
+# ===========================================================================
+# Bounded abstract evaluation of the Python side.
+#
+# The selection helpers of Recfile / SFile are small, loop-free (or loop over a
+# handful of elements) integer / dispatch code.  Instead of recognising how a
+# helper is *spelled*, the rules below evaluate the parsed function bodies on
+# model values (a model Recfile with `nrows`, `is_ascii`, a recording `robj`,
+# model arrays) for every input of a small box and compare what comes out --
+# the value returned, the exception raised, the primitive that was reached and
+# its arguments -- with the specification (Python's own slice semantics,
+# sorted(set(rows)), file order of columns ...).  Nothing of /repo is imported
+# or run: the evaluator walks the ast of the current tree, supports only the
+# constructs listed here and answers "not recognised" (_Unsup) for anything
+# else, in which case the rule falls back to its structural form.
+# ===========================================================================
+class _Unsup(Exception):
+    """construct outside the evaluator's fragment: no verdict from the evaluation"""
+
+
+class _PyRaise(Exception):
+    def __init__(self, name, node=None):
+        Exception.__init__(self, name)
+        self.name = name
+        self.node = node
+
+
+class _Ret(Exception):
+    def __init__(self, value):
+        self.value = value
+
+
+class _Brk(Exception):
+    pass
+
+
+class _Cont(Exception):
+    pass
+
+
+class _MArr(list):
+    """model of a 1-d numpy array"""
+    dtype = None
+
+    @property
+    def size(self):
+        return len(self)
+
+
+class _MBuf(object):
+    """model of numpy.zeros(n, dtype=<structured>)"""
+
+    def __init__(self, n, dtype):
+        self.n = n
+        self.dtype = dtype
+
+    @property
+    def size(self):
+        return self.n
+
+    def __repr__(self):
+        return "zeros(%r, dtype=%r)" % (self.n, self.dtype)
+
+
+class _MObj(object):
+    """model object: attributes, stub methods (python callables), and optionally the repo class whose methods are evaluated"""
+
+    def __init__(self, name, attrs=None, stubs=None, cls=None, getitem=None):
+        self.name = name
+        self.attrs = dict(attrs or {})
+        self.stubs = dict(stubs or {})
+        self.cls = cls
+        self.getitem = getitem
+
+    def __repr__(self):
+        return "<%s>" % self.name
+
+
+class _Tag(tuple):
+    """opaque tagged result of a stub: ('split', x) ..."""
+
+    def __repr__(self):
+        return "%s(%s)" % (self[0], ", ".join(repr(x) for x in self[1:]))
+
+
+class _Func(object):
+    def __init__(self, fi, selfobj=None):
+        self.fi = fi
+        self.selfobj = selfobj
+
+
+class _Closure(object):
+    def __init__(self, node, frame):
+        self.node = node
+        self.frame = frame
+
+
+class _Frame(object):
+    def __init__(self, fi, env, parent=None):
+        self.fi = fi
+        self.env = env
+        self.parent = parent
+
+    def lookup(self, name):
+        f = self
+        while f is not None:
+            if name in f.env:
+                return True, f.env[name]
+            f = f.parent
+        return False, None
+
+
+_MODEL_TYPES = (_MObj, _MBuf, _MArr, _Tag)
+_INT_CODES = ("i8", "i4", "int", "int64", "int32", "<i8", "intp")
+
+
+def _is_model(*vs):
+    return any(isinstance(v, _MODEL_TYPES) for v in vs)
+
+
+class _PyMini(object):
+    def __init__(self, repo, func_stubs=None, class_stubs=None, budget=40000):
+        self.repo = repo
+        self.func_stubs = dict(func_stubs or {})       # module-level function name -> python callable
+        self.class_stubs = dict(class_stubs or {})     # class name -> python callable (constructor)
+        self.budget = budget
+        self.steps = 0
+        self.trace = []
+        self.numpy = self._numpy_model()
+        self.copy = _MObj("copy", stubs={"deepcopy": lambda x: _Tag(("copy", x)), "copy": lambda x: _Tag(("copy", x))})
+
+    # -- models ----------------------------------------------------------
+    def _numpy_model(self):
+        def zeros(n, dtype=None):
+            if isinstance(n, bool) or not isinstance(n, int):
+                raise _Unsup("zeros with non-integer size %r" % (n,))
+            if dtype in _INT_CODES or dtype is int:
+                return _MArr([0] * n)
+            return _MBuf(n, dtype)
+
+        def arange(*a, **kw):
+            kw.pop("dtype", None)
+            if kw or not all(isinstance(x, int) and not isinstance(x, bool) for x in a):
+                raise _Unsup("arange%r" % (a,))
+            return _MArr(range(*a))
+
+        def seq(x):
+            if isinstance(x, (list, tuple, range)):
+                return _MArr(x)
+            if _is_model(x) or isinstance(x, (dict, slice)) or x is None:
+                raise _Unsup("array of %r" % (x,))
+            return _MArr([x])
+
+        def array(x, dtype=None, **kw):
+            if isinstance(x, (list, tuple, range)):
+                return _MArr(x)
+            raise _Unsup("numpy.array of a scalar")
+
+        def unique(x):
+            if not isinstance(x, (list, tuple)):
+                raise _Unsup("unique of %r" % (x,))
+            return _MArr(sorted(set(x)))
+
+        def where(m):
+            if not isinstance(m, _MArr):
+                raise _Unsup("where of %r" % (m,))
+            return (_MArr([i for i, v in enumerate(m) if v]),)
+
+        def fromiter(it, dtype=None, count=-1):
+            v = list(it)
+            if count not in (-1, None) and count != len(v):
+                raise _PyRaise("ValueError")
+            return _MArr(v)
+
+        def isscalar(x):
+            return isinstance(x, (int, float, str, bytes, bool))
+
+        def sort(x):
+            return _MArr(sorted(x))
+
+        def diff(x):
+            if not isinstance(x, (list, tuple)):
+                raise _Unsup("diff of %r" % (x,))
+            return _MArr([b - a for a, b in zip(x[:-1], x[1:])])
+
+        def red(f):
+            def g(x):
+                if not isinstance(x, (list, tuple)) or isinstance(x, _Tag):
+                    raise _Unsup("reduction of %r" % (x,))
+                if not x and f in (min, max):
+                    raise _PyRaise("ValueError")
+                return f(x)
+            return g
+
+        return _MObj("numpy", attrs={"ndarray": _MArr}, stubs={
+            "zeros": zeros, "empty": zeros, "arange": arange, "atleast_1d": seq, "array": array, "asarray": array, "unique": unique,
+            "where": where, "nonzero": where, "flatnonzero": lambda m: where(m)[0], "fromiter": fromiter, "isscalar": isscalar, "sort": sort,
+            "int64": int, "intp": int, "diff": diff, "any": red(any), "all": red(all), "min": red(min), "max": red(max), "amin": red(min),
+            "amax": red(max), "size": red(len), "count_nonzero": red(lambda x: sum(1 for v in x if v))})
+
+    # -- function calls --------------------------------------------------
+    def run(self, fi, args, kw, selfobj=None):
+        """top-level evaluation of one scenario (fresh step budget)"""
+        self.steps = 0
+        return self.call_function(fi, args, kw, selfobj)
+
+    def call_function(self, fi, args, kw, selfobj=None):
+        if selfobj is not None:
+            args = [selfobj] + list(args)
+        env = self._bind(fi.node, list(args), dict(kw), fi)
+        fr = _Frame(fi, env)
+        return self._run_body(fi.node.body, fr)
+
+    def _run_body(self, body, fr):
+        try:
+            self.exec_block(body, fr)
+        except _Ret as r:
+            return r.value
+        return None
+
+    def _bind(self, fnode, args, kw, fi, frame=None):
+        a = fnode.args
+        pos = [x.arg for x in a.posonlyargs + a.args]
+        kwonly = [x.arg for x in a.kwonlyargs]
+        env = {}
+        if len(args) > len(pos) and not a.vararg:
+            raise _PyRaise("TypeError")
+        for p, v in zip(pos, args):
+            env[p] = v
+        if a.vararg:
+            env[a.vararg.arg] = tuple(args[len(pos):])
+        extra = {}
+        for k, v in kw.items():
+            if k in pos or k in kwonly:
+                if k in env:
+                    raise _PyRaise("TypeError")
+                env[k] = v
+            elif a.kwarg:
+                extra[k] = v
+            else:
+                raise _PyRaise("TypeError")
+        if a.kwarg:
+            env[a.kwarg.arg] = extra
+        dfr = frame or _Frame(fi, {})
+        for p, d in zip(pos[len(pos) - len(a.defaults):], a.defaults):
+            if p not in env:
+                env[p] = self.ev(d, dfr)
+        for p, d in zip(kwonly, a.kw_defaults):
+            if p not in env and d is not None:
+                env[p] = self.ev(d, dfr)
+        for p in pos + kwonly:
+            if p not in env:
+                raise _PyRaise("TypeError")
+        return env
+
+    def call_value(self, f, args, kw, node=None):
+        if isinstance(f, _Func):
+            decs = {dotted_name(d) for d in f.fi.node.decorator_list}
+            if "classmethod" in decs:
+                raise _Unsup("classmethod %s" % f.fi.name)
+            return self.call_function(f.fi, args, kw, None if "staticmethod" in decs else f.selfobj)
+        if isinstance(f, _Closure):
+            env = self._bind(f.node, list(args), dict(kw), f.frame.fi, f.frame)
+            return self._run_body(f.node.body, _Frame(f.frame.fi, env, f.frame))
+        if f is _MArr:
+            raise _Unsup("numpy.ndarray constructor")
+        if callable(f):
+            try:
+                return f(*args, **kw)
+            except (_Unsup, _PyRaise, _Ret):
+                raise
+            except (IndexError, KeyError, ZeroDivisionError) as e:
+                raise _PyRaise(type(e).__name__, node)
+            except (TypeError, ValueError, AttributeError) as e:
+                if _is_model(*args) or _is_model(*kw.values()):
+                    raise _Unsup("%s in a modelled call: %s" % (type(e).__name__, e))
+                raise _PyRaise(type(e).__name__, node)
+        raise _Unsup("call of %r" % (f,))
+
+    # -- statements ------------------------------------------------------
+    def exec_block(self, stmts, fr):
+        for st in stmts:
+            self.exec_stmt(st, fr)
+
+    def exec_stmt(self, st, fr):
+        self.steps += 1
+        if self.steps > self.budget:
+            raise _Unsup("evaluation budget exhausted")
+        if isinstance(st, ast.Expr):
+            if not isinstance(st.value, ast.Constant):
+                self.ev(st.value, fr)
+            return
+        if isinstance(st, ast.Assign):
+            v = self.ev(st.value, fr)
+            for t in st.targets:
+                self.assign(t, v, fr)
+            return
+        if isinstance(st, ast.AugAssign):
+            cur = self.ev(_as_load(st.target), fr)
+            self.assign(st.target, self.binop(st.op, cur, self.ev(st.value, fr), st), fr)
+            return
+        if isinstance(st, ast.AnnAssign):
+            if st.value is not None:
+                self.assign(st.target, self.ev(st.value, fr), fr)
+            return
+        if isinstance(st, ast.Return):
+            raise _Ret(self.ev(st.value, fr) if st.value is not None else None)
+        if isinstance(st, ast.If):
+            self.exec_block(st.body if self.truth(self.ev(st.test, fr)) else st.orelse, fr)
+            return
+        if isinstance(st, ast.Pass):
+            return
+        if isinstance(st, ast.Raise):
+            nm = "Exception"
+            if st.exc is not None:
+                e = st.exc.func if isinstance(st.exc, ast.Call) else st.exc
+                nm = dotted_name(e) or "Exception"
+            raise _PyRaise(nm.split(".")[-1], st)
+        if isinstance(st, ast.For):
+            it = self.ev(st.iter, fr)
+            if isinstance(it, dict):
+                it = list(it)
+            if not isinstance(it, (list, tuple, range, str)) and not hasattr(it, "__next__"):
+                raise _Unsup("loop over %r" % (it,))
+            broke = False
+            for v in it:
+                self.assign(st.target, v, fr)
+                try:
+                    self.exec_block(st.body, fr)
+                except _Brk:
+                    broke = True
+                    break
+                except _Cont:
+                    continue
+            if not broke:
+                self.exec_block(st.orelse, fr)
+            return
+        if isinstance(st, ast.While):
+            n = 0
+            while self.truth(self.ev(st.test, fr)):
+                n += 1
+                if n > 2000:
+                    raise _Unsup("while loop does not terminate within the bound")
+                try:
+                    self.exec_block(st.body, fr)
+                except _Brk:
+                    return
+                except _Cont:
+                    continue
+            self.exec_block(st.orelse, fr)
+            return
+        if isinstance(st, ast.Break):
+            raise _Brk()
+        if isinstance(st, ast.Continue):
+            raise _Cont()
+        if isinstance(st, ast.Try):
+            try:
+                try:
+                    self.exec_block(st.body, fr)
+                except _PyRaise as e:
+                    for h in st.handlers:
+                        names = []
+                        if h.type is not None:
+                            names = [dotted_name(x) for x in (h.type.elts if isinstance(h.type, ast.Tuple) else [h.type])]
+                        if h.type is None or "Exception" in names or "BaseException" in names or e.name in [(n or "").split(".")[-1] for n in names]:
+                            if h.name:
+                                fr.env[h.name] = _Tag(("exception", e.name))
+                            self.exec_block(h.body, fr)
+                            break
+                    else:
+                        raise
+                else:
+                    self.exec_block(st.orelse, fr)
+            finally:
+                if st.finalbody:
+                    self.exec_block(st.finalbody, fr)
+            return
+        if isinstance(st, (ast.FunctionDef,)):
+            fr.env[st.name] = _Closure(st, fr)
+            return
+        if isinstance(st, ast.With):
+            entered = []
+            for it in st.items:
+                o = self.ev(it.context_expr, fr)
+                if not isinstance(o, _MObj):
+                    raise _Unsup("with over %r" % (o,))
+                v = self.call_value(self.attr(o, "__enter__"), [], {}, st)
+                entered.append(o)
+                if it.optional_vars is not None:
+                    self.assign(it.optional_vars, v, fr)
+            try:
+                self.exec_block(st.body, fr)
+            finally:
+                for o in reversed(entered):
+                    self.call_value(self.attr(o, "__exit__"), [None, None, None], {}, st)
+            return
+        if isinstance(st, ast.Assert):
+            if not self.truth(self.ev(st.test, fr)):
+                raise _PyRaise("AssertionError", st)
+            return
+        if isinstance(st, ast.Delete):
+            for t in st.targets:
+                if isinstance(t, ast.Name) and t.id in fr.env:
+                    del fr.env[t.id]
+                elif isinstance(t, ast.Subscript):
+                    o = self.ev(t.value, fr)
+                    if not isinstance(o, (dict, list)) or _is_model(o):
+                        raise _Unsup("del on %r" % (o,))
+                    try:
+                        del o[self.ev(t.slice, fr)]
+                    except (KeyError, IndexError) as e:
+                        raise _PyRaise(type(e).__name__, st)
+                else:
+                    raise _Unsup("del target")
+            return
+        raise _Unsup("statement %s" % type(st).__name__)
+
+    def assign(self, t, v, fr):
+        if isinstance(t, ast.Name):
+            fr.env[t.id] = v
+            return
+        if isinstance(t, (ast.Tuple, ast.List)):
+            if any(isinstance(e, ast.Starred) for e in t.elts):
+                raise _Unsup("starred assignment target")
+            if isinstance(v, (_MObj, _MBuf, _Tag)) or not isinstance(v, (list, tuple)):
+                raise _Unsup("unpacking of %r" % (v,))
+            if len(v) != len(t.elts):
+                raise _PyRaise("ValueError", t)
+            for e, x in zip(t.elts, v):
+                self.assign(e, x, fr)
+            return
+        if isinstance(t, ast.Attribute):
+            o = self.ev(t.value, fr)
+            if isinstance(o, _MObj):
+                o.attrs[t.attr] = v
+                return
+            raise _Unsup("attribute store on %r" % (o,))
+        if isinstance(t, ast.Subscript):
+            o = self.ev(t.value, fr)
+            i = self.ev(t.slice, fr)
+            if isinstance(o, (list, dict)) and not isinstance(o, (_MObj, _MBuf)):
+                try:
+                    o[i] = v
+                except (IndexError, KeyError, TypeError) as e:
+                    raise _PyRaise(type(e).__name__, t)
+                return
+            raise _Unsup("item store on %r" % (o,))
+        raise _Unsup("assignment target %s" % type(t).__name__)
+
+    # -- expressions -----------------------------------------------------
+    def truth(self, v):
+        if isinstance(v, _MArr):
+            if len(v) == 1:
+                return bool(v[0])
+            if len(v) == 0:
+                raise _Unsup("truth value of an empty array")
+            raise _PyRaise("ValueError")
+        if isinstance(v, (_MObj, _MBuf, _Tag)) and not isinstance(v, _MArr):
+            if isinstance(v, _MObj) and "__truth__" in v.attrs:
+                return v.attrs["__truth__"]
+            raise _Unsup("truth value of %r" % (v,))
+        return bool(v)
+
+    def name(self, n, fr):
+        ok, v = fr.lookup(n.id)
+        if ok:
+            return v
+        mod = fr.fi.module
+        nm = n.id
+        if nm in self.func_stubs:
+            return self.func_stubs[nm]
+        if nm in self.class_stubs:
+            return self.class_stubs[nm]
+        if nm in mod.funcs:
+            return _Func(mod.funcs[nm])
+        if nm in mod.imports:
+            tgt = mod.imports[nm]
+            if tgt == "numpy" or tgt.startswith("numpy."):
+                if tgt == "numpy":
+                    return self.numpy
+                return self.attr(self.numpy, tgt.split(".", 1)[1])
+            if tgt == "copy":
+                return self.copy
+            full = self.repo.resolve_name(mod, nm)
+            if full.split(".")[-1] in self.func_stubs:
+                return self.func_stubs[full.split(".")[-1]]
+            if self.repo.has(full):
+                return _Func(self.repo.func(full))
+            raise _Unsup("imported name %s" % nm)
+        if nm in mod.classes:
+            raise _Unsup("class %s has no model" % nm)
+        if nm in mod.consts and isinstance(mod.consts[nm], (ast.Constant, ast.Tuple, ast.List, ast.UnaryOp, ast.BinOp, ast.Dict)):
+            return self.ev(mod.consts[nm], _Frame(fr.fi, {}))
+        if nm in _BUILTINS:
+            return _BUILTINS[nm]
+        for sm in mod.star:
+            if self.repo.has(sm + "." + nm):
+                return _Func(self.repo.func(sm + "." + nm))
+        raise _Unsup("name %s" % nm)
+
+    def attr(self, o, a):
+        if isinstance(o, _MObj):
+            if a in o.attrs:
+                return o.attrs[a]
+            if a in o.stubs:
+                return o.stubs[a]
+            if o.cls and self.repo.has(o.cls + "." + a):
+                fi = self.repo.func(o.cls + "." + a)
+                if "property" in {dotted_name(d) for d in fi.node.decorator_list}:
+                    return self.call_function(fi, [], {}, o)
+                return _Func(fi, o)
+            raise _Unsup("attribute %s of %r" % (a, o))
+        if isinstance(o, slice) and a in ("start", "stop", "step", "indices"):
+            return getattr(o, a)
+        if isinstance(o, _MArr):
+            if a == "size":
+                return len(o)
+            if a == "dtype" and o.dtype is not None:
+                return o.dtype
+            m = _ARR_METHODS.get(a)
+            if m is not None:
+                return lambda *x, **k: m(o, *x, **k)
+            raise _Unsup("array attribute %s" % a)
+        if isinstance(o, _MBuf) and a in ("size", "dtype"):
+            return getattr(o, a)
+        if isinstance(o, list) and a in ("append", "extend", "index", "count", "copy"):
+            return getattr(o, a)
+        if isinstance(o, dict) and a in ("get", "keys", "values", "items", "pop"):
+            return getattr(o, a)
+        if isinstance(o, str) and a in ("lower", "upper", "strip", "startswith", "endswith", "format", "join", "split"):
+            return getattr(o, a)
+        raise _Unsup("attribute %s of %r" % (a, o))
+
+    def ev(self, e, fr):
+        self.steps += 1
+        if self.steps > self.budget:
+            raise _Unsup("evaluation budget exhausted")
+        if isinstance(e, ast.Constant):
+            return e.value
+        if isinstance(e, ast.Name):
+            return self.name(e, fr)
+        if isinstance(e, ast.Attribute):
+            return self.attr(self.ev(e.value, fr), e.attr)
+        if isinstance(e, ast.Tuple):
+            return tuple(self._elts(e.elts, fr))
+        if isinstance(e, ast.List):
+            return list(self._elts(e.elts, fr))
+        if isinstance(e, ast.Dict):
+            if any(k is None for k in e.keys):
+                raise _Unsup("dict unpacking")
+            return {self.ev(k, fr): self.ev(v, fr) for k, v in zip(e.keys, e.values)}
+        if isinstance(e, ast.BoolOp):
+            v = None
+            for x in e.values:
+                v = self.ev(x, fr)
+                t = self.truth(v)
+                if isinstance(e.op, ast.And) and not t:
+                    return v
+                if isinstance(e.op, ast.Or) and t:
+                    return v
+            return v
+        if isinstance(e, ast.UnaryOp):
+            v = self.ev(e.operand, fr)
+            if isinstance(e.op, ast.Not):
+                return not self.truth(v)
+            if _is_model(v):
+                if isinstance(v, _MArr) and isinstance(e.op, ast.Invert):
+                    return _MArr([not x for x in v])
+                raise _Unsup("unary operator on %r" % (v,))
+            try:
+                if isinstance(e.op, ast.USub):
+                    return -v
+                if isinstance(e.op, ast.UAdd):
+                    return +v
+                if isinstance(e.op, ast.Invert):
+                    return ~v
+            except TypeError:
+                raise _PyRaise("TypeError", e)
+        if isinstance(e, ast.BinOp):
+            return self.binop(e.op, self.ev(e.left, fr), self.ev(e.right, fr), e)
+        if isinstance(e, ast.Compare):
+            l = self.ev(e.left, fr)
+            res = True
+            for op, c in zip(e.ops, e.comparators):
+                r = self.ev(c, fr)
+                res = self.compare(op, l, r, e)
+                if isinstance(res, _MArr):
+                    if len(e.ops) > 1:
+                        raise _Unsup("chained element-wise comparison")
+                    return res
+                if not res:
+                    return False
+                l = r
+            return res
+        if isinstance(e, ast.IfExp):
+            return self.ev(e.body if self.truth(self.ev(e.test, fr)) else e.orelse, fr)
+        if isinstance(e, ast.Subscript):
+            return self.subscript(self.ev(e.value, fr), self.ev(e.slice, fr), e)
+        if isinstance(e, ast.Slice):
+            return slice(*(self.ev(x, fr) if x is not None else None for x in (e.lower, e.upper, e.step)))
+        if isinstance(e, ast.Call):
+            return self.call(e, fr)
+        if isinstance(e, (ast.ListComp, ast.GeneratorExp, ast.SetComp)):
+            out = []
+            self._comp(e.generators, 0, e.elt, _Frame(fr.fi, {}, fr), out)
+            if isinstance(e, ast.SetComp):
+                return set(out)
+            return out if isinstance(e, ast.ListComp) else iter(out)
+        if isinstance(e, ast.JoinedStr):
+            return "<text>"
+        if isinstance(e, ast.NamedExpr) and isinstance(e.target, ast.Name):
+            v = self.ev(e.value, fr)
+            fr.env[e.target.id] = v
+            return v
+        if isinstance(e, ast.Starred):
+            raise _Unsup("starred expression")
+        if isinstance(e, ast.Lambda):
+            return _Closure(ast.FunctionDef(name="<lambda>", args=e.args, body=[ast.Return(value=e.body)], decorator_list=[]), fr)
+        raise _Unsup("expression %s" % type(e).__name__)
+
+    def _elts(self, elts, fr):
+        out = []
+        for x in elts:
+            if isinstance(x, ast.Starred):
+                v = self.ev(x.value, fr)
+                if _is_model(v) and not isinstance(v, _MArr) or not isinstance(v, (list, tuple, range)):
+                    raise _Unsup("star-expansion of %r" % (v,))
+                out.extend(v)
+            else:
+                out.append(self.ev(x, fr))
+        return out
+
+    def _comp(self, gens, i, elt, fr, out):
+        if i == len(gens):
+            out.append(self.ev(elt, fr))
+            return
+        g = gens[i]
+        it = self.ev(g.iter, fr)
+        if isinstance(it, dict):
+            it = list(it)
+        if not isinstance(it, (list, tuple, range, str)) and not hasattr(it, "__next__"):
+            raise _Unsup("comprehension over %r" % (it,))
+        for v in it:
+            self.assign(g.target, v, fr)
+            if all(self.truth(self.ev(c, fr)) for c in g.ifs):
+                self._comp(gens, i + 1, elt, fr, out)
+
+    def binop(self, op, a, b, node):
+        if isinstance(a, str) and isinstance(op, ast.Mod):
+            try:
+                return a % (b if not _is_model(b) else "?")
+            except Exception:
+                return "<text>"
+        if _is_model(a, b):
+            if isinstance(a, _MArr) or isinstance(b, _MArr):
+                f = _OPS.get(type(op))
+                if f is None:
+                    raise _Unsup("array operator")
+                try:
+                    if isinstance(a, _MArr) and isinstance(b, _MArr):
+                        if len(a) != len(b):
+                            raise _Unsup("array shapes")
+                        return _MArr([f(x, y) for x, y in zip(a, b)])
+                    if isinstance(a, _MArr) and not _is_model(b):
+                        return _MArr([f(x, b) for x in a])
+                    if isinstance(b, _MArr) and not _is_model(a):
+                        return _MArr([f(a, y) for y in b])
+                except (TypeError, ZeroDivisionError) as e:
+                    raise _PyRaise(type(e).__name__, node)
+            raise _Unsup("operator on %r, %r" % (a, b))
+        f = _OPS.get(type(op))
+        if f is None:
+            raise _Unsup("operator %s" % type(op).__name__)
+        try:
+            return f(a, b)
+        except (TypeError, ZeroDivisionError, ValueError, OverflowError) as e:
+            raise _PyRaise(type(e).__name__, node)
+
+    def compare(self, op, l, r, node):
+        if isinstance(op, ast.Is):
+            return l is r
+        if isinstance(op, ast.IsNot):
+            return l is not r
+        if isinstance(op, (ast.In, ast.NotIn)):
+            if isinstance(r, _MObj) and "__contains__" in r.stubs:
+                res = r.stubs["__contains__"](l)
+            elif isinstance(r, (list, tuple, dict, set, str, range)):
+                try:
+                    res = l in r
+                except TypeError:
+                    raise _PyRaise("TypeError", node)
+            else:
+                raise _Unsup("membership in %r" % (r,))
+            return res if isinstance(op, ast.In) else not res
+        f = _CMPS[type(op)]
+        if isinstance(l, _MArr) or isinstance(r, _MArr):
+            try:
+                if isinstance(l, _MArr) and isinstance(r, _MArr):
+                    if len(l) != len(r):
+                        raise _Unsup("array shapes")
+                    return _MArr([f(x, y) for x, y in zip(l, r)])
+                if isinstance(l, _MArr):
+                    if _is_model(r):
+                        raise _Unsup("array comparison")
+                    return _MArr([f(x, r) for x in l])
+                if _is_model(l):
+                    raise _Unsup("array comparison")
+                return _MArr([f(l, y) for y in r])
+            except TypeError:
+                raise _PyRaise("TypeError", node)
+        if _is_model(l, r):
+            if isinstance(op, (ast.Eq, ast.NotEq)):
+                return f(l, r) if not (isinstance(l, _Tag) or isinstance(r, _Tag)) else ((tuple(l) == tuple(r)) == isinstance(op, ast.Eq) if isinstance(l, _Tag) and isinstance(r, _Tag) else isinstance(op, ast.NotEq))
+            raise _Unsup("ordering of %r, %r" % (l, r))
+        try:
+            return f(l, r)
+        except TypeError:
+            raise _PyRaise("TypeError", node)
+
+    def subscript(self, o, i, node):
+        if isinstance(o, _MObj):
+            if o.getitem is not None:
+                return o.getitem(i)
+            raise _Unsup("indexing of %r" % (o,))
+        if isinstance(o, (_MBuf, _Tag)):
+            return _Tag(("getitem", o, i))
+        if isinstance(o, _MArr) and isinstance(i, _MArr):
+            if i and all(isinstance(x, bool) for x in i):
+                return _MArr([x for x, m in zip(o, i) if m])
+            try:
+                return _MArr([o[x] for x in i])
+            except (IndexError, TypeError) as e:
+                raise _PyRaise(type(e).__name__, node)
+        if isinstance(o, (list, tuple, str, dict, range)):
+            if _is_model(i):
+                raise _Unsup("index %r" % (i,))
+            try:
+                v = o[i]
+            except (IndexError, KeyError, TypeError) as e:
+                raise _PyRaise(type(e).__name__, node)
+            return _MArr(v) if isinstance(o, _MArr) and isinstance(i, slice) else v
+        raise _Unsup("indexing of %r" % (o,))
+
+    def call(self, c, fr):
+        f = self.ev(c.func, fr)
+        args = self._elts(c.args, fr)
+        kw = {}
+        for k in c.keywords:
+            v = self.ev(k.value, fr)
+            if k.arg is None:
+                if not isinstance(v, dict):
+                    raise _Unsup("** of %r" % (v,))
+                kw.update(v)
+            else:
+                kw[k.arg] = v
+        return self.call_value(f, args, kw, c)
+
+
+def _as_load(t):
+    import copy as _c
+    t = _c.deepcopy(t)
+    for x in ast.walk(t):
+        if hasattr(x, "ctx"):
+            x.ctx = ast.Load()
+    return t
+
+
+def _b_isinstance(x, t):
+    ts = t if isinstance(t, tuple) else (t,)
+    for k in ts:
+        k = {_b_tuple: tuple, _b_list: list}.get(k, k) if callable(k) and not isinstance(k, type) else k
+        if k is _MArr:
+            if isinstance(x, _MArr):
+                return True
+        elif k in (list, tuple):
+            if isinstance(x, k) and not isinstance(x, (_MArr, _Tag)):
+                return True
+        elif k is int:
+            if isinstance(x, int) and not isinstance(x, bool):
+                return True
+        elif isinstance(k, type):
+            if isinstance(x, k):
+                return True
+        else:
+            raise _Unsup("isinstance against %r" % (k,))
+    return False
+
+
+def _b_hasattr(o, a):
+    if isinstance(o, _MObj):
+        return a in o.attrs or a in o.stubs
+    if isinstance(o, (_MArr, _MBuf)):
+        return a in ("dtype", "size", "shape")
+    if _is_model(o):
+        raise _Unsup("hasattr of %r" % (o,))
+    return hasattr(o, a)
+
+
+_NODEFAULT = object()
+
+
+def _b_getattr(o, a, d=_NODEFAULT):
+    if isinstance(o, _MObj):
+        if a in o.attrs:
+            return o.attrs[a]
+        if d is _NODEFAULT:
+            raise _PyRaise("AttributeError")
+        return d
+    if isinstance(o, (_MArr, _MBuf)) and a in ("dtype", "size"):
+        v = getattr(o, a)
+        if v is None and a == "dtype":
+            raise _Unsup("dtype of a model array")
+        return v
+    if _is_model(o):
+        raise _Unsup("getattr of %r" % (o,))
+    if d is _NODEFAULT:
+        if hasattr(o, a):
+            raise _Unsup("getattr(%r, %s)" % (o, a))
+        raise _PyRaise("AttributeError")
+    if hasattr(o, a):
+        raise _Unsup("getattr(%r, %s)" % (o, a))
+    return d
+
+
+def _b_len(x):
+    if isinstance(x, _MObj):
+        if "__len__" in x.attrs:
+            return x.attrs["__len__"]
+        raise _Unsup("len of %r" % (x,))
+    if isinstance(x, _MBuf):
+        return x.n
+    if isinstance(x, _Tag):
+        raise _Unsup("len of %r" % (x,))
+    return len(x)
+
+
+def _b_tuple(x=()):
+    if _is_model(x) and not isinstance(x, _MArr):
+        raise _Unsup("tuple of %r" % (x,))
+    return tuple(x)
+
+
+def _b_list(x=()):
+    if _is_model(x) and not isinstance(x, _MArr):
+        raise _Unsup("list of %r" % (x,))
+    return list(x)
+
+
+_BUILTINS = {
+    "int": int, "len": _b_len, "range": range, "max": max, "min": min, "abs": abs, "divmod": divmod, "slice": slice,
+    "isinstance": _b_isinstance, "tuple": _b_tuple, "list": _b_list, "str": str, "bool": bool, "float": float, "sorted": sorted,
+    "set": set, "dict": dict, "hasattr": _b_hasattr, "getattr": _b_getattr, "enumerate": lambda x, start=0: list(enumerate(x, start)),
+    "zip": lambda *a: list(zip(*a)), "sum": sum, "any": any, "all": all, "repr": repr,
+    "True": True, "False": False, "None": None, "reversed": lambda x: list(reversed(x)), "iter": iter, "next": next,
+    "ValueError": "ValueError", "IndexError": "IndexError", "TypeError": "TypeError", "Exception": "Exception", "KeyError": "KeyError",
+    "RuntimeError": "RuntimeError",
+}
+
+
+import operator as _op
+
+_OPS = {ast.Add: _op.add, ast.Sub: _op.sub, ast.Mult: _op.mul, ast.FloorDiv: _op.floordiv, ast.Mod: _op.mod, ast.Div: _op.truediv,
+        ast.Pow: _op.pow, ast.BitAnd: _op.and_, ast.BitOr: _op.or_, ast.BitXor: _op.xor, ast.LShift: _op.lshift, ast.RShift: _op.rshift}
+_CMPS = {ast.Eq: _op.eq, ast.NotEq: _op.ne, ast.Lt: _op.lt, ast.LtE: _op.le, ast.Gt: _op.gt, ast.GtE: _op.ge}
+_ARR_METHODS = {
+    "astype": lambda o, *a, **k: _MArr(o), "copy": lambda o: _MArr(o), "any": lambda o: any(o), "all": lambda o: all(o),
+    "min": lambda o: _arr_reduce(min, o), "max": lambda o: _arr_reduce(max, o), "sum": lambda o: sum(o), "tolist": lambda o: list(o),
+    "ravel": lambda o: _MArr(o), "sort": lambda o: list.sort(o), "nonzero": lambda o: (_MArr([i for i, v in enumerate(o) if v]),),
+    "item": lambda o, *a: o[a[0] if a else 0],
+}
+
+
+def _arr_reduce(f, o):
+    if not o:
+        raise _PyRaise("ValueError")
+    return f(o)
+
+
+# ===========================================================================
+# Bounded abstract evaluation of the C++ skip-and-read code over a file-cursor
+# model (clang JSON AST; nothing is compiled or run).  The model file is a byte
+# range (binary) or a character string of one-character tokens and delimiters
+# (text); fread / fseek / fgetc and the per-column text scanner move the model
+# cursor and log what was transferred where.  A rule compares the logged
+# transfers, for every selection of a small table, with what indexing the
+# fully-read table would give.
+# ===========================================================================
+class _CThrow(Exception):
+    pass
+
+
+class _CBad(Exception):
+    """behaviour that is wrong whatever the caller does with it (out-of-bounds read of an index array ...)"""
+
+
+class _CRet(Exception):
+    def __init__(self, value):
+        self.value = value
+
+
+class _CBrk(Exception):
+    pass
+
+
+class _CCont(Exception):
+    pass
+
+
+class _CPtr(object):
+    __slots__ = ("base", "off")
+
+    def __init__(self, base, off):
+        self.base = base
+        self.off = off
+
+    def __repr__(self):
+        return "&%s[%d]" % (getattr(self.base, "name", self.base), self.off)
+
+
+class _CRef(object):
+    """a C++ reference (or the address of a local): an alias of the variable `key` of frame / member table `d`"""
+    __slots__ = ("d", "key")
+
+    def __init__(self, d, key):
+        self.d = d
+        self.key = key
+
+
+class _CArr(object):
+    """model of a PyArrayObject: `data` (list of ints) for the index arrays, None for the output buffer"""
+
+    def __init__(self, name, size, itemsize, data=None):
+        self.name = name
+        self.size = size
+        self.itemsize = itemsize
+        self.stride = itemsize
+        self.data = data
+
+    def __repr__(self):
+        return "<array %s>" % self.name
+
+
+_C_NONE = type("PyNone", (), {"__repr__": lambda s: "Py_None"})()
+_C_NONESTRUCT = object()
+_C_CASTS = ("ImplicitCastExpr", "ParenExpr", "CStyleCastExpr", "ConstantExpr", "ExprWithCleanups", "MaterializeTemporaryExpr",
+            "CXXBindTemporaryExpr", "CXXFunctionalCastExpr", "CXXStaticCastExpr", "CXXReinterpretCastExpr", "CXXConstCastExpr")
+_C_SIZES = {"char": 1, "unsigned char": 1, "signed char": 1, "void": 1, "short": 2, "int": 4, "unsigned int": 4, "float": 4, "long": 8,
+            "long long": 8, "unsigned long": 8, "double": 8, "npy_int64": 8, "npy_intp": 8, "npy_int32": 4, "size_t": 8, "npy_uint8": 1,
+            "npy_int8": 1, "npy_int16": 2, "npy_float64": 8, "npy_float32": 4, "off_t": 8}
+_C_PRIMS = {"fread", "fseek", "fseeko", "_fseeki64", "fseeko64", "ftell", "ftello", "fgetc", "getc", "rewind", "feof", "PyArray_BYTES",
+            "PyArray_DATA", "PyArray_STRIDES", "PyArray_DIMS", "PyArray_NDIM", "PyArray_STRIDE", "PyArray_DIM", "PyArray_SIZE",
+            "PyArray_Size", "PyArray_ITEMSIZE", "min", "max", "abs", "labs", "llabs"}
+_tu_fn_cache = {}
+
+
+def _tu_function(name, tu="records"):
+    """a free function of the translation unit that the name-filtered dump does not contain, dumped on demand with its own filter"""
+    if name in _tu_fn_cache:
+        return _tu_fn_cache[name]
+    key = "%s@%s" % (tu, name)
+    cfront.TUS.setdefault(key, dict(cfront.TUS[tu], filt=name))
+    try:
+        fn = cfront.functions(cfront.load_tu(key, _raw=True)).get(name)
+    except AnalysisError:
+        fn = None
+    _tu_fn_cache[name] = fn
+    return fn
+
+
+def _cdiv(a, b):
+    if b == 0:
+        raise _CBad("division by zero")
+    q = abs(a) // abs(b)
+    return q if (a >= 0) == (b >= 0) else -q
+
+
+class _CFile(object):
+    def __init__(self, kind, size, pos, text=None, data_start=0, nfields=1):
+        self.kind = kind
+        self.size = size
+        self.pos = pos
+        self.text = text
+        self.data_start = data_start
+        self.nfields = nfields
+        self.events = []
+
+    def fread(self, ptr, size, n):
+        if self.kind != "bin":
+            raise _Unsup("fread on the text model")
+        if not isinstance(size, int) or not isinstance(n, int) or size <= 0 or n < 0:
+            raise _Unsup("fread size")
+        k = min(n, max(0, self.size - self.pos) // size)
+        if k > 0:
+            self.events.append(("rd", self.pos, size * k, ptr if isinstance(ptr, _CPtr) else None))
+        self.pos += size * k
+        return k
+
+    def seek(self, off, whence):
+        if not isinstance(off, int):
+            raise _Unsup("seek offset %r" % (off,))
+        new = {0: off, 1: self.pos + off, 2: self.size + off}.get(whence)
+        if new is None:
+            raise _Unsup("seek origin %r" % (whence,))
+        if new < 0:
+            return -1
+        self.pos = new
+        return 0
+
+    def getc(self):
+        if self.kind != "text":
+            raise _Unsup("fgetc on the binary model")
+        if self.pos >= len(self.text):
+            return -1
+        c = ord(self.text[self.pos])
+        self.pos += 1
+        return c
+
+    def token(self, colarg, buff):
+        """the per-column text scanner: consumes one token and its delimiter"""
+        if self.kind != "text":
+            raise _Unsup("text scanner on the binary model")
+        rel = self.pos - self.data_start
+        if rel < 0 or rel % 2 != 0:
+            raise _CBad("text column read while the cursor is not at the start of a value (file position %d)" % self.pos)
+        if self.pos >= len(self.text):
+            raise _CThrow("EOF")
+        t = rel // 2
+        self.events.append(("tok", t // self.nfields, t % self.nfields, colarg, buff if isinstance(buff, _CPtr) else None))
+        self.pos += 2
+
+
+class _CSim(object):
+    def __init__(self, cfun, members, fobj, cls="Records", stubs=None, budget=300000):
+        self.cfun = cfun
+        self.members = members
+        self.file = fobj
+        self.cls = cls
+        self.stubs = dict(stubs or {})
+        self.budget = budget
+        self.steps = 0
+
+    # -- calls -----------------------------------------------------------
+    def call_method(self, name, args, depth=0):
+        if name in self.stubs:
+            return self.stubs[name](*args)
+        fn = self.cfun.get("%s::%s" % (self.cls, name))
+        if fn is None:
+            raise _Unsup("method %s has no body in the translation unit" % name)
+        return self.call_decl(fn, args, depth)
+
+    def eval_args(self, fn, nodes, env, depth):
+        """argument values for a call; a non-const reference parameter of an evaluated function receives an alias of the caller's variable"""
+        out = []
+        pds = [c for c in (fn.get("inner", []) or []) if c.get("kind") == "ParmVarDecl"] if fn is not None else []
+        for i, a in enumerate(nodes):
+            qt = ((pds[i].get("type") or {}).get("qualType", "") if i < len(pds) else "").strip()
+            if qt.endswith("&") and not qt.startswith("const "):
+                d, key = self.lvalue(a, env, depth)
+                out.append(_CRef(d, key))
+            else:
+                out.append(self.ev(a, env, depth))
+        return out
+
+    def method_decl(self, name):
+        return None if name in self.stubs else self.cfun.get("%s::%s" % (self.cls, name))
+
+    def free_decl(self, name):
+        """the declaration that call_free would evaluate for this name (None for modelled primitives)"""
+        if name in _C_PRIMS or name.startswith(("Py_", "_Py_")):
+            return None
+        fn = self.cfun.get(name)
+        if fn is None or not cfront.has_body(fn) or fn.get("kind") != "FunctionDecl":
+            fn = _tu_function(name)
+        return fn
+
+    def call_decl(self, fn, args, depth=0):
+        if depth > 12:
+            raise _Unsup("call depth")
+        ps = cfront.params_of(fn)
+        if len(ps) != len(args):
+            raise _Unsup("arity of %s" % fn.get("name"))
+        env = dict(zip(ps, args))
+        try:
+            self.exec(cfront.body_of(fn), env, depth)
+        except _CRet as r:
+            return r.value
+        return None
+
+    def call_free(self, name, args, depth):
+        f = self.file
+        if name in ("fread",):
+            return f.fread(args[0], args[1], args[2])
+        if name in ("fseek", "fseeko", "_fseeki64", "fseeko64"):
+            return f.seek(args[1], args[2])
+        if name in ("ftell", "ftello"):
+            return f.pos
+        if name in ("fgetc", "getc"):
+            return f.getc()
+        if name == "rewind":
+            f.pos = 0
+            return None
+        if name == "feof":
+            return int(f.pos >= f.size)
+        if name in ("PyArray_BYTES", "PyArray_DATA"):
+            return _CPtr(self._arr(args[0]), 0)
+        if name == "PyArray_STRIDES":
+            return ("strides", self._arr(args[0]))
+        if name == "PyArray_DIMS":
+            return ("dims", self._arr(args[0]))
+        if name == "PyArray_NDIM":
+            self._arr(args[0])
+            return 1
+        if name in ("PyArray_STRIDE", "PyArray_DIM"):
+            if args[1] != 0:
+                raise _CBad("axis %r of a 1-d array" % (args[1],))
+            return self._arr(args[0]).stride if name == "PyArray_STRIDE" else self._arr(args[0]).size
+        if name in ("PyArray_SIZE", "PyArray_Size"):
+            return self._arr(args[0]).size
+        if name == "PyArray_ITEMSIZE":
+            return self._arr(args[0]).itemsize
+        if name.startswith(("Py_", "_Py_")):
+            return args[0] if args else 0
+        if name in ("min", "max") and len(args) == 2 and all(isinstance(a, (int, float)) for a in args):
+            return min(args) if name == "min" else max(args)
+        if name in ("abs", "labs", "llabs") and len(args) == 1 and isinstance(args[0], (int, float)):
+            return abs(args[0])
+        fn = self.cfun.get(name)
+        if fn is None or not cfront.has_body(fn) or fn.get("kind") != "FunctionDecl":
+            fn = _tu_function(name)
+        if fn is None:
+            raise _Unsup("function %s is not modelled and has no body in the translation unit" % name)
+        return self.call_decl(fn, args, depth + 1)
+
+    def _arr(self, v):
+        if not isinstance(v, _CArr):
+            raise _CBad("array accessor applied to %r" % (v,))
+        return v
+
+    # -- statements ------------------------------------------------------
+    def exec(self, st, env, depth=0):
+        self.steps += 1
+        if self.steps > self.budget:
+            raise _Unsup("evaluation budget exhausted")
+        k = st.get("kind")
+        inner = st.get("inner", []) or []
+        if k == "CompoundStmt":
+            for s in inner:
+                self.exec(s, env, depth)
+            return
+        if k == "DeclStmt":
+            for d in inner:
+                if d.get("kind") != "VarDecl":
+                    continue
+                init = [c for c in d.get("inner", []) or [] if isinstance(c, dict) and c.get("kind")]
+                qt = (d.get("type") or {}).get("qualType", "").strip()
+                if init and "init" in d and qt.endswith("&") and not qt.startswith("const "):
+                    env[d["name"]] = _CRef(*self.lvalue(init[-1], env, depth))
+                else:
+                    env[d["name"]] = self.ev(init[-1], env, depth) if init and "init" in d else 0
+            return
+        if k == "IfStmt":
+            if st.get("hasInit") or st.get("hasVar"):
+                raise _Unsup("if with initialiser")
+            if self.truth(self.ev(inner[0], env, depth)):
+                self.exec(inner[1], env, depth)
+            elif len(inner) > 2:
+                self.exec(inner[2], env, depth)
+            return
+        if k == "ForStmt":
+            init, _cv, cond, inc, body = (list(inner) + [{}] * 5)[:5]
+            if init and init.get("kind"):
+                self.exec(init, env, depth)
+            n = 0
+            while not (cond and cond.get("kind")) or self.truth(self.ev(cond, env, depth)):
+                n += 1
+                if n > 5000:
+                    raise _Unsup("loop bound")
+                try:
+                    self.exec(body, env, depth)
+                except _CBrk:
+                    break
+                except _CCont:
+                    pass
+                if inc and inc.get("kind"):
+                    self.ev(inc, env, depth)
+            return
+        if k == "WhileStmt":
+            n = 0
+            while self.truth(self.ev(inner[0], env, depth)):
+                n += 1
+                if n > 5000:
+                    raise _Unsup("loop bound")
+                try:
+                    self.exec(inner[-1], env, depth)
+                except _CBrk:
+                    break
+                except _CCont:
+                    pass
+            return
+        if k == "DoStmt":
+            n = 0
+            while True:
+                n += 1
+                if n > 5000:
+                    raise _Unsup("loop bound")
+                try:
+                    self.exec(inner[0], env, depth)
+                except _CBrk:
+                    break
+                except _CCont:
+                    pass
+                if not self.truth(self.ev(inner[1], env, depth)):
+                    break
+            return
+        if k == "ReturnStmt":
+            raise _CRet(self.ev(inner[0], env, depth) if inner else None)
+        if k == "BreakStmt":
+            raise _CBrk()
+        if k == "ContinueStmt":
+            raise _CCont()
+        if k == "NullStmt":
+            return
+        if k in ("CXXTryStmt", "SwitchStmt", "GotoStmt", "LabelStmt", "CXXForRangeStmt"):
+            raise _Unsup("statement %s" % k)
+        self.ev(st, env, depth)
+
+    # -- expressions -----------------------------------------------------
+    def truth(self, v):
+        if isinstance(v, (int, float)):
+            return v != 0
+        if isinstance(v, (_CPtr, _CArr, _CRef)) or v is _C_NONE:
+            return True
+        if v is None:
+            return False
+        raise _Unsup("truth of %r" % (v,))
+
+    def lvalue(self, n, env, depth):
+        s = cfront.strip(n)
+        k = s.get("kind")
+        if k == "DeclRefExpr":
+            rd = s.get("referencedDecl") or {}
+            nm = rd.get("name")
+            if nm in env:
+                v = env[nm]
+                qt = (rd.get("type") or {}).get("qualType", "")
+                if isinstance(v, _CRef) and "&" in qt and "*" not in qt:
+                    return (v.d, v.key)
+                return (env, nm)
+            raise _Unsup("store to %s" % nm)
+        if k == "UnaryOperator" and s.get("opcode") == "*":
+            p = self.ev(s["inner"][0], env, depth)
+            if isinstance(p, _CRef):
+                return (p.d, p.key)
+            raise _Unsup("store through %r" % (p,))
+        if k == "MemberExpr" and s.get("inner") and cfront.strip(s["inner"][0]).get("kind") == "CXXThisExpr":
+            if s.get("name") in self.members:
+                return (self.members, s["name"])
+            raise _Unsup("store to member %s" % s.get("name"))
+        raise _Unsup("store through %s" % k)
+
+    def _scale(self, n):
+        qt = (n.get("type") or {}).get("qualType", "")
+        if "*" not in qt:
+            return 1
+        base = qt.rsplit("*", 1)[0].replace("const", "").replace("__restrict", "").strip()
+        if base.endswith("*"):
+            return 8
+        if base in _C_SIZES:
+            return _C_SIZES[base]
+        raise _Unsup("pointer arithmetic on %s" % qt)
+
+    def load(self, p):
+        a = p.base
+        if not isinstance(a, _CArr) or a.data is None:
+            raise _Unsup("load through %r" % (p,))
+        if p.off % a.itemsize != 0 or not (0 <= p.off // a.itemsize < len(a.data)):
+            raise _CBad("read of element at byte %d of the %d-element array `%s`" % (p.off, len(a.data), a.name))
+        return a.data[p.off // a.itemsize]
+
+    def arith(self, op, a, b, n):
+        if isinstance(a, _CPtr) or isinstance(b, _CPtr):
+            sc = self._scale(n)
+            if op == "+" and isinstance(a, _CPtr) and isinstance(b, int):
+                return _CPtr(a.base, a.off + b * sc)
+            if op == "+" and isinstance(b, _CPtr) and isinstance(a, int):
+                return _CPtr(b.base, b.off + a * sc)
+            if op == "-" and isinstance(a, _CPtr) and isinstance(b, int):
+                return _CPtr(a.base, a.off - b * sc)
+            if op == "-" and isinstance(a, _CPtr) and isinstance(b, _CPtr) and a.base is b.base:
+                return (a.off - b.off) // max(1, self._scale(n["inner"][0]))
+            if op in ("==", "!=") :
+                same = isinstance(a, _CPtr) and isinstance(b, _CPtr) and a.base is b.base and a.off == b.off
+                if (isinstance(a, int) and a == 0) or (isinstance(b, int) and b == 0):
+                    same = False
+                return int(same == (op == "=="))
+            raise _Unsup("pointer operator %s" % op)
+        if op in ("==", "!="):
+            if a in ("OBJ", "STR") or b in ("OBJ", "STR"):
+                raise _Unsup("comparison of opaque objects")
+            if (isinstance(a, (int, float)) and isinstance(b, (int, float))) or (isinstance(a, str) and isinstance(b, str)):
+                return int((a == b) == (op == "=="))
+            return int((a is b) == (op == "=="))
+        if not (isinstance(a, (int, float)) and isinstance(b, (int, float))):
+            raise _Unsup("operator %s on %r, %r" % (op, a, b))
+        if op == "+":
+            return a + b
+        if op == "-":
+            return a - b
+        if op == "*":
+            return a * b
+        if op == "/":
+            if isinstance(a, float) or isinstance(b, float):
+                if b == 0:
+                    raise _CBad("division by zero")
+                return a / b
+            return _cdiv(a, b)
+        if op == "%":
+            return a - _cdiv(a, b) * b
+        if op == "<":
+            return int(a < b)
+        if op == "<=":
+            return int(a <= b)
+        if op == ">":
+            return int(a > b)
+        if op == ">=":
+            return int(a >= b)
+        if isinstance(a, int) and isinstance(b, int):
+            if op == "&":
+                return a & b
+            if op == "|":
+                return a | b
+            if op == "^":
+                return a ^ b
+            if op == "<<":
+                return a << b
+            if op == ">>":
+                return a >> b
+        raise _Unsup("operator %s" % op)
+
+    def ev(self, n, env, depth=0):
+        self.steps += 1
+        if self.steps > self.budget:
+            raise _Unsup("evaluation budget exhausted")
+        k = n.get("kind")
+        inner = [c for c in (n.get("inner", []) or []) if isinstance(c, dict) and c.get("kind")]
+        if k in _C_CASTS:
+            if not inner:
+                raise _Unsup("empty %s" % k)
+            v = self.ev(inner[-1] if k == "CXXFunctionalCastExpr" else inner[0], env, depth)
+            ck = n.get("castKind")
+            if ck in ("IntegralToBoolean", "PointerToBoolean", "FloatingToBoolean"):
+                return int(self.truth(v))
+            if ck == "NullToPointer":
+                return 0
+            if ck == "IntegralCast" and isinstance(v, int) and (n.get("type") or {}).get("qualType") in ("char", "signed char"):
+                return ((v + 128) % 256) - 128
+            if ck in ("FloatingToIntegral",) and isinstance(v, float):
+                return int(v)
+            return v
+        if k == "IntegerLiteral":
+            return int(n.get("value"))
+        if k == "CharacterLiteral":
+            return int(n.get("value"))
+        if k == "CXXBoolLiteralExpr":
+            return 1 if n.get("value") else 0
+        if k == "FloatingLiteral":
+            return float(n.get("value"))
+        if k == "StringLiteral":
+            return "STR"
+        if k in ("GNUNullExpr", "CXXNullPtrLiteralExpr"):
+            return 0
+        if k == "ImplicitValueInitExpr":
+            return 0
+        if k == "DeclRefExpr":
+            rd = n.get("referencedDecl") or {}
+            nm = rd.get("name")
+            if rd.get("kind") in ("VarDecl", "ParmVarDecl"):
+                if nm in env:
+                    v = env[nm]
+                    if isinstance(v, _CRef) and "&" in (rd.get("type") or {}).get("qualType", "") and "*" not in (rd.get("type") or {}).get("qualType", ""):
+                        return v.d[v.key]
+                    return v
+                if nm == "_Py_NoneStruct":
+                    return _C_NONESTRUCT
+                if nm == "PyArray_API":
+                    return "PyArray_API"
+                if nm in self.members:
+                    return self.members[nm]
+                raise _Unsup("variable %s" % nm)
+            if rd.get("kind") in ("FunctionDecl", "CXXMethodDecl"):
+                return ("fn", nm)
+            if rd.get("kind") == "EnumConstantDecl":
+                return ("enum", nm)
+            raise _Unsup("reference to %s" % nm)
+        if k == "MemberExpr":
+            if inner and cfront.strip(inner[0]).get("kind") == "CXXThisExpr":
+                if n.get("name") in self.members:
+                    return self.members[n["name"]]
+                raise _Unsup("member %s is not modelled" % n.get("name"))
+            raise _Unsup("member access %s" % cfront.render(n))
+        if k == "CXXThisExpr":
+            return "this"
+        if k == "UnaryOperator":
+            op = n.get("opcode")
+            if op == "&":
+                s = cfront.strip(inner[0])
+                if s.get("kind") == "DeclRefExpr" and (s.get("referencedDecl") or {}).get("name") == "_Py_NoneStruct":
+                    return _C_NONE
+                if s.get("kind") in ("DeclRefExpr", "MemberExpr"):
+                    d, key = self.lvalue(s, env, depth)
+                    if isinstance(d[key], (int, float)):
+                        return _CRef(d, key)
+                raise _Unsup("address-of %s" % cfront.render(s))
+            if op in ("++", "--"):
+                d, key = self.lvalue(inner[0], env, depth)
+                old = d[key]
+                if isinstance(old, _CPtr):
+                    new = _CPtr(old.base, old.off + (1 if op == "++" else -1) * self._scale(inner[0]))
+                elif isinstance(old, (int, float)):
+                    new = old + (1 if op == "++" else -1)
+                else:
+                    raise _Unsup("increment of %r" % (old,))
+                d[key] = new
+                return old if n.get("isPostfix") else new
+            v = self.ev(inner[0], env, depth)
+            if op == "*":
+                if isinstance(v, _CRef):
+                    return v.d[v.key]
+                if isinstance(v, _CPtr):
+                    return self.load(v)
+                if isinstance(v, tuple):
+                    return v
+                raise _Unsup("dereference of %r" % (v,))
+            if op == "!":
+                return int(not self.truth(v))
+            if isinstance(v, (int, float)):
+                if op == "-":
+                    return -v
+                if op == "+":
+                    return v
+                if op == "~" and isinstance(v, int):
+                    return ~v
+            raise _Unsup("unary %s on %r" % (op, v))
+        if k == "BinaryOperator":
+            op = n.get("opcode")
+            if op == "=":
+                v = self.ev(inner[1], env, depth)
+                d, key = self.lvalue(inner[0], env, depth)
+                d[key] = v
+                return v
+            if op == ",":
+                self.ev(inner[0], env, depth)
+                return self.ev(inner[1], env, depth)
+            if op == "&&":
+                return int(self.truth(self.ev(inner[0], env, depth)) and self.truth(self.ev(inner[1], env, depth)))
+            if op == "||":
+                return int(self.truth(self.ev(inner[0], env, depth)) or self.truth(self.ev(inner[1], env, depth)))
+            return self.arith(op, self.ev(inner[0], env, depth), self.ev(inner[1], env, depth), n)
+        if k == "CompoundAssignOperator":
+            op = n.get("opcode", "")[:-1]
+            d, key = self.lvalue(inner[0], env, depth)
+            v = self.arith(op, d[key], self.ev(inner[1], env, depth), inner[0] if isinstance(d[key], _CPtr) else n)
+            d[key] = v
+            return v
+        if k == "ConditionalOperator":
+            return self.ev(inner[1] if self.truth(self.ev(inner[0], env, depth)) else inner[2], env, depth)
+        if k == "ArraySubscriptExpr":
+            b = self.ev(inner[0], env, depth)
+            i = self.ev(inner[1], env, depth)
+            return self.index(b, i, n)
+        if k == "CXXOperatorCallExpr":
+            op = cfront.callee_name(n)
+            args = inner[1:]
+            if op == "operator[]" and len(args) == 2:
+                return self.index(self.ev(args[0], env, depth), self.ev(args[1], env, depth), n)
+            if op in ("operator<<", "operator+", "operator=", "operator+="):
+                return "OBJ"
+            raise _Unsup("operator call %s" % op)
+        if k in ("CXXConstructExpr", "CXXTemporaryObjectExpr", "CXXDefaultArgExpr", "CXXStdInitializerListExpr", "InitListExpr"):
+            return "OBJ"
+        if k == "CXXThrowExpr":
+            raise _CThrow(cfront.render(n)[:80])
+        if k == "CallExpr":
+            c = cfront.strip(inner[0])
+            if c.get("kind") == "DeclRefExpr" and (c.get("referencedDecl") or {}).get("kind") == "FunctionDecl":
+                nm = c["referencedDecl"]["name"]
+                return self.call_free(nm, self.eval_args(self.free_decl(nm), inner[1:], env, depth), depth)
+            f = self.ev(c, env, depth)
+            if isinstance(f, tuple) and f[0] == "fn":
+                return self.call_free(f[1], self.eval_args(self.free_decl(f[1]), inner[1:], env, depth), depth)
+            args = [self.ev(a, env, depth) for a in inner[1:]]
+            if f == ("api", 158):
+                if len(args) == 2 and isinstance(args[0], tuple) and args[0][0] == "dims":
+                    return args[0][1].size
+                raise _Unsup("PyArray_MultiplyList arguments")
+            raise _Unsup("indirect call %r" % (f,))
+        if k == "CXXMemberCallExpr":
+            c = cfront.strip(inner[0])
+            if c.get("kind") == "MemberExpr" and c.get("inner") and cfront.strip(c["inner"][0]).get("kind") == "CXXThisExpr":
+                args = self.eval_args(self.method_decl(c.get("name")), inner[1:], env, depth)
+                return self.call_method(c.get("name"), args, depth + 1)
+            if c.get("kind") == "MemberExpr" and c.get("name") in ("size", "at") and c.get("inner"):
+                b = cfront.strip(c["inner"][0])
+                if b.get("kind") == "MemberExpr" and b.get("name") in self.members and isinstance(self.members[b["name"]], list):
+                    tbl = self.members[b["name"]]
+                    if c["name"] == "size":
+                        return len(tbl)
+                    return self.index(tbl, self.ev(inner[1], env, depth), n)
+            return "OBJ"
+        if k == "UnaryExprOrTypeTraitExpr":
+            t = (n.get("argType") or {}).get("qualType")
+            if t in _C_SIZES:
+                return _C_SIZES[t]
+            raise _Unsup("sizeof %s" % t)
+        raise _Unsup("expression %s" % k)
+
+    def index(self, b, i, n):
+        if isinstance(b, list):
+            if not isinstance(i, int) or not (0 <= i < len(b)):
+                raise _CBad("index %r outside a %d-element table" % (i, len(b)))
+            return b[i]
+        if isinstance(b, tuple) and b[0] == "strides":
+            if i != 0:
+                raise _CBad("stride %r of a 1-d array" % (i,))
+            return b[1].stride
+        if isinstance(b, tuple) and b[0] == "dims":
+            if i != 0:
+                raise _CBad("dimension %r of a 1-d array" % (i,))
+            return b[1].size
+        if b == "PyArray_API":
+            return ("api", i)
+        if isinstance(b, _CPtr) and isinstance(i, int):
+            return self.load(_CPtr(b.base, b.off + i * self._scale(n["inner"][0] if n.get("inner") else n)))
+        raise _Unsup("subscript of %r" % (b,))
+
+
+# -- scenarios for the C++ evaluation ----------------------------------------
+_C_OFF = 3          # data offset of the model file (non-zero so that a position that forgets the offset is seen)
+_C_START = 1        # where the model file cursor is when a reader is entered (readers must not depend on it)
+
+
+def _c_members(nrows, sizes, ftype):
+    offs = [sum(sizes[:i]) for i in range(len(sizes))]
+    return dict(mNrows=nrows, mNfields=len(sizes), mRowSize=sum(sizes), mSizes=list(sizes), mOffsets=offs, mFileOffset=_C_OFF,
+                mFptr="FILE", mFileType=ftype, mDebug=0, mReadAsWhitespace=0, BINARY_FILE="BINARY_FILE", ASCII_FILE="ASCII_FILE",
+                mNel=[1] * len(sizes))
+
+
+def _c_file(kind, nrows, sizes, start=_C_START):
+    if kind == "bin":
+        return _CFile("bin", _C_OFF + nrows * sum(sizes), start)
+    nf = len(sizes)
+    text = "h" * _C_OFF + "".join("a" + ("," if c < nf - 1 else "\n") for r in range(nrows) for c in range(nf))
+    return _CFile("text", len(text), start, text=text, data_start=_C_OFF, nfields=nf)
+
+
+def _c_sim(cfun, kind, nrows, sizes, start=_C_START):
+    f = _c_file(kind, nrows, sizes, start)
+    noop = lambda *a: None
+    stubs = {"ensure_readable": noop, "ensure_writable": noop, "ensure_text": noop, "ensure_binary": noop}
+    if kind == "text":
+        stubs["read_from_text_column"] = f.token
+    return _CSim(cfun, _c_members(nrows, sizes, "BINARY_FILE" if kind == "bin" else "ASCII_FILE"), f, stubs=stubs), f
+
+
+def _subsets(n):
+    out = []
+    for m in range(1, 2 ** n):
+        out.append([i for i in range(n) if m >> i & 1])
+    return out
+
+
+def _transfers(f, sizes):
+    """{(buffer name, byte offset in the buffer): source} from the logged events; source = file byte (binary) or
+    (row, column, byte within the value) (text: the scanner stores a value of the column's size).  Also the list of scanner calls
+    whose column argument is not the column under the cursor."""
+    m = {}
+    wrongcol = []
+    for e in f.events:
+        if e[0] == "rd":
+            _, pos, nb, ptr = e
+            if ptr is None:
+                continue
+            for k in range(nb):
+                m[(ptr.base.name, ptr.off + k)] = pos + k
+        else:
+            _, row, col, colarg, ptr = e
+            if colarg != col:
+                wrongcol.append((row, col, colarg))
+            if ptr is None:
+                continue
+            for k in range(sizes[col]):
+                m[(ptr.base.name, ptr.off + k)] = (row, col, k)
+    return m, wrongcol
+
+
+def _sim_columns(cfun, fname, kind, start=_C_START):
+    """evaluate read_text_columns / read_binary_columns for every selection of a 3-row, 3-column table;
+    -> {facet: [counterexample text]}"""
+    nrows, sizes = 3, [2, 3, 1]
+    nf = len(sizes)
+    offs = [sum(sizes[:i]) for i in range(nf)]
+    rowsize = sum(sizes)
+    bad = {"rows": [], "cols": [], "dest": []}
+    for rows in [None, []] + _subsets(nrows):
+        for cols in _subsets(nf):
+            sim, f = _c_sim(cfun, kind, nrows, sizes, start)
+            selrows = list(range(nrows)) if rows is None else rows
+            stride = sum(sizes[c] for c in cols)
+            out = _CArr("arrayobj", len(selrows), stride)
+            colobj = _CArr("colnums", len(cols), 8, list(cols))
+            rowobj = _C_NONE if rows is None else _CArr("rows", len(rows), 8, list(rows))
+            what = "rows=%s columns=%s" % ("all" if rows is None else rows, cols)
+            try:
+                sim.call_method(fname.split("::")[-1], [out, colobj, rowobj])
+            except _CThrow as e:
+                bad["rows"].append("%s: throws %s" % (what, e))
+                continue
+            except _CBad as e:
+                bad["rows"].append("%s: %s" % (what, e))
+                continue
+            got, wrongcol = _transfers(f, sizes)
+            for row, col, colarg in wrongcol[:1]:
+                bad["cols"].append("%s: the value of column %d in row %d is scanned as column %d" % (what, col, row, colarg))
+            exp = {}
+            for i, r in enumerate(selrows):
+                d = i * stride
+                for c in cols:
+                    for k in range(sizes[c]):
+                        exp[("arrayobj", d + k)] = (_C_OFF + r * rowsize + offs[c] + k) if kind == "bin" else (r, c, k)
+                    d += sizes[c]
+            if set(got) != set(exp):
+                miss = sorted(set(exp) - set(got))[:1]
+                extra = sorted(set(got) - set(exp))[:1]
+                bad["dest"].append("%s: output bytes never written %s / written outside the selection %s" % (what, miss, extra))
+            for key in sorted(set(got) & set(exp)):
+                if got[key] == exp[key]:
+                    continue
+                if kind == "bin":
+                    grow, gcolb = divmod(got[key] - _C_OFF, rowsize)
+                    erow, ecolb = divmod(exp[key] - _C_OFF, rowsize)
+                else:
+                    grow, gcolb, erow, ecolb = got[key][0], got[key][1:], exp[key][0], exp[key][1:]
+                if grow != erow:
+                    bad["rows"].append("%s: output row %d receives file row %d instead of %d" % (what, key[1] // max(1, stride), grow, erow))
+                else:
+                    bad["cols"].append("%s: output byte %d of row %d receives %s of the file row instead of %s"
+                                       % (what, key[1] % max(1, stride), erow, gcolb, ecolb))
+                break
+    return bad
+
+
+def _sim_slice_reader(cfun, start=_C_START):
+    """Records::read_binary_slice for every normalised slice of a 5-row table -> {facet: [counterexamples]}"""
+    nrows, sizes = 5, [1, 3]
+    rowsize = sum(sizes)
+    bad = {"first": [], "stride": [], "size": []}
+    for row1 in range(nrows + 1):
+        for row2 in range(row1, nrows + 1):
+            for step in (1, 2, 3):
+                cnt = len(range(row1, row2, step))
+                sim, f = _c_sim(cfun, "bin", nrows, sizes, start)
+                out = _CArr("arrayobj", cnt, rowsize)
+                what = "slice %d:%d:%d" % (row1, row2, step)
+                try:
+                    sim.call_method("read_binary_slice", [out, row1, row2, step])
+                except _CThrow as e:
+                    bad["first"].append("%s: throws %s" % (what, e))
+                    continue
+                except _CBad as e:
+                    bad["first"].append("%s: %s" % (what, e))
+                    continue
+                got, _ = _transfers(f, sizes)
+                exp = {("arrayobj", i * rowsize + k): _C_OFF + (row1 + i * step) * rowsize + k for i in range(cnt) for k in range(rowsize)}
+                if set(got) != set(exp):
+                    bad["size"].append("%s: output bytes never written %s / written outside the buffer %s"
+                                       % (what, sorted(set(exp) - set(got))[:1], sorted(set(got) - set(exp))[:1]))
+                for key in sorted(set(got) & set(exp)):
+                    if got[key] != exp[key]:
+                        i = key[1] // rowsize
+                        bad["first" if i == 0 else "stride"].append(
+                            "%s: output row %d receives file bytes of row %s instead of row %d"
+                            % (what, i, (got[key] - _C_OFF) / float(rowsize), row1 + i * step))
+                        break
+    return bad
+
+
+def _sim_process_slice(cfun):
+    bad = []
+    n = 7
+    for row1 in range(n + 1):
+        for row2 in range(row1, n + 1):
+            for step in (1, 2, 3, 4, 5):
+                sim, f = _c_sim(cfun, "bin", n, [4])
+                try:
+                    got = sim.call_method("process_slice", [row1, row2, step])
+                except (_CThrow, _CBad) as e:
+                    bad.append("process_slice(%d, %d, %d) fails: %s" % (row1, row2, step, e))
+                    continue
+                if got != len(range(row1, row2, step)):
+                    bad.append("process_slice(%d, %d, %d) = %r, the slice has %d rows" % (row1, row2, step, got, len(range(row1, row2, step))))
+    return bad
+
+
+def _sim_skips(cfun):
+    """skip_binary_rows / skip_text_rows / skip_rows move the model cursor by whole rows -> {name: [counterexamples]}"""
+    nrows, sizes = 4, [2, 1]
+    rowsize = sum(sizes)
+    bad = {"skip_binary_rows": [], "skip_text_rows": [], "skip_rows": []}
+    have = {k: cfun.get("Records::" + k) is not None for k in bad}
+    for r in range(nrows):
+        for n in range(-1, nrows - r + 1):
+            rowlen = 2 * len(sizes)
+            if have["skip_binary_rows"]:
+                sim, f = _c_sim(cfun, "bin", nrows, sizes, _C_OFF + r * rowsize)
+                try:
+                    sim.call_method("skip_binary_rows", [n])
+                    if f.pos != _C_OFF + (r + max(n, 0)) * rowsize:
+                        bad["skip_binary_rows"].append("skip_binary_rows(%d) at row %d leaves the cursor at byte %d of the data" % (n, r, f.pos - _C_OFF))
+                except (_CThrow, _CBad) as e:
+                    bad["skip_binary_rows"].append("skip_binary_rows(%d) at row %d: %s" % (n, r, e))
+            if have["skip_text_rows"]:
+                sim, f = _c_sim(cfun, "text", nrows, sizes, _C_OFF + r * rowlen)
+                try:
+                    sim.call_method("skip_text_rows", [n])
+                    if f.pos != _C_OFF + (r + max(n, 0)) * rowlen:
+                        bad["skip_text_rows"].append("skip_text_rows(%d) at row %d leaves the cursor at character %d of the data" % (n, r, f.pos - _C_OFF))
+                except (_CThrow, _CBad) as e:
+                    bad["skip_text_rows"].append("skip_text_rows(%d) at row %d: %s" % (n, r, e))
+            if n < 0 or not have["skip_rows"]:
+                continue
+            for kind, unit in (("bin", rowsize), ("text", rowlen)):
+                sim, f = _c_sim(cfun, kind, nrows, sizes, _C_OFF + r * unit)
+                try:
+                    sim.call_method("skip_rows", [r, r + n])
+                    if f.pos != _C_OFF + (r + n) * unit:
+                        bad["skip_rows"].append("skip_rows(%d, %d) on a %s file leaves the cursor at row %s" % (r, r + n, kind, (f.pos - _C_OFF) / float(unit)))
+                except (_CThrow, _CBad) as e:
+                    bad["skip_rows"].append("skip_rows(%d, %d) on a %s file: %s" % (r, r + n, kind, e))
+    return bad
+
+
+# -- scenarios for the Python evaluation ---------------------------------------
+_RU = "esutil.recfile.Util."
+_NAMES = ("a", "b", "c")
+
+
+class _Model(object):
+    """a model Recfile (5 rows, columns a b c) whose C++ object records the calls that reach it"""
+
+    def __init__(self, repo, nrows=5, ascii_=False, stub_read=False):
+        self.calls = []
+        self.nrows = nrows
+        self.ascii = ascii_
+        self.robj = _MObj("robj", stubs={"read_binary_slice": self._rec("read_binary_slice"), "read_columns": self._rec("read_columns")})
+        self.descr = [(n, "<i4") for n in _NAMES]
+        self.dtype = _MObj("DTYPE", attrs={"descr": list(self.descr), "names": tuple(_NAMES)})
+        stubs = {}
+        if stub_read:
+            stubs["read"] = self._rec("read")
+            stubs["Read"] = stubs["read"]
+        self.rf = _MObj("recfile", attrs=dict(nrows=nrows, ncols=len(_NAMES), is_ascii=ascii_, robj=self.robj, dtype=self.dtype,
+                                              colnames=_MArr(_NAMES), delim="," if ascii_ else None, __len__=nrows, __truth__=True),
+                        stubs=stubs, cls=_RU + "Recfile")
+
+    def _rec(self, name):
+        def f(*a, **k):
+            r = _Tag(("result-of-" + name, len(self.calls)))
+            self.calls.append((name, a, k, r))
+            return r
+        return f
+
+
+def _interp(repo):
+    made = []
+
+    def colsub(*a, **k):
+        o = _MObj("RecfileColumnSubset-instance", attrs={"__ctor__": (a, k)})
+        made.append(o)
+        return o
+
+    it = _PyMini(repo, func_stubs={"isstring": lambda x: isinstance(x, str), "split_fields": lambda d, *a, **k: _Tag(("split", d)),
+                                   "reduce_array": lambda d: _Tag(("reduce", d))},
+                 class_stubs={"RecfileColumnSubset": colsub})
+    it.made = made
+    return it
+
+
+def _norm_slice_call(m, exp, n):
+    """does the single robj.read_binary_slice(buffer, a, b, c) call of model m transfer exactly the rows `exp`?  -> list of complaints by facet"""
+    out = {}
+    name, a, k, _ = m.calls[0]
+    if k or len(a) != 4:
+        out["roles"] = "read_binary_slice%r %r" % (a, k)
+        return out
+    buf, r1, r2, st = a
+    if not all(isinstance(x, int) and not isinstance(x, bool) for x in (r1, r2, st)):
+        out["roles"] = "read_binary_slice receives non-integer bounds %r" % ((r1, r2, st),)
+        return out
+    if not (0 <= r1 <= r2 <= n and st >= 1):
+        out["bounds"] = "read_binary_slice receives (%d, %d, %d) for a %d-row table (the C++ reader needs 0 <= start <= stop <= nrows, step >= 1)" % (r1, r2, st, n)
+    if list(range(r1, r2, st)) != exp:
+        out["rows"] = "the slice reader is given (%d, %d, %d) = rows %s, Python selects %s" % (r1, r2, st, list(range(r1, r2, st)), exp)
+    if not isinstance(buf, _MBuf):
+        out["buffer"] = "the output buffer is %r" % (buf,)
+    else:
+        if buf.n != len(range(r1, r2, st)):
+            out["count"] = "the buffer for slice (%d, %d, %d) has %d rows, the slice has %d" % (r1, r2, st, buf.n, len(range(r1, r2, st)))
+        if not (buf.dtype is m.dtype or buf.dtype == m.descr):
+            out["buffer"] = "the output buffer has dtype %r, not the file dtype" % (buf.dtype,)
+    return out
+
+
+def _same_req(a, b, rows=False):
+    """is request `a` the request `b` (same object, or equal value of the same kind: a name stays a name, a sequence a sequence;
+    for rows a number and the one-element list of it select the same row)"""
+    if a is b:
+        return True
+    if a is None or b is None:
+        return False
+    if isinstance(a, str) or isinstance(b, str):
+        return isinstance(a, str) and isinstance(b, str) and a == b
+    if isinstance(a, (_MObj, _MBuf, _Tag)) or isinstance(b, (_MObj, _MBuf, _Tag)):
+        return False
+    if isinstance(a, int) and isinstance(b, int):
+        return a == b
+    if isinstance(a, (list, tuple)) and isinstance(b, (list, tuple)):
+        return list(a) == list(b)
+    if rows and isinstance(a, (list, tuple)) and isinstance(b, int):
+        return list(a) == [b]
+    if rows and isinstance(b, (list, tuple)) and isinstance(a, int):
+        return list(b) == [a]
+    return False
+
+
+def _sim_brackets(repo):
+    """Recfile[...] and RecfileColumnSubset[...] for every slice of the property's box and for the other argument kinds
+    -> {facet: [counterexamples]} (raises _Unsup when the code leaves the evaluator's fragment)"""
+    bad = {k: [] for k in ("raise", "rows", "bounds", "count", "buffer", "roles", "dispatch", "unpack", "subset")}
+    it = _interp(repo)
+    gi = repo.func(_RU + "Recfile.__getitem__")
+    cgi = repo.func(_RU + "RecfileColumnSubset.__getitem__")
+
+    def colsubset(m):
+        return _MObj("colsubset", attrs={"recfile": m.rf, "columns": "b"}, cls=_RU + "RecfileColumnSubset")
+
+    def add(facet, text):
+        if len(bad[facet]) < 6:
+            bad[facet].append(text)
+
+    for n in (4, 0):
+        vals = [None] + list(range(-n - 2, n + 3))
+        for a in vals:
+            for b in vals:
+                for st in (None, 1, 2, 3):
+                    sl = slice(a, b, st)
+                    exp = list(range(*sl.indices(n)))
+                    for style in ("binary", "text", "column-subset"):
+                        m = _Model(repo, n, style == "text", stub_read=True)
+                        what = "%s [%s:%s:%s] on %d rows" % (style, a, b, st, n)
+                        try:
+                            if style == "column-subset":
+                                res = it.run(cgi, [sl], {}, colsubset(m))
+                            else:
+                                res = it.run(gi, [sl], {}, m.rf)
+                        except _PyRaise as e:
+                            add("raise", "%s raises %s" % (what, e.name))
+                            continue
+                        if len(m.calls) != 1 or it.made:
+                            add("dispatch", "%s reaches %s" % (what, [c[0] for c in m.calls] + it.made))
+                            del it.made[:]
+                            continue
+                        name, ca, ck, r = m.calls[0]
+                        if style == "binary" and name == "read":
+                            # reading through the row list is also correct for a binary file
+                            pass
+                        if name == "read_binary_slice":
+                            if style != "binary":
+                                add("unpack", "%s is sent to the binary slice reader" % what)
+                                continue
+                            for facet, text in _norm_slice_call(m, exp, n).items():
+                                add(facet, "%s: %s" % (what, text))
+                            if not (isinstance(res, _MBuf) and res is ca[0]):
+                                add("roles", "%s returns %r, not the buffer that was filled" % (what, res))
+                        elif name == "read":
+                            rows = ck.get("rows", ca[0] if ca else None)
+                            other = {k: v for k, v in ck.items() if k != "rows"}
+                            if style == "column-subset":
+                                if other.pop("columns", None) != "b" and other.pop("fields", None) != "b":
+                                    add("subset", "%s does not pass the subset's columns to read(): %r" % (what, ck))
+                            if len(ca) > 1 or any(v not in (None, False) for k, v in other.items() if k not in ("columns", "fields")):
+                                add("roles", "%s calls read%r %r" % (what, ca, ck))
+                            if not isinstance(rows, (list, tuple)) or list(rows) != exp:
+                                add("rows", "%s reads rows %r, Python selects %s" % (what, rows, exp))
+                            if res is not r:
+                                add("roles", "%s does not return what read() returned" % what)
+                        else:
+                            add("dispatch", "%s reaches %s" % (what, name))
+    # the other argument kinds
+    kinds = [("row list", [1, 3]), ("row tuple", (0, 2)), ("row array", _MArr([2, 0])), ("row number", 2),
+             ("column name", "b"), ("column list", ["c", "a"]), ("column tuple", ("a", "b")), ("column array", _MArr(["b"]))]
+    for style in ("binary", "text", "column-subset"):
+        for kind, arg in kinds:
+            m = _Model(repo, 4, style == "text", stub_read=True)
+            what = "%s [%s %r]" % (style, kind, arg)
+            del it.made[:]
+            try:
+                if style == "column-subset":
+                    me = colsubset(m)
+                    res = it.run(cgi, [arg], {}, me)
+                else:
+                    me = m.rf
+                    res = it.run(gi, [arg], {}, me)
+            except _PyRaise as e:
+                add("dispatch", "%s raises %s" % (what, e.name))
+                continue
+            if kind.startswith("row"):
+                if it.made or len(m.calls) != 1 or m.calls[0][0] != "read":
+                    add("dispatch", "%s reaches %s instead of read(rows=...)" % (what, [c[0] for c in m.calls] + it.made))
+                    continue
+                name, ca, ck, r = m.calls[0]
+                rows = ck.get("rows", ca[0] if ca else None)
+                other = {k: v for k, v in ck.items() if k != "rows"}
+                if style == "column-subset" and other.pop("columns", None) != "b" and other.pop("fields", None) != "b":
+                    add("subset", "%s does not pass the subset's columns to read(): %r" % (what, ck))
+                if not _same_req(rows, arg, rows=True) or len(ca) > 1 or any(v not in (None, False) for k, v in other.items() if k not in ("columns", "fields")):
+                    add("roles", "%s calls read%r %r" % (what, ca, ck))
+                if res is not r:
+                    add("roles", "%s does not return what read() returned" % what)
+            else:
+                if m.calls or len(it.made) != 1 or res is not it.made[0]:
+                    add("dispatch", "%s reaches %s instead of returning a column subset" % (what, [c[0] for c in m.calls] + it.made))
+                    continue
+                ca, ck = res.attrs["__ctor__"]
+                cols = ck.get("columns", ck.get("fields", ca[1] if len(ca) > 1 else None))
+                if not ca or ca[0] is not me or not _same_req(cols, arg):
+                    add("roles", "%s builds RecfileColumnSubset%r %r" % (what, ca, ck))
+    return bad
+
+
+_ROWS_OK = [None, [], [1, 3], [3, 1], [1, 1, 4], [0, 1, 1, 2, 3, 3, 4], [4, 4, 0], (0, 2), _MArr([2, 0, 2]), [0, 1, 2, 3, 4], [2, 3, 4], 0, 2, 4, -1, -5]
+_ROWS_BAD = [[5], [0, 5], [1, 7, 2], [100], 5, 100, -6]
+_REQ_OK = [(None, None), ("b", None), (None, "b"), (None, ["c", "a"]), (["c", "a"], None), (None, ("b", "a")), (None, ["a", "a", "c"]),
+           (None, ["a", "b", "c"]), (None, _MArr(["b"])), (None, ["b"])]
+_REQ_BAD = [(None, "zz"), (None, ["a", "zz"]), ("zz", None)]
+
+
+def _expect_rows(rows, n):
+    """(row list or None for all, raises?)"""
+    if rows is None:
+        return None, False
+    if isinstance(rows, int):
+        if -n <= rows < n:
+            return [rows % n], False
+        return None, True
+    if any(r < 0 or r >= n for r in rows):
+        return None, True
+    return sorted(set(rows)), False
+
+
+def _expect_cols(fields, columns):
+    req = columns if columns is not None else fields
+    if req is None:
+        return list(range(len(_NAMES))), False, None, False
+    if isinstance(req, str):
+        if req not in _NAMES:
+            return None, True, req, True
+        return [_NAMES.index(req)], True, req, False
+    if any(x not in _NAMES for x in req):
+        return None, False, req, True
+    return sorted(set(_NAMES.index(x) for x in req)), False, req, False
+
+
+def _sim_read(repo, which):
+    """Recfile.read(rows=, fields=/columns=, split=) down to the call of the C++ reader, for the row inputs (`which`='rows'), the column
+    inputs ('cols') or the dispatch between the two readers ('dispatch') -> {facet: [counterexamples]}"""
+    bad = {k: [] for k in ("unique", "range", "clamp", "colnums", "unknown", "dtype", "scalar", "synonym", "fastpath", "fastslice", "roles", "split", "count")}
+    it = _interp(repo)
+    rd = repo.func(_RU + "Recfile.read")
+    n = 5
+
+    def add(facet, text):
+        if len(bad[facet]) < 6:
+            bad[facet].append(text)
+
+    if which == "rows":
+        cases = [(a, r, None, None, False) for a in (False, True) for r in _ROWS_OK + _ROWS_BAD]
+    elif which == "cols":
+        cases = [(a, None, f, c, False) for a in (False, True) for f, c in _REQ_OK + _REQ_BAD]
+    else:
+        cases = [(a, r, f, c, s) for a in (False, True) for r in (None, [], [0, 1, 2, 3, 4], [1, 2, 3], [0, 2], [3], 2)
+                 for f, c in ((None, None), ("b", None), (None, ["c", "a"]), (None, ["a", "b", "c"])) for s in (False, True)]
+    for ascii_, rows, fields, columns, split in cases:
+        m = _Model(repo, n, ascii_)
+        kw = {}
+        if rows is not None:
+            kw["rows"] = _MArr(rows) if isinstance(rows, _MArr) else (list(rows) if isinstance(rows, list) else rows)
+        if fields is not None:
+            kw["fields"] = fields
+        if columns is not None:
+            kw["columns"] = columns
+        if split:
+            kw["split"] = True
+        what = "%s read(%s)" % ("text" if ascii_ else "binary", ", ".join("%s=%r" % kv for kv in sorted(kw.items())))
+        erows, rraise = _expect_rows(rows, n)
+        ecols, escalar, req, craise = _expect_cols(fields, columns)
+        try:
+            res = it.run(rd, [], kw, m.rf)
+        except _PyRaise as e:
+            if not (rraise or craise):
+                add("unique" if which == "rows" else "colnums" if which == "cols" else "roles", "%s raises %s" % (what, e.name))
+            continue
+        if rraise:
+            add("clamp" if isinstance(rows, int) or len(rows) == 1 else "range",
+                "%s is out of range for %d rows but is accepted (reader called with %s)" % (what, n, [(c[0], [x for x in c[1] if not isinstance(x, _MBuf)]) for c in m.calls]))
+            continue
+        if craise:
+            add("unknown", "%s names an unknown column but is accepted" % what)
+            continue
+        allrows = list(range(n))
+        want_rows = allrows if erows is None else erows
+        allcols = ecols == list(range(len(_NAMES)))
+        if not m.calls and not want_rows and isinstance(res, _MBuf) and res.n == 0 and \
+                (res.dtype == [m.descr[c] for c in ecols] or (res.dtype is m.dtype and allcols)) and not escalar and not split:
+            continue        # an empty selection answered without touching the file
+        if len(m.calls) != 1:
+            add("roles", "%s reaches the C++ object %d times (%s)" % (what, len(m.calls), [c[0] for c in m.calls]))
+            continue
+        name, ca, ck, _ = m.calls[0]
+        buf = ca[0] if ca else None
+        if name == "read_columns":
+            if ck or len(ca) != 3 or not isinstance(buf, _MBuf):
+                add("roles", "%s calls read_columns%r %r" % (what, ca, ck))
+                continue
+            _, cn, rw = ca
+            if cn is None and not ascii_:
+                add("roles", "%s passes None as the column numbers of a binary read (the C++ binary reader indexes them unconditionally)" % what)
+                continue
+            got_cols = list(range(len(_NAMES))) if cn is None else (list(cn) if isinstance(cn, (list, tuple)) else cn)
+            got_rows = allrows if rw is None else (list(rw) if isinstance(rw, (list, tuple)) else rw)
+            if got_cols != ecols:
+                add("synonym" if (fields is not None) != (columns is not None) and got_cols == list(range(len(_NAMES))) else "colnums",
+                    "%s reads column numbers %r, the request is %r (file order, no repeats)" % (what, got_cols, ecols))
+            if got_rows != want_rows:
+                add("unique", "%s reads rows %r, the distinct requested rows in ascending order are %r" % (what, got_rows, want_rows))
+            if buf.n != len(want_rows):
+                add("count", "%s allocates %d rows for %d requested" % (what, buf.n, len(want_rows)))
+            if isinstance(got_cols, list) and not (buf.dtype == [m.descr[c] for c in got_cols if 0 <= c < len(m.descr)] or (buf.dtype is m.dtype and got_cols == list(range(len(_NAMES))))):
+                add("dtype", "%s: the output dtype is %r for column numbers %r" % (what, buf.dtype, got_cols))
+        elif name == "read_binary_slice":
+            if ascii_ or not allcols:
+                add("fastpath", "%s is sent to the whole-row binary slice reader" % what)
+                continue
+            for facet, text in _norm_slice_call(m, want_rows, n).items():
+                add({"rows": "fastslice", "bounds": "fastslice", "count": "count", "buffer": "dtype", "roles": "roles"}[facet], "%s: %s" % (what, text))
+        else:
+            add("roles", "%s reaches %s" % (what, name))
+            continue
+        # what is handed back
+        if escalar:
+            if not (isinstance(res, _Tag) and res[0] == "getitem" and res[1] is buf and res[2] == req):
+                add("synonym" if isinstance(res, _Tag) and res[0] == "getitem" and res[2] is None else "scalar",
+                    "%s returns %r; a single column name yields the plain array result[%r]" % (what, res, req))
+        elif split:
+            if not (isinstance(res, _Tag) and res[0] == "split" and res[1] is buf):
+                add("split", "%s returns %r, not split_fields(result)" % (what, res))
+        elif res is not buf:
+            add("scalar" if isinstance(res, _Tag) and res[0] == "getitem" else "roles", "%s returns %r, not the array that was filled" % (what, res))
+    return bad
+
+
+def _sim_subsets(repo):
+    """RecfileColumnSubset / RecfileSubset objects built from either synonym forward rows, columns and split to Recfile.read
+    -> {facet: [counterexamples]}"""
+    bad = {"RecfileColumnSubset.read": [], "RecfileSubset.read": []}
+    it = _interp(repo)
+    for cls in ("RecfileColumnSubset", "RecfileSubset"):
+        init = repo.func(_RU + cls + ".__init__")
+        rd = repo.func(_RU + cls + ".read")
+        for syn in ("columns", "fields"):
+            for cols in ("b", ["c", "a"]):
+                for rows in (None, [3, 1, 1]):
+                    for split in (False, True):
+                        m = _Model(repo, 5, False, stub_read=True)
+                        me = _MObj(cls, cls=_RU + cls)
+                        what = "%s(rf, %s=%r%s).read(%s)" % (cls, syn, cols, ", rows=%r" % rows if cls == "RecfileSubset" else "",
+                                                             ", ".join(x for x in ("rows=%r" % rows if cls != "RecfileSubset" else "", "split=True" if split else "") if x))
+                        try:
+                            kw = {syn: cols}
+                            if cls == "RecfileSubset":
+                                kw["rows"] = rows
+                            it.run(init, [m.rf], kw, me)
+                            kw = {"split": True} if split else {}
+                            if cls != "RecfileSubset" and rows is not None:
+                                kw["rows"] = rows
+                            res = it.run(rd, [], kw, me)
+                        except _PyRaise as e:
+                            bad[cls + ".read"].append("%s raises %s" % (what, e.name))
+                            continue
+                        calls = [c for c in m.calls if c[0] == "read"]
+                        if len(calls) != 1 or len(m.calls) != 1:
+                            bad[cls + ".read"].append("%s reaches %s" % (what, [c[0] for c in m.calls]))
+                            continue
+                        _, ca, ck, r = calls[0]
+                        got_cols = ck.get("columns") if ck.get("columns") is not None else ck.get("fields")
+                        got_rows = ck.get("rows", ca[0] if ca else None)
+                        exp_rows = rows if cls != "RecfileSubset" else (None if rows is None else sorted(set(rows)))
+                        rows_ok = _same_req(got_rows, exp_rows, rows=True) or _same_req(got_rows, rows, rows=True)   # read() normalises (again)
+                        if len(ca) > 1 or not _same_req(got_cols, cols) or not rows_ok or bool(ck.get("split", False)) != split or res is not r:
+                            bad[cls + ".read"].append("%s calls recfile.read%r %r" % (what, ca, ck))
+    return bad
+
+
+def _sfile_model(repo, m):
+    robj = _MObj("recfile-of-sfile", stubs={"read": m._rec("read")}, getitem=lambda k: m._rec("getitem")(k))
+    hdr = {"k": 1}
+    sf = _MObj("sfile", attrs={"_robj": robj, "_hdr": hdr}, stubs={"_ensure_open_for_reading": lambda: None, "close": lambda: None},
+               cls="esutil.sfile.SFile")
+    return sf, hdr
+
+
+def _sim_sfile(repo):
+    """SFile.read / SFile[...] / sfile.read(filename, ...) -> {facet: [counterexamples]}"""
+    bad = {"forward": [], "synonym": [], "split": [], "reduce": [], "header": [], "getitem": [], "module-read": []}
+    it = _interp(repo)
+    rd = repo.func("esutil.sfile.SFile.read")
+    for rows in (None, [2, 0]):
+        for fields, columns in ((None, None), ("b", None), (None, "b"), (None, ["c", "a"]), (["c", "a"], None)):
+            for split, reduce_ in ((False, False), (True, False), (False, True)):
+                for header in (False, True):
+                    for via in ("SFile.read", "sfile.read"):
+                        m = _Model(repo, 5, False)
+                        sf, hdr = _sfile_model(repo, m)
+                        kw = {k: v for k, v in (("rows", rows), ("fields", fields), ("columns", columns)) if v is not None}
+                        for k, v in (("split", split), ("reduce", reduce_), ("header", header)):
+                            if v:
+                                kw[k] = True
+                        what = "%s(%s)" % (via, ", ".join("%s=%r" % kv for kv in sorted(kw.items())))
+                        try:
+                            if via == "SFile.read":
+                                res = it.run(rd, [], kw, sf)
+                            else:
+                                if not repo.has("esutil.sfile.read"):
+                                    continue
+                                it.class_stubs["SFile"] = lambda *a, **k: sf
+                                res = it.run(repo.func("esutil.sfile.read"), ["file.rec"], kw)
+                        except _PyRaise as e:
+                            bad["forward"].append("%s raises %s" % (what, e.name))
+                            continue
+                        fac = "module-read" if via == "sfile.read" else None
+                        if len(m.calls) != 1 or m.calls[0][0] != "read":
+                            bad[fac or "forward"].append("%s reaches %s" % (what, [c[0] for c in m.calls]))
+                            continue
+                        _, ca, ck, r = m.calls[0]
+                        got_cols = ck.get("columns") if ck.get("columns") is not None else ck.get("fields")
+                        want_cols = columns if columns is not None else fields
+                        if ca or not _same_req(ck.get("rows"), rows, rows=True) or any(k not in ("rows", "columns", "fields") and v not in (None, False) for k, v in ck.items()):
+                            bad[fac or "forward"].append("%s calls recfile.read%r %r" % (what, ca, ck))
+                        if not _same_req(got_cols, want_cols):
+                            bad[fac or "synonym"].append("%s asks the recfile for columns %r, the request is %r" % (what, got_cols, want_cols))
+                        body = res
+                        if header:
+                            if not (isinstance(res, tuple) and len(res) == 2 and isinstance(res[1], _Tag) and res[1][0] == "copy" and res[1][1] is hdr):
+                                bad[fac or "header"].append("%s returns %r; header=True gives (data, copy of the header)" % (what, res))
+                                continue
+                            body = res[0]
+                        want = _Tag(("split", r)) if split else _Tag(("reduce", r)) if reduce_ else r
+                        if not (body is r if want is r else isinstance(body, _Tag) and tuple(body) == tuple(want)):
+                            bad[fac or ("split" if split else "reduce" if reduce_ else "forward")].append("%s returns %r, expected %r" % (what, body, want))
+    gi = repo.func("esutil.sfile.SFile.__getitem__")
+    for arg in (slice(1, 3), [0, 2], "b"):
+        m = _Model(repo, 5, False)
+        sf, hdr = _sfile_model(repo, m)
+        try:
+            res = it.run(gi, [arg], {}, sf)
+        except _PyRaise as e:
+            bad["getitem"].append("SFile[%r] raises %s" % (arg, e.name))
+            continue
+        if len(m.calls) != 1 or m.calls[0][0] != "getitem" or m.calls[0][1] != (arg,) or res is not m.calls[0][3]:
+            bad["getitem"].append("SFile[%r] reaches %s" % (arg, [(c[0], c[1]) for c in m.calls]))
+    return bad
+
+
+def _data_model(names):
+    """model structured array: dtype.names / dtype.fields, data[name] -> a tagged view"""
+    fields = None if names is None else {n: ("<i4", 4 * i) for i, n in enumerate(names)}
+    dt = _MObj("dtype", attrs={"names": None if names is None else tuple(names), "fields": fields,
+                               "descr": [] if names is None else [(n, "<i4") for n in names], "__len__": 0 if names is None else len(names)})
+    d = _MObj("data", attrs={"dtype": dt, "size": 3}, getitem=lambda k: _Tag(("view", k)))
+    return d
+
+
+def _sim_reduce(repo, fi):
+    bad = {"single": [], "other": [], "total": []}
+    it = _interp(repo)
+    plain = _MObj("object-without-dtype")
+    for what, d, want in (("an object without dtype", plain, plain), ("a plain array", _data_model(None), None),
+                          ("a one-field array", _data_model(["x"]), _Tag(("view", "x"))), ("a two-field array", _data_model(["x", "y"]), None),
+                          ("a three-field array", _data_model(["x", "y", "z"]), None)):
+        try:
+            res = it.run(fi, [d], {})
+        except _PyRaise as e:
+            bad["total"].append("reduce_array(%s) raises %s" % (what, e.name))
+            continue
+        if res is None:
+            bad["total"].append("reduce_array(%s) returns None" % what)
+        elif isinstance(want, _Tag):
+            if not (isinstance(res, _Tag) and tuple(res) == tuple(want)):
+                bad["single"].append("reduce_array(%s) returns %r, not the view of its only field" % (what, res))
+        elif res is not d:
+            bad["other"].append("reduce_array(%s) returns %r, not the input itself" % (what, res))
+    return bad
+
+
+def _sim_split(repo, fi):
+    bad = {"order": [], "tuple": [], "default": [], "missing": [], "names": []}
+    it = _interp(repo)
+    names = ["x", "y", "z"]
+    for req, getnames in ((None, False), ("y", False), (["z", "x"], False), (["y", "y"], False), (("x",), False), (None, True), (["z", "x"], True),
+                          (["x", "nope"], False), ("nope", False)):
+        d = _data_model(names)
+        kw = {}
+        if req is not None:
+            kw["fields"] = req
+        if getnames:
+            kw["getnames"] = True
+        what = "split_fields(data%s)" % "".join(", %s=%r" % kv for kv in sorted(kw.items()))
+        want = names if req is None else ([req] if isinstance(req, str) else list(req))
+        try:
+            res = it.run(fi, [d], kw)
+        except _PyRaise as e:
+            if all(w in names for w in want):
+                bad["order" if req is not None else "default"].append("%s raises %s" % (what, e.name))
+            continue
+        if not all(w in names for w in want):
+            bad["missing"].append("%s names a field that does not exist but returns %r" % (what, res))
+            continue
+        body = res
+        if getnames:
+            if not (isinstance(res, tuple) and len(res) == 2):
+                bad["names"].append("%s returns %r, not (views, names)" % (what, res))
+                continue
+            body, nm = res
+            try:
+                if list(nm) != want:
+                    bad["names"].append("%s returns the names %r" % (what, nm))
+            except TypeError:
+                bad["names"].append("%s returns the names %r" % (what, nm))
+        if not isinstance(body, tuple) or isinstance(body, _Tag):
+            bad["tuple"].append("%s returns %r, not a tuple" % (what, body))
+            continue
+        if [tuple(v) if isinstance(v, _Tag) else v for v in body] != [("view", w) for w in want]:
+            bad["default" if req is None else "order"].append("%s returns %r, expected the views of %s in that order" % (what, body, want))
+    d = _data_model(None)
+    try:
+        res = it.run(fi, [d], {})
+        if not (isinstance(res, tuple) and len(res) == 1 and res[0] is d):
+            bad["default"].append("split_fields(<array without fields>) returns %r, not (data,)" % (res,))
+    except _PyRaise as e:
+        bad["default"].append("split_fields(<array without fields>) raises %s" % e.name)
+    try:
+        res = it.run(fi, [d], {"fields": ["x"]})
+        bad["missing"].append("split_fields(<array without fields>, fields=['x']) returns %r" % (res,))
+    except _PyRaise:
+        pass
+    return bad
